@@ -1,0 +1,13640 @@
+	.file	"test_ablogic.c"
+	.text
+.Ltext0:
+	.file 0 "/repo/aldor/aldor/src" "test/test_ablogic.c"
+	.globl	ablogTest
+	.type	ablogTest, @function
+ablogTest:
+.LFB0:
+	.file 1 "test/test_ablogic.c"
+	.loc 1 21 1
+	.cfi_startproc
+	pushq	%rbp
+	.cfi_def_cfa_offset 16
+	.cfi_offset 6, -16
+	movq	%rsp, %rbp
+	.cfi_def_cfa_register 6
+	.loc 1 22 2
+	call	init@PLT
+	.loc 1 23 2
+	movl	$0, %eax
+	call	testDnf
+	.loc 1 24 2
+	movl	$0, %eax
+	call	testAblog
+	.loc 1 25 2
+	movl	$0, %eax
+	call	testAblogSefo
+	.loc 1 26 2
+	call	fini@PLT
+	.loc 1 27 1
+	nop
+	popq	%rbp
+	.cfi_def_cfa 7, 8
+	ret
+	.cfi_endproc
+.LFE0:
+	.size	ablogTest, .-ablogTest
+	.section	.rodata
+.LC0:
+	.string	"import from Boolean"
+.LC1:
+	.string	"C0: Category == with"
+.LC2:
+	.string	"C1: Category == C0 with"
+.LC3:
+	.string	"D0: C0 with == add"
+.LC4:
+	.string	"D1: C1 with == add"
+.LC5:
+	.string	"Declare is sefo"
+.LC6:
+	.string	"Error Count"
+.LC7:
+	.string	"C0"
+.LC8:
+	.string	"C1"
+.LC9:
+	.string	"D0"
+.LC10:
+	.string	"D1"
+	.align 8
+.LC11:
+	.string	"Implies: %pAbLogic %pAbLogic %d\n"
+.LC12:
+	.string	"00"
+.LC13:
+	.string	"10"
+.LC14:
+	.string	"01"
+.LC15:
+	.string	"11"
+	.text
+	.type	testAblog, @function
+testAblog:
+.LFB1:
+	.loc 1 34 1
+	.cfi_startproc
+	pushq	%rbp
+	.cfi_def_cfa_offset 16
+	.cfi_offset 6, -16
+	movq	%rsp, %rbp
+	.cfi_def_cfa_register 6
+	pushq	%r12
+	pushq	%rbx
+	subq	$144, %rsp
+	.cfi_offset 12, -24
+	.cfi_offset 3, -32
+	.loc 1 35 9
+	leaq	.LC0(%rip), %rax
+	movq	%rax, -24(%rbp)
+	.loc 1 36 9
+	leaq	.LC1(%rip), %rax
+	movq	%rax, -32(%rbp)
+	.loc 1 37 9
+	leaq	.LC2(%rip), %rax
+	movq	%rax, -40(%rbp)
+	.loc 1 39 9
+	leaq	.LC3(%rip), %rax
+	movq	%rax, -48(%rbp)
+	.loc 1 40 9
+	leaq	.LC4(%rip), %rax
+	movq	%rax, -56(%rbp)
+	.loc 1 55 2
+	call	initFile@PLT
+	.loc 1 56 13
+	movl	$0, ablogDebug(%rip)
+	.loc 1 58 29
+	movq	String_listPointer(%rip), %rax
+	movq	16(%rax), %r10
+	movq	-56(%rbp), %rdi
+	movq	-48(%rbp), %rsi
+	movq	-40(%rbp), %rcx
+	movq	-32(%rbp), %rdx
+	movq	-24(%rbp), %rax
+	movq	%rdi, %r9
+	movq	%rsi, %r8
+	movq	%rax, %rsi
+	movl	$5, %edi
+	movl	$0, %eax
+	call	*%r10
+.LVL0:
+	movq	%rax, -64(%rbp)
+	.loc 1 60 27
+	movq	AbSyn_listPointer(%rip), %rax
+	movq	(%rax), %rbx
+	movq	-64(%rbp), %rax
+	movq	%rax, %rdi
+	call	abqParseLines@PLT
+	movq	%rax, %r12
+	movl	$0, %eax
+	call	stdtypes@PLT
+	movq	%r12, %rsi
+	movq	%rax, %rdi
+	call	*%rbx
+.LVL1:
+	movq	%rax, -72(%rbp)
+	.loc 1 61 10
+	movq	sposNone(%rip), %rax
+	movq	-72(%rbp), %rdx
+	movq	%rax, %rsi
+	movl	$64, %edi
+	call	abNewOfList@PLT
+	movq	%rax, -80(%rbp)
+	.loc 1 63 2
+	movq	-80(%rbp), %rax
+	movl	$7, %esi
+	movq	%rax, %rdi
+	call	abPutUse@PLT
+	.loc 1 65 9
+	call	stabFile@PLT
+	movq	%rax, -88(%rbp)
+	.loc 1 66 9
+	movq	sposNone(%rip), %rcx
+	movq	-88(%rbp), %rax
+	movl	$2, %edx
+	movq	%rcx, %rsi
+	movq	%rax, %rdi
+	call	stabPushLevel@PLT
+	movq	%rax, -96(%rbp)
+	.loc 1 68 2
+	movq	-80(%rbp), %rdx
+	movq	-96(%rbp), %rax
+	movq	%rdx, %rsi
+	movq	%rax, %rdi
+	call	scopeBind@PLT
+	.loc 1 69 2
+	movq	-80(%rbp), %rdx
+	movq	-96(%rbp), %rax
+	movq	%rdx, %rsi
+	movq	%rax, %rdi
+	call	typeInfer@PLT
+	.loc 1 71 46
+	movq	-80(%rbp), %rax
+	movzbl	2(%rax), %eax
+	.loc 1 71 2
+	cmpb	$2, %al
+	sete	%al
+	movzbl	%al, %eax
+	movl	%eax, %esi
+	leaq	.LC5(%rip), %rax
+	movq	%rax, %rdi
+	call	testTrue@PLT
+	.loc 1 72 2
+	call	comsgErrorCount@PLT
+	movl	%eax, %edx
+	movl	$0, %esi
+	leaq	.LC6(%rip), %rax
+	movq	%rax, %rdi
+	call	testIntEqual@PLT
+	.loc 1 74 7
+	movq	-96(%rbp), %rax
+	leaq	.LC7(%rip), %rdx
+	movq	%rdx, %rsi
+	movq	%rax, %rdi
+	call	uniqueMeaning@PLT
+	movq	%rax, -104(%rbp)
+	.loc 1 75 7
+	movq	-96(%rbp), %rax
+	leaq	.LC8(%rip), %rdx
+	movq	%rdx, %rsi
+	movq	%rax, %rdi
+	call	uniqueMeaning@PLT
+	movq	%rax, -112(%rbp)
+	.loc 1 76 7
+	movq	-96(%rbp), %rax
+	leaq	.LC9(%rip), %rdx
+	movq	%rdx, %rsi
+	movq	%rax, %rdi
+	call	uniqueMeaning@PLT
+	movq	%rax, -120(%rbp)
+	.loc 1 77 7
+	movq	-96(%rbp), %rax
+	leaq	.LC10(%rip), %rdx
+	movq	%rdx, %rsi
+	movq	%rax, %rdi
+	call	uniqueMeaning@PLT
+	movq	%rax, -128(%rbp)
+	.loc 1 78 10
+	movq	-112(%rbp), %rax
+	movq	%rax, %rdi
+	call	abFrSyme@PLT
+	movq	%rax, %rbx
+	movq	-128(%rbp), %rax
+	movq	%rax, %rdi
+	call	abFrSyme@PLT
+	movq	%rbx, %rsi
+	movq	%rax, %rdi
+	call	has@PLT
+	movq	%rax, -136(%rbp)
+	.loc 1 79 10
+	movq	-104(%rbp), %rax
+	movq	%rax, %rdi
+	call	abFrSyme@PLT
+	movq	%rax, %rbx
+	movq	-128(%rbp), %rax
+	movq	%rax, %rdi
+	call	abFrSyme@PLT
+	movq	%rbx, %rsi
+	movq	%rax, %rdi
+	call	has@PLT
+	movq	%rax, -144(%rbp)
+	.loc 1 80 2
+	movq	-144(%rbp), %rdx
+	movq	-96(%rbp), %rax
+	movq	%rdx, %rsi
+	movq	%rax, %rdi
+	call	tiSefo@PLT
+	.loc 1 81 2
+	movq	-136(%rbp), %rdx
+	movq	-96(%rbp), %rax
+	movq	%rdx, %rsi
+	movq	%rax, %rdi
+	call	tiSefo@PLT
+	.loc 1 83 10
+	movq	-144(%rbp), %rax
+	movq	%rax, %rdi
+	call	ablogFrSefo@PLT
+	movq	%rax, -152(%rbp)
+	.loc 1 84 10
+	movq	-136(%rbp), %rax
+	movq	%rax, %rdi
+	call	ablogFrSefo@PLT
+	movq	%rax, -160(%rbp)
+	.loc 1 86 2
+	movq	-152(%rbp), %rdx
+	movq	-160(%rbp), %rax
+	movq	%rdx, %rsi
+	movq	%rax, %rdi
+	call	ablogImplies@PLT
+	movl	%eax, %esi
+	movq	dbOut(%rip), %rax
+	movq	-152(%rbp), %rcx
+	movq	-160(%rbp), %rdx
+	movl	%esi, %r8d
+	leaq	.LC11(%rip), %rsi
+	movq	%rax, %rdi
+	movl	$0, %eax
+	call	afprintf@PLT
+	.loc 1 87 2
+	movq	-160(%rbp), %rdx
+	movq	-152(%rbp), %rax
+	movq	%rdx, %rsi
+	movq	%rax, %rdi
+	call	ablogImplies@PLT
+	movl	%eax, %esi
+	movq	dbOut(%rip), %rax
+	movq	-160(%rbp), %rcx
+	movq	-152(%rbp), %rdx
+	movl	%esi, %r8d
+	leaq	.LC11(%rip), %rsi
+	movq	%rax, %rdi
+	movl	$0, %eax
+	call	afprintf@PLT
+	.loc 1 89 2
+	movq	-152(%rbp), %rdx
+	movq	-152(%rbp), %rax
+	movq	%rdx, %rsi
+	movq	%rax, %rdi
+	call	ablogImplies@PLT
+	movl	%eax, %esi
+	leaq	.LC12(%rip), %rax
+	movq	%rax, %rdi
+	call	testTrue@PLT
+	.loc 1 90 2
+	movq	-152(%rbp), %rdx
+	movq	-160(%rbp), %rax
+	movq	%rdx, %rsi
+	movq	%rax, %rdi
+	call	ablogImplies@PLT
+	movl	%eax, %esi
+	leaq	.LC13(%rip), %rax
+	movq	%rax, %rdi
+	call	testTrue@PLT
+	.loc 1 91 2
+	movq	-160(%rbp), %rdx
+	movq	-152(%rbp), %rax
+	movq	%rdx, %rsi
+	movq	%rax, %rdi
+	call	ablogImplies@PLT
+	movl	%eax, %esi
+	leaq	.LC14(%rip), %rax
+	movq	%rax, %rdi
+	call	testFalse@PLT
+	.loc 1 92 2
+	movq	-160(%rbp), %rdx
+	movq	-160(%rbp), %rax
+	movq	%rdx, %rsi
+	movq	%rax, %rdi
+	call	ablogImplies@PLT
+	movl	%eax, %esi
+	leaq	.LC15(%rip), %rax
+	movq	%rax, %rdi
+	call	testTrue@PLT
+	.loc 1 93 2
+	call	finiFile@PLT
+	.loc 1 94 1
+	nop
+	addq	$144, %rsp
+	popq	%rbx
+	popq	%r12
+	popq	%rbp
+	.cfi_def_cfa 7, 8
+	ret
+	.cfi_endproc
+.LFE1:
+	.size	testAblog, .-testAblog
+	.section	.rodata
+	.align 8
+.LC16:
+	.string	"D0: with { prime?: % -> Boolean } == add { prime?(a: %): Boolean == never }"
+.LC17:
+	.string	"import from D0"
+.LC18:
+	.string	"d0: D0 == never"
+.LC19:
+	.string	"prime?"
+.LC20:
+	.string	"d0"
+.LC21:
+	.string	""
+.LC22:
+	.string	"qual"
+.LC23:
+	.string	"test"
+.LC24:
+	.string	"pretend"
+.LC25:
+	.string	"restrict"
+	.text
+	.type	testAblogSefo, @function
+testAblogSefo:
+.LFB2:
+	.loc 1 100 1
+	.cfi_startproc
+	pushq	%rbp
+	.cfi_def_cfa_offset 16
+	.cfi_offset 6, -16
+	movq	%rsp, %rbp
+	.cfi_def_cfa_register 6
+	pushq	%r12
+	pushq	%rbx
+	subq	$112, %rsp
+	.cfi_offset 12, -24
+	.cfi_offset 3, -32
+	.loc 1 101 9
+	leaq	.LC0(%rip), %rax
+	movq	%rax, -24(%rbp)
+	.loc 1 103 9
+	leaq	.LC16(%rip), %rax
+	movq	%rax, -32(%rbp)
+	.loc 1 104 9
+	leaq	.LC17(%rip), %rax
+	movq	%rax, -40(%rbp)
+	.loc 1 105 9
+	leaq	.LC18(%rip), %rax
+	movq	%rax, -48(%rbp)
+	.loc 1 117 2
+	call	initFile@PLT
+	.loc 1 118 13
+	movl	$1, ablogDebug(%rip)
+	.loc 1 119 17
+	movl	$1, sefoEqualDebug(%rip)
+	.loc 1 121 29
+	movq	String_listPointer(%rip), %rax
+	movq	16(%rax), %r9
+	movq	-48(%rbp), %rsi
+	movq	-40(%rbp), %rcx
+	movq	-32(%rbp), %rdx
+	movq	-24(%rbp), %rax
+	movq	%rsi, %r8
+	movq	%rax, %rsi
+	movl	$4, %edi
+	movl	$0, %eax
+	call	*%r9
+.LVL2:
+	movq	%rax, -56(%rbp)
+	.loc 1 123 27
+	movq	AbSyn_listPointer(%rip), %rax
+	movq	(%rax), %rbx
+	movq	-56(%rbp), %rax
+	movq	%rax, %rdi
+	call	abqParseLines@PLT
+	movq	%rax, %r12
+	movl	$0, %eax
+	call	stdtypes@PLT
+	movq	%r12, %rsi
+	movq	%rax, %rdi
+	call	*%rbx
+.LVL3:
+	movq	%rax, -64(%rbp)
+	.loc 1 124 10
+	movq	sposNone(%rip), %rax
+	movq	-64(%rbp), %rdx
+	movq	%rax, %rsi
+	movl	$64, %edi
+	call	abNewOfList@PLT
+	movq	%rax, -72(%rbp)
+	.loc 1 125 2
+	movq	-72(%rbp), %rax
+	movl	$7, %esi
+	movq	%rax, %rdi
+	call	abPutUse@PLT
+	.loc 1 127 9
+	call	stabFile@PLT
+	movq	%rax, -80(%rbp)
+	.loc 1 128 9
+	movq	sposNone(%rip), %rcx
+	movq	-80(%rbp), %rax
+	movl	$2, %edx
+	movq	%rcx, %rsi
+	movq	%rax, %rdi
+	call	stabPushLevel@PLT
+	movq	%rax, -88(%rbp)
+	.loc 1 130 2
+	movq	-72(%rbp), %rdx
+	movq	-88(%rbp), %rax
+	movq	%rdx, %rsi
+	movq	%rax, %rdi
+	call	scopeBind@PLT
+	.loc 1 131 2
+	movq	-72(%rbp), %rdx
+	movq	-88(%rbp), %rax
+	movq	%rdx, %rsi
+	movq	%rax, %rdi
+	call	typeInfer@PLT
+	.loc 1 132 46
+	movq	-72(%rbp), %rax
+	movzbl	2(%rax), %eax
+	.loc 1 132 2
+	cmpb	$2, %al
+	sete	%al
+	movzbl	%al, %eax
+	movl	%eax, %esi
+	leaq	.LC5(%rip), %rax
+	movq	%rax, %rdi
+	call	testTrue@PLT
+	.loc 1 133 2
+	call	comsgErrorCount@PLT
+	movl	%eax, %edx
+	movl	$0, %esi
+	leaq	.LC6(%rip), %rax
+	movq	%rax, %rdi
+	call	testIntEqual@PLT
+	.loc 1 135 10
+	movq	-88(%rbp), %rax
+	leaq	.LC19(%rip), %rdx
+	movq	%rdx, %rsi
+	movq	%rax, %rdi
+	call	uniqueMeaning@PLT
+	movq	%rax, %rdi
+	call	abFrSyme@PLT
+	movq	%rax, -96(%rbp)
+	.loc 1 136 7
+	movq	-88(%rbp), %rax
+	leaq	.LC20(%rip), %rdx
+	movq	%rdx, %rsi
+	movq	%rax, %rdi
+	call	uniqueMeaning@PLT
+	movq	%rax, %rdi
+	call	abFrSyme@PLT
+	movq	%rax, -104(%rbp)
+	.loc 1 137 7
+	movq	-88(%rbp), %rax
+	leaq	.LC9(%rip), %rdx
+	movq	%rdx, %rsi
+	movq	%rax, %rdi
+	call	uniqueMeaning@PLT
+	movq	%rax, %rdi
+	call	abFrSyme@PLT
+	movq	%rax, -112(%rbp)
+	.loc 1 138 10
+	movq	-104(%rbp), %rdx
+	movq	-96(%rbp), %rax
+	movq	%rdx, %rsi
+	movq	%rax, %rdi
+	call	apply1@PLT
+	movq	%rax, -120(%rbp)
+	.loc 1 139 10
+	movq	-112(%rbp), %rdx
+	movq	-96(%rbp), %rax
+	movq	%rdx, %rsi
+	movq	%rax, %rdi
+	call	qualify@PLT
+	movq	%rax, %rdx
+	movq	-104(%rbp), %rax
+	movq	%rax, %rsi
+	movq	%rdx, %rdi
+	call	apply1@PLT
+	movq	%rax, -128(%rbp)
+	.loc 1 141 2
+	movq	-104(%rbp), %rdx
+	movq	-96(%rbp), %rax
+	movq	%rdx, %rsi
+	movq	%rax, %rdi
+	call	apply1@PLT
+	movq	%rax, %rbx
+	movq	-104(%rbp), %rdx
+	movq	-96(%rbp), %rax
+	movq	%rdx, %rsi
+	movq	%rax, %rdi
+	call	apply1@PLT
+	movq	%rax, %rdx
+	movq	-88(%rbp), %rax
+	movq	%rbx, %rcx
+	movq	%rax, %rsi
+	leaq	.LC21(%rip), %rax
+	movq	%rax, %rdi
+	call	testAbLogEqual
+	.loc 1 142 2
+	movq	-104(%rbp), %rdx
+	movq	-96(%rbp), %rax
+	movq	%rdx, %rsi
+	movq	%rax, %rdi
+	call	apply1@PLT
+	movq	%rax, %rbx
+	movq	-112(%rbp), %rdx
+	movq	-96(%rbp), %rax
+	movq	%rdx, %rsi
+	movq	%rax, %rdi
+	call	qualify@PLT
+	movq	%rax, %rdx
+	movq	-104(%rbp), %rax
+	movq	%rax, %rsi
+	movq	%rdx, %rdi
+	call	apply1@PLT
+	movq	%rax, %rdx
+	movq	-88(%rbp), %rax
+	movq	%rbx, %rcx
+	movq	%rax, %rsi
+	leaq	.LC22(%rip), %rax
+	movq	%rax, %rdi
+	call	testAbLogEqual
+	.loc 1 143 2
+	movq	-104(%rbp), %rdx
+	movq	-96(%rbp), %rax
+	movq	%rdx, %rsi
+	movq	%rax, %rdi
+	call	apply1@PLT
+	movq	%rax, %rbx
+	movq	-104(%rbp), %rdx
+	movq	-96(%rbp), %rax
+	movq	%rdx, %rsi
+	movq	%rax, %rdi
+	call	apply1@PLT
+	movq	%rax, %rdi
+	call	test@PLT
+	movq	%rax, %rdx
+	movq	-88(%rbp), %rax
+	movq	%rbx, %rcx
+	movq	%rax, %rsi
+	leaq	.LC23(%rip), %rax
+	movq	%rax, %rdi
+	call	testAbLogEqual
+	.loc 1 144 2
+	movq	-104(%rbp), %rdx
+	movq	-96(%rbp), %rax
+	movq	%rdx, %rsi
+	movq	%rax, %rdi
+	call	apply1@PLT
+	movq	%rax, %rbx
+	movq	-112(%rbp), %rdx
+	movq	-104(%rbp), %rax
+	movq	%rdx, %rsi
+	movq	%rax, %rdi
+	call	pretend@PLT
+	movq	%rax, %rdx
+	movq	-96(%rbp), %rax
+	movq	%rdx, %rsi
+	movq	%rax, %rdi
+	call	apply1@PLT
+	movq	%rax, %rdx
+	movq	-88(%rbp), %rax
+	movq	%rbx, %rcx
+	movq	%rax, %rsi
+	leaq	.LC24(%rip), %rax
+	movq	%rax, %rdi
+	call	testAbLogEqual
+	.loc 1 145 2
+	movq	-104(%rbp), %rdx
+	movq	-96(%rbp), %rax
+	movq	%rdx, %rsi
+	movq	%rax, %rdi
+	call	apply1@PLT
+	movq	%rax, %rbx
+	movq	-112(%rbp), %rdx
+	movq	-104(%rbp), %rax
+	movq	%rdx, %rsi
+	movq	%rax, %rdi
+	call	restrictTo@PLT
+	movq	%rax, %rdx
+	movq	-96(%rbp), %rax
+	movq	%rdx, %rsi
+	movq	%rax, %rdi
+	call	apply1@PLT
+	movq	%rax, %rdx
+	movq	-88(%rbp), %rax
+	movq	%rbx, %rcx
+	movq	%rax, %rsi
+	leaq	.LC25(%rip), %rax
+	movq	%rax, %rdi
+	call	testAbLogEqual
+	.loc 1 146 2
+	call	finiFile@PLT
+	.loc 1 147 1
+	nop
+	addq	$112, %rsp
+	popq	%rbx
+	popq	%r12
+	popq	%rbp
+	.cfi_def_cfa 7, 8
+	ret
+	.cfi_endproc
+.LFE2:
+	.size	testAblogSefo, .-testAblogSefo
+	.type	testAbLogEqual, @function
+testAbLogEqual:
+.LFB3:
+	.loc 1 151 1
+	.cfi_startproc
+	pushq	%rbp
+	.cfi_def_cfa_offset 16
+	.cfi_offset 6, -16
+	movq	%rsp, %rbp
+	.cfi_def_cfa_register 6
+	subq	$48, %rsp
+	movq	%rdi, -24(%rbp)
+	movq	%rsi, -32(%rbp)
+	movq	%rdx, -40(%rbp)
+	movq	%rcx, -48(%rbp)
+	.loc 1 154 2
+	movq	-40(%rbp), %rdx
+	movq	-32(%rbp), %rax
+	movq	%rdx, %rsi
+	movq	%rax, %rdi
+	call	tiSefo@PLT
+	.loc 1 155 2
+	movq	-48(%rbp), %rdx
+	movq	-32(%rbp), %rax
+	movq	%rdx, %rsi
+	movq	%rax, %rdi
+	call	tiSefo@PLT
+	.loc 1 156 11
+	movq	-40(%rbp), %rax
+	movq	%rax, %rdi
+	call	ablogFrSefo@PLT
+	movq	%rax, -8(%rbp)
+	.loc 1 157 11
+	movq	-48(%rbp), %rax
+	movq	%rax, %rdi
+	call	ablogFrSefo@PLT
+	movq	%rax, -16(%rbp)
+	.loc 1 158 2
+	movq	-16(%rbp), %rdx
+	movq	-8(%rbp), %rax
+	movq	%rdx, %rsi
+	movq	%rax, %rdi
+	call	dnfEqual@PLT
+	movl	%eax, %edx
+	movq	-24(%rbp), %rax
+	movl	%edx, %esi
+	movq	%rax, %rdi
+	call	testTrue@PLT
+	.loc 1 159 1
+	nop
+	leave
+	.cfi_def_cfa 7, 8
+	ret
+	.cfi_endproc
+.LFE3:
+	.size	testAbLogEqual, .-testAbLogEqual
+	.section	.rodata
+.LC26:
+	.string	"true"
+.LC27:
+	.string	"false"
+.LC28:
+	.string	"DNF1"
+.LC29:
+	.string	"DNF2"
+.LC30:
+	.string	"DNF3"
+	.text
+	.type	testDnf, @function
+testDnf:
+.LFB4:
+	.loc 1 163 1
+	.cfi_startproc
+	pushq	%rbp
+	.cfi_def_cfa_offset 16
+	.cfi_offset 6, -16
+	movq	%rsp, %rbp
+	.cfi_def_cfa_register 6
+	pushq	%r12
+	pushq	%rbx
+	subq	$16, %rsp
+	.cfi_offset 12, -24
+	.cfi_offset 3, -32
+	.loc 1 164 10
+	movl	$1, %edi
+	call	dnfAtom@PLT
+	movq	%rax, -24(%rbp)
+	.loc 1 165 10
+	movl	$2, %edi
+	call	dnfAtom@PLT
+	movq	%rax, -32(%rbp)
+	.loc 1 167 2
+	call	dnfTrue@PLT
+	movq	%rax, %rdi
+	call	dnfIsFalse@PLT
+	movl	%eax, %esi
+	leaq	.LC26(%rip), %rax
+	movq	%rax, %rdi
+	call	testFalse@PLT
+	.loc 1 168 2
+	call	dnfFalse@PLT
+	movq	%rax, %rdi
+	call	dnfIsTrue@PLT
+	movl	%eax, %esi
+	leaq	.LC27(%rip), %rax
+	movq	%rax, %rdi
+	call	testFalse@PLT
+	.loc 1 170 2
+	movl	$1, %edi
+	call	dnfNotAtom@PLT
+	movq	%rax, %rbx
+	movl	$1, %edi
+	call	dnfAtom@PLT
+	movq	%rbx, %rsi
+	movq	%rax, %rdi
+	call	dnfOr@PLT
+	movq	%rax, %rdi
+	call	dnfIsTrue@PLT
+	movl	%eax, %esi
+	leaq	.LC28(%rip), %rax
+	movq	%rax, %rdi
+	call	testTrue@PLT
+	.loc 1 171 2
+	movl	$2, %edi
+	call	dnfNotAtom@PLT
+	movq	%rax, %rbx
+	movl	$1, %edi
+	call	dnfNotAtom@PLT
+	movq	%rbx, %rsi
+	movq	%rax, %rdi
+	call	dnfAnd@PLT
+	movq	%rax, %rbx
+	movl	$2, %edi
+	call	dnfAtom@PLT
+	movq	%rax, %r12
+	movl	$1, %edi
+	call	dnfAtom@PLT
+	movq	%r12, %rsi
+	movq	%rax, %rdi
+	call	dnfAnd@PLT
+	movq	%rbx, %rsi
+	movq	%rax, %rdi
+	call	dnfOr@PLT
+	movq	%rax, %rdi
+	call	dnfIsTrue@PLT
+	movl	%eax, %esi
+	leaq	.LC29(%rip), %rax
+	movq	%rax, %rdi
+	call	testTrue@PLT
+	.loc 1 173 2
+	movl	$1, %edi
+	call	dnfNotAtom@PLT
+	movq	%rax, %rbx
+	movl	$1, %edi
+	call	dnfAtom@PLT
+	movq	%rbx, %rsi
+	movq	%rax, %rdi
+	call	dnfAnd@PLT
+	movq	%rax, %rdi
+	call	dnfIsFalse@PLT
+	movl	%eax, %esi
+	leaq	.LC30(%rip), %rax
+	movq	%rax, %rdi
+	call	testTrue@PLT
+	.loc 1 174 1
+	nop
+	addq	$16, %rsp
+	popq	%rbx
+	popq	%r12
+	popq	%rbp
+	.cfi_def_cfa 7, 8
+	ret
+	.cfi_endproc
+.LFE4:
+	.size	testDnf, .-testDnf
+.Letext0:
+	.file 2 "/usr/include/x86_64-linux-gnu/bits/types.h"
+	.file 3 "<built-in>"
+	.file 4 "/usr/lib/gcc/x86_64-linux-gnu/12/include/stddef.h"
+	.file 5 "/usr/include/x86_64-linux-gnu/bits/types/struct_FILE.h"
+	.file 6 "/usr/include/x86_64-linux-gnu/bits/types/FILE.h"
+	.file 7 "./cport.h"
+	.file 8 "./buffer.h"
+	.file 9 "./ostream.h"
+	.file 10 "./axlgen.h"
+	.file 11 "./fname.h"
+	.file 12 "./srcpos.h"
+	.file 13 "./table.h"
+	.file 14 "./axlobs.h"
+	.file 15 "./symbol.h"
+	.file 16 "./absyn.h"
+	.file 17 "./ablogic.h"
+	.file 18 "./syme.h"
+	.file 19 "./tform.h"
+	.file 20 "./foam.h"
+	.file 21 "./lib.h"
+	.file 22 "./stab.h"
+	.file 23 "./strops.h"
+	.file 24 "./debug.h"
+	.file 25 "./tfcond.h"
+	.file 26 "./symeset.h"
+	.file 27 "./dnf.h"
+	.file 28 "test/abquick.h"
+	.file 29 "./format.h"
+	.file 30 "test/testlib.h"
+	.file 31 "./ti_sef.h"
+	.file 32 "./comsg.h"
+	.file 33 "./tinfer.h"
+	.file 34 "./scobind.h"
+	.file 35 "./abuse.h"
+	.section	.debug_info,"",@progbits
+.Ldebug_info0:
+	.long	0x5244
+	.value	0x5
+	.byte	0x1
+	.byte	0x8
+	.long	.Ldebug_abbrev0
+	.uleb128 0x2c
+	.long	.LASF750
+	.byte	0xc
+	.long	.LASF0
+	.long	.LASF1
+	.quad	.Ltext0
+	.quad	.Letext0-.Ltext0
+	.long	.Ldebug_line0
+	.uleb128 0x2d
+	.byte	0x4
+	.byte	0x5
+	.string	"int"
+	.uleb128 0x15
+	.byte	0x1
+	.byte	0x8
+	.long	.LASF2
+	.uleb128 0x15
+	.byte	0x2
+	.byte	0x7
+	.long	.LASF3
+	.uleb128 0x15
+	.byte	0x4
+	.byte	0x7
+	.long	.LASF4
+	.uleb128 0x15
+	.byte	0x8
+	.byte	0x7
+	.long	.LASF5
+	.uleb128 0x15
+	.byte	0x1
+	.byte	0x6
+	.long	.LASF6
+	.uleb128 0x15
+	.byte	0x2
+	.byte	0x5
+	.long	.LASF7
+	.uleb128 0x15
+	.byte	0x8
+	.byte	0x5
+	.long	.LASF8
+	.uleb128 0xa
+	.long	.LASF9
+	.byte	0x2
+	.byte	0x98
+	.byte	0x12
+	.long	0x5f
+	.uleb128 0xa
+	.long	.LASF10
+	.byte	0x2
+	.byte	0x99
+	.byte	0x12
+	.long	0x5f
+	.uleb128 0x2e
+	.byte	0x8
+	.uleb128 0x7
+	.long	0x85
+	.uleb128 0x15
+	.byte	0x1
+	.byte	0x6
+	.long	.LASF11
+	.uleb128 0x22
+	.long	0x85
+	.uleb128 0x15
+	.byte	0x4
+	.byte	0x4
+	.long	.LASF12
+	.uleb128 0x15
+	.byte	0x8
+	.byte	0x4
+	.long	.LASF13
+	.uleb128 0x2f
+	.long	.LASF751
+	.byte	0x18
+	.byte	0x3
+	.byte	0
+	.long	0xd4
+	.uleb128 0x1b
+	.long	.LASF14
+	.long	0x43
+	.byte	0
+	.uleb128 0x1b
+	.long	.LASF15
+	.long	0x43
+	.byte	0x4
+	.uleb128 0x1b
+	.long	.LASF16
+	.long	0x7e
+	.byte	0x8
+	.uleb128 0x1b
+	.long	.LASF17
+	.long	0x7e
+	.byte	0x10
+	.byte	0
+	.uleb128 0xa
+	.long	.LASF18
+	.byte	0x4
+	.byte	0xd6
+	.byte	0x1b
+	.long	0x4a
+	.uleb128 0xc
+	.long	.LASF72
+	.byte	0xd8
+	.byte	0x5
+	.byte	0x31
+	.byte	0x8
+	.long	0x267
+	.uleb128 0x3
+	.long	.LASF19
+	.byte	0x5
+	.byte	0x33
+	.byte	0x7
+	.long	0x2e
+	.byte	0
+	.uleb128 0x3
+	.long	.LASF20
+	.byte	0x5
+	.byte	0x36
+	.byte	0x9
+	.long	0x80
+	.byte	0x8
+	.uleb128 0x3
+	.long	.LASF21
+	.byte	0x5
+	.byte	0x37
+	.byte	0x9
+	.long	0x80
+	.byte	0x10
+	.uleb128 0x3
+	.long	.LASF22
+	.byte	0x5
+	.byte	0x38
+	.byte	0x9
+	.long	0x80
+	.byte	0x18
+	.uleb128 0x3
+	.long	.LASF23
+	.byte	0x5
+	.byte	0x39
+	.byte	0x9
+	.long	0x80
+	.byte	0x20
+	.uleb128 0x3
+	.long	.LASF24
+	.byte	0x5
+	.byte	0x3a
+	.byte	0x9
+	.long	0x80
+	.byte	0x28
+	.uleb128 0x3
+	.long	.LASF25
+	.byte	0x5
+	.byte	0x3b
+	.byte	0x9
+	.long	0x80
+	.byte	0x30
+	.uleb128 0x3
+	.long	.LASF26
+	.byte	0x5
+	.byte	0x3c
+	.byte	0x9
+	.long	0x80
+	.byte	0x38
+	.uleb128 0x3
+	.long	.LASF27
+	.byte	0x5
+	.byte	0x3d
+	.byte	0x9
+	.long	0x80
+	.byte	0x40
+	.uleb128 0x3
+	.long	.LASF28
+	.byte	0x5
+	.byte	0x40
+	.byte	0x9
+	.long	0x80
+	.byte	0x48
+	.uleb128 0x3
+	.long	.LASF29
+	.byte	0x5
+	.byte	0x41
+	.byte	0x9
+	.long	0x80
+	.byte	0x50
+	.uleb128 0x3
+	.long	.LASF30
+	.byte	0x5
+	.byte	0x42
+	.byte	0x9
+	.long	0x80
+	.byte	0x58
+	.uleb128 0x3
+	.long	.LASF31
+	.byte	0x5
+	.byte	0x44
+	.byte	0x16
+	.long	0x280
+	.byte	0x60
+	.uleb128 0x3
+	.long	.LASF32
+	.byte	0x5
+	.byte	0x46
+	.byte	0x14
+	.long	0x285
+	.byte	0x68
+	.uleb128 0x3
+	.long	.LASF33
+	.byte	0x5
+	.byte	0x48
+	.byte	0x7
+	.long	0x2e
+	.byte	0x70
+	.uleb128 0x3
+	.long	.LASF34
+	.byte	0x5
+	.byte	0x49
+	.byte	0x7
+	.long	0x2e
+	.byte	0x74
+	.uleb128 0x3
+	.long	.LASF35
+	.byte	0x5
+	.byte	0x4a
+	.byte	0xb
+	.long	0x66
+	.byte	0x78
+	.uleb128 0x3
+	.long	.LASF36
+	.byte	0x5
+	.byte	0x4d
+	.byte	0x12
+	.long	0x3c
+	.byte	0x80
+	.uleb128 0x3
+	.long	.LASF37
+	.byte	0x5
+	.byte	0x4e
+	.byte	0xf
+	.long	0x51
+	.byte	0x82
+	.uleb128 0x3
+	.long	.LASF38
+	.byte	0x5
+	.byte	0x4f
+	.byte	0x8
+	.long	0x28a
+	.byte	0x83
+	.uleb128 0x3
+	.long	.LASF39
+	.byte	0x5
+	.byte	0x51
+	.byte	0xf
+	.long	0x29a
+	.byte	0x88
+	.uleb128 0x3
+	.long	.LASF40
+	.byte	0x5
+	.byte	0x59
+	.byte	0xd
+	.long	0x72
+	.byte	0x90
+	.uleb128 0x3
+	.long	.LASF41
+	.byte	0x5
+	.byte	0x5b
+	.byte	0x17
+	.long	0x2a4
+	.byte	0x98
+	.uleb128 0x3
+	.long	.LASF42
+	.byte	0x5
+	.byte	0x5c
+	.byte	0x19
+	.long	0x2ae
+	.byte	0xa0
+	.uleb128 0x3
+	.long	.LASF43
+	.byte	0x5
+	.byte	0x5d
+	.byte	0x14
+	.long	0x285
+	.byte	0xa8
+	.uleb128 0x3
+	.long	.LASF44
+	.byte	0x5
+	.byte	0x5e
+	.byte	0x9
+	.long	0x7e
+	.byte	0xb0
+	.uleb128 0x3
+	.long	.LASF45
+	.byte	0x5
+	.byte	0x5f
+	.byte	0xa
+	.long	0xd4
+	.byte	0xb8
+	.uleb128 0x3
+	.long	.LASF46
+	.byte	0x5
+	.byte	0x60
+	.byte	0x7
+	.long	0x2e
+	.byte	0xc0
+	.uleb128 0x3
+	.long	.LASF47
+	.byte	0x5
+	.byte	0x62
+	.byte	0x8
+	.long	0x2b3
+	.byte	0xc4
+	.byte	0
+	.uleb128 0xa
+	.long	.LASF48
+	.byte	0x6
+	.byte	0x7
+	.byte	0x19
+	.long	0xe0
+	.uleb128 0x30
+	.long	.LASF752
+	.byte	0x5
+	.byte	0x2b
+	.byte	0xe
+	.uleb128 0x10
+	.long	.LASF49
+	.uleb128 0x7
+	.long	0x27b
+	.uleb128 0x7
+	.long	0xe0
+	.uleb128 0x13
+	.long	0x85
+	.long	0x29a
+	.uleb128 0x14
+	.long	0x4a
+	.byte	0
+	.byte	0
+	.uleb128 0x7
+	.long	0x273
+	.uleb128 0x10
+	.long	.LASF50
+	.uleb128 0x7
+	.long	0x29f
+	.uleb128 0x10
+	.long	.LASF51
+	.uleb128 0x7
+	.long	0x2a9
+	.uleb128 0x13
+	.long	0x85
+	.long	0x2c3
+	.uleb128 0x14
+	.long	0x4a
+	.byte	0x13
+	.byte	0
+	.uleb128 0x7
+	.long	0x267
+	.uleb128 0x15
+	.byte	0x8
+	.byte	0x5
+	.long	.LASF52
+	.uleb128 0x7
+	.long	0x8c
+	.uleb128 0xf
+	.long	.LASF53
+	.byte	0x7
+	.value	0x138
+	.byte	0x17
+	.long	0x35
+	.uleb128 0xf
+	.long	.LASF54
+	.byte	0x7
+	.value	0x139
+	.byte	0x18
+	.long	0x3c
+	.uleb128 0xf
+	.long	.LASF55
+	.byte	0x7
+	.value	0x13a
+	.byte	0x17
+	.long	0x4a
+	.uleb128 0xf
+	.long	.LASF56
+	.byte	0x7
+	.value	0x141
+	.byte	0x10
+	.long	0x5f
+	.uleb128 0xf
+	.long	.LASF57
+	.byte	0x7
+	.value	0x142
+	.byte	0x19
+	.long	0x4a
+	.uleb128 0xf
+	.long	.LASF58
+	.byte	0x7
+	.value	0x156
+	.byte	0xd
+	.long	0x2e
+	.uleb128 0xf
+	.long	.LASF59
+	.byte	0x7
+	.value	0x157
+	.byte	0xf
+	.long	0x308
+	.uleb128 0xf
+	.long	.LASF60
+	.byte	0x7
+	.value	0x158
+	.byte	0x10
+	.long	0xd4
+	.uleb128 0xf
+	.long	.LASF61
+	.byte	0x7
+	.value	0x159
+	.byte	0xf
+	.long	0x2ee
+	.uleb128 0xf
+	.long	.LASF62
+	.byte	0x7
+	.value	0x166
+	.byte	0x12
+	.long	0x7e
+	.uleb128 0xf
+	.long	.LASF63
+	.byte	0x7
+	.value	0x16a
+	.byte	0xf
+	.long	0x80
+	.uleb128 0xf
+	.long	.LASF64
+	.byte	0x7
+	.value	0x16b
+	.byte	0x15
+	.long	0x2cf
+	.uleb128 0xf
+	.long	.LASF65
+	.byte	0x7
+	.value	0x176
+	.byte	0x11
+	.long	0x91
+	.uleb128 0xf
+	.long	.LASF66
+	.byte	0x7
+	.value	0x178
+	.byte	0x10
+	.long	0x98
+	.uleb128 0xf
+	.long	.LASF67
+	.byte	0x7
+	.value	0x17a
+	.byte	0x10
+	.long	0x98
+	.uleb128 0xa
+	.long	.LASF68
+	.byte	0x8
+	.byte	0x10
+	.byte	0x18
+	.long	0x3a3
+	.uleb128 0x7
+	.long	0x3a8
+	.uleb128 0x10
+	.long	.LASF69
+	.uleb128 0xa
+	.long	.LASF70
+	.byte	0x9
+	.byte	0x7
+	.byte	0xf
+	.long	0x3b9
+	.uleb128 0x7
+	.long	0x3be
+	.uleb128 0x9
+	.long	0x2e
+	.long	0x3d2
+	.uleb128 0x2
+	.long	0x363
+	.uleb128 0x2
+	.long	0x2e
+	.byte	0
+	.uleb128 0xa
+	.long	.LASF71
+	.byte	0x9
+	.byte	0x9
+	.byte	0x19
+	.long	0x3de
+	.uleb128 0x7
+	.long	0x3e3
+	.uleb128 0xc
+	.long	.LASF73
+	.byte	0x10
+	.byte	0x9
+	.byte	0x15
+	.byte	0x8
+	.long	0x40b
+	.uleb128 0x12
+	.string	"ops"
+	.byte	0x9
+	.byte	0x16
+	.byte	0xd
+	.long	0x4a7
+	.byte	0
+	.uleb128 0x3
+	.long	.LASF74
+	.byte	0x9
+	.byte	0x1a
+	.byte	0x4
+	.long	0x4b8
+	.byte	0x8
+	.byte	0
+	.uleb128 0xa
+	.long	.LASF75
+	.byte	0x9
+	.byte	0xb
+	.byte	0xe
+	.long	0x417
+	.uleb128 0x16
+	.long	0x427
+	.uleb128 0x2
+	.long	0x3d2
+	.uleb128 0x2
+	.long	0x85
+	.byte	0
+	.uleb128 0xa
+	.long	.LASF76
+	.byte	0x9
+	.byte	0xc
+	.byte	0xd
+	.long	0x433
+	.uleb128 0x9
+	.long	0x2e
+	.long	0x44c
+	.uleb128 0x2
+	.long	0x3d2
+	.uleb128 0x2
+	.long	0x2cf
+	.uleb128 0x2
+	.long	0x2e
+	.byte	0
+	.uleb128 0xa
+	.long	.LASF77
+	.byte	0x9
+	.byte	0xd
+	.byte	0xe
+	.long	0x458
+	.uleb128 0x16
+	.long	0x463
+	.uleb128 0x2
+	.long	0x3d2
+	.byte	0
+	.uleb128 0xc
+	.long	.LASF78
+	.byte	0x18
+	.byte	0x9
+	.byte	0xf
+	.byte	0x10
+	.long	0x498
+	.uleb128 0x3
+	.long	.LASF79
+	.byte	0x9
+	.byte	0x10
+	.byte	0x12
+	.long	0x498
+	.byte	0
+	.uleb128 0x3
+	.long	.LASF80
+	.byte	0x9
+	.byte	0x11
+	.byte	0x14
+	.long	0x49d
+	.byte	0x8
+	.uleb128 0x3
+	.long	.LASF81
+	.byte	0x9
+	.byte	0x12
+	.byte	0xe
+	.long	0x4a2
+	.byte	0x10
+	.byte	0
+	.uleb128 0x7
+	.long	0x40b
+	.uleb128 0x7
+	.long	0x427
+	.uleb128 0x7
+	.long	0x44c
+	.uleb128 0xa
+	.long	.LASF82
+	.byte	0x9
+	.byte	0x13
+	.byte	0x4
+	.long	0x4b3
+	.uleb128 0x7
+	.long	0x463
+	.uleb128 0x31
+	.byte	0x8
+	.byte	0x9
+	.byte	0x17
+	.byte	0x2
+	.long	0x4d8
+	.uleb128 0x27
+	.string	"obj"
+	.byte	0x18
+	.byte	0xb
+	.long	0x349
+	.uleb128 0x27
+	.string	"fun"
+	.byte	0x19
+	.byte	0x11
+	.long	0x3ad
+	.byte	0
+	.uleb128 0x7
+	.long	0x9f
+	.uleb128 0x7
+	.long	0x2e
+	.uleb128 0xa
+	.long	.LASF83
+	.byte	0xa
+	.byte	0x28
+	.byte	0x1b
+	.long	0x4ee
+	.uleb128 0x7
+	.long	0x4f3
+	.uleb128 0xc
+	.long	.LASF84
+	.byte	0x50
+	.byte	0xb
+	.byte	0xe
+	.byte	0x8
+	.long	0x50e
+	.uleb128 0x3
+	.long	.LASF85
+	.byte	0xb
+	.byte	0xf
+	.byte	0x9
+	.long	0x1cb5
+	.byte	0
+	.byte	0
+	.uleb128 0xa
+	.long	.LASF86
+	.byte	0xa
+	.byte	0x29
+	.byte	0xf
+	.long	0x2ee
+	.uleb128 0xa
+	.long	.LASF87
+	.byte	0xa
+	.byte	0x2a
+	.byte	0x1b
+	.long	0x526
+	.uleb128 0x7
+	.long	0x52b
+	.uleb128 0xc
+	.long	.LASF88
+	.byte	0x10
+	.byte	0xc
+	.byte	0x43
+	.byte	0x8
+	.long	0x553
+	.uleb128 0x3
+	.long	.LASF89
+	.byte	0xc
+	.byte	0x44
+	.byte	0x9
+	.long	0x50e
+	.byte	0
+	.uleb128 0x3
+	.long	.LASF90
+	.byte	0xc
+	.byte	0x45
+	.byte	0xe
+	.long	0x553
+	.byte	0x8
+	.byte	0
+	.uleb128 0xa
+	.long	.LASF91
+	.byte	0xa
+	.byte	0x2b
+	.byte	0x19
+	.long	0x55f
+	.uleb128 0x32
+	.long	.LASF106
+	.byte	0x8
+	.byte	0xc
+	.byte	0x3e
+	.byte	0x7
+	.long	0x583
+	.uleb128 0x28
+	.long	.LASF89
+	.byte	0x3f
+	.byte	0x9
+	.long	0x50e
+	.uleb128 0x28
+	.long	.LASF92
+	.byte	0x40
+	.byte	0xd
+	.long	0x51a
+	.byte	0
+	.uleb128 0xa
+	.long	.LASF93
+	.byte	0xa
+	.byte	0x2d
+	.byte	0x18
+	.long	0x58f
+	.uleb128 0x7
+	.long	0x594
+	.uleb128 0xc
+	.long	.LASF94
+	.byte	0x30
+	.byte	0xd
+	.byte	0x21
+	.byte	0x8
+	.long	0x5f0
+	.uleb128 0x3
+	.long	.LASF95
+	.byte	0xd
+	.byte	0x22
+	.byte	0xd
+	.long	0x1ce9
+	.byte	0
+	.uleb128 0x3
+	.long	.LASF96
+	.byte	0xd
+	.byte	0x23
+	.byte	0xb
+	.long	0x1d09
+	.byte	0x8
+	.uleb128 0x3
+	.long	.LASF97
+	.byte	0xd
+	.byte	0x24
+	.byte	0xa
+	.long	0x349
+	.byte	0x10
+	.uleb128 0x3
+	.long	.LASF98
+	.byte	0xd
+	.byte	0x25
+	.byte	0x9
+	.long	0x32f
+	.byte	0x18
+	.uleb128 0x3
+	.long	.LASF99
+	.byte	0xd
+	.byte	0x26
+	.byte	0x9
+	.long	0x32f
+	.byte	0x20
+	.uleb128 0x3
+	.long	.LASF100
+	.byte	0xd
+	.byte	0x27
+	.byte	0x13
+	.long	0x1d75
+	.byte	0x28
+	.byte	0
+	.uleb128 0xa
+	.long	.LASF101
+	.byte	0xa
+	.byte	0x2e
+	.byte	0x17
+	.long	0x5fc
+	.uleb128 0x7
+	.long	0x601
+	.uleb128 0x10
+	.long	.LASF102
+	.uleb128 0xa
+	.long	.LASF103
+	.byte	0xe
+	.byte	0x19
+	.byte	0x19
+	.long	0x612
+	.uleb128 0x7
+	.long	0x617
+	.uleb128 0xc
+	.long	.LASF104
+	.byte	0x10
+	.byte	0xf
+	.byte	0x19
+	.byte	0x8
+	.long	0x63f
+	.uleb128 0x3
+	.long	.LASF97
+	.byte	0xf
+	.byte	0x1a
+	.byte	0x13
+	.long	0x1d7a
+	.byte	0
+	.uleb128 0x12
+	.string	"str"
+	.byte	0xf
+	.byte	0x1b
+	.byte	0x9
+	.long	0x356
+	.byte	0x8
+	.byte	0
+	.uleb128 0x23
+	.string	"Doc"
+	.byte	0xe
+	.byte	0x1c
+	.byte	0x16
+	.long	0x64b
+	.uleb128 0x7
+	.long	0x650
+	.uleb128 0x33
+	.string	"doc"
+	.uleb128 0xa
+	.long	.LASF105
+	.byte	0xe
+	.byte	0x1d
+	.byte	0x17
+	.long	0x661
+	.uleb128 0x7
+	.long	0x666
+	.uleb128 0x29
+	.long	.LASF107
+	.byte	0x80
+	.byte	0x10
+	.value	0x2e0
+	.long	0xa29
+	.uleb128 0x5
+	.long	.LASF108
+	.byte	0x10
+	.value	0x2e4
+	.byte	0xf
+	.long	0x2117
+	.uleb128 0x5
+	.long	.LASF109
+	.byte	0x10
+	.value	0x2e5
+	.byte	0xf
+	.long	0x21d5
+	.uleb128 0x5
+	.long	.LASF110
+	.byte	0x10
+	.value	0x2ec
+	.byte	0x11
+	.long	0x21ff
+	.uleb128 0x5
+	.long	.LASF111
+	.byte	0x10
+	.value	0x2ed
+	.byte	0xe
+	.long	0x2229
+	.uleb128 0x5
+	.long	.LASF112
+	.byte	0x10
+	.value	0x2ee
+	.byte	0x10
+	.long	0x2253
+	.uleb128 0x5
+	.long	.LASF113
+	.byte	0x10
+	.value	0x2f0
+	.byte	0x13
+	.long	0x227d
+	.uleb128 0x5
+	.long	.LASF114
+	.byte	0x10
+	.value	0x2f1
+	.byte	0x16
+	.long	0x22a7
+	.uleb128 0x5
+	.long	.LASF115
+	.byte	0x10
+	.value	0x2f2
+	.byte	0x15
+	.long	0x22fb
+	.uleb128 0x5
+	.long	.LASF116
+	.byte	0x10
+	.value	0x2f3
+	.byte	0x14
+	.long	0x22d1
+	.uleb128 0x5
+	.long	.LASF117
+	.byte	0x10
+	.value	0x2f6
+	.byte	0xf
+	.long	0x2325
+	.uleb128 0x5
+	.long	.LASF118
+	.byte	0x10
+	.value	0x2f7
+	.byte	0xf
+	.long	0x235d
+	.uleb128 0x5
+	.long	.LASF119
+	.byte	0x10
+	.value	0x2f8
+	.byte	0x11
+	.long	0x2387
+	.uleb128 0x5
+	.long	.LASF120
+	.byte	0x10
+	.value	0x2f9
+	.byte	0x12
+	.long	0x23be
+	.uleb128 0x5
+	.long	.LASF121
+	.byte	0x10
+	.value	0x2fa
+	.byte	0x12
+	.long	0x23e8
+	.uleb128 0x5
+	.long	.LASF122
+	.byte	0x10
+	.value	0x2fb
+	.byte	0x11
+	.long	0x2420
+	.uleb128 0x5
+	.long	.LASF123
+	.byte	0x10
+	.value	0x2fc
+	.byte	0x13
+	.long	0x244a
+	.uleb128 0x5
+	.long	.LASF124
+	.byte	0x10
+	.value	0x2fd
+	.byte	0x13
+	.long	0x2474
+	.uleb128 0x5
+	.long	.LASF125
+	.byte	0x10
+	.value	0x2fe
+	.byte	0x14
+	.long	0x250d
+	.uleb128 0x5
+	.long	.LASF126
+	.byte	0x10
+	.value	0x2ff
+	.byte	0x13
+	.long	0x2545
+	.uleb128 0x5
+	.long	.LASF127
+	.byte	0x10
+	.value	0x300
+	.byte	0x11
+	.long	0x257d
+	.uleb128 0x5
+	.long	.LASF128
+	.byte	0x10
+	.value	0x301
+	.byte	0x13
+	.long	0x25a7
+	.uleb128 0x5
+	.long	.LASF129
+	.byte	0x10
+	.value	0x302
+	.byte	0x12
+	.long	0x25d1
+	.uleb128 0x5
+	.long	.LASF130
+	.byte	0x10
+	.value	0x303
+	.byte	0x13
+	.long	0x2609
+	.uleb128 0x5
+	.long	.LASF131
+	.byte	0x10
+	.value	0x304
+	.byte	0xe
+	.long	0x24ab
+	.uleb128 0x5
+	.long	.LASF132
+	.byte	0x10
+	.value	0x305
+	.byte	0x16
+	.long	0x24d5
+	.uleb128 0x5
+	.long	.LASF133
+	.byte	0x10
+	.value	0x306
+	.byte	0x12
+	.long	0x2633
+	.uleb128 0x5
+	.long	.LASF134
+	.byte	0x10
+	.value	0x307
+	.byte	0x10
+	.long	0x266b
+	.uleb128 0x5
+	.long	.LASF135
+	.byte	0x10
+	.value	0x308
+	.byte	0x12
+	.long	0x26a3
+	.uleb128 0x5
+	.long	.LASF136
+	.byte	0x10
+	.value	0x309
+	.byte	0x12
+	.long	0x26e9
+	.uleb128 0x5
+	.long	.LASF137
+	.byte	0x10
+	.value	0x30a
+	.byte	0xf
+	.long	0x2713
+	.uleb128 0x5
+	.long	.LASF138
+	.byte	0x10
+	.value	0x30b
+	.byte	0x11
+	.long	0x273d
+	.uleb128 0x5
+	.long	.LASF139
+	.byte	0x10
+	.value	0x30c
+	.byte	0xf
+	.long	0x2767
+	.uleb128 0x5
+	.long	.LASF140
+	.byte	0x10
+	.value	0x30d
+	.byte	0x19
+	.long	0x27ad
+	.uleb128 0x5
+	.long	.LASF141
+	.byte	0x10
+	.value	0x30e
+	.byte	0x19
+	.long	0x27e5
+	.uleb128 0x5
+	.long	.LASF142
+	.byte	0x10
+	.value	0x30f
+	.byte	0x10
+	.long	0x281d
+	.uleb128 0x5
+	.long	.LASF143
+	.byte	0x10
+	.value	0x310
+	.byte	0x14
+	.long	0x2847
+	.uleb128 0x5
+	.long	.LASF144
+	.byte	0x10
+	.value	0x311
+	.byte	0x10
+	.long	0x287f
+	.uleb128 0x5
+	.long	.LASF145
+	.byte	0x10
+	.value	0x312
+	.byte	0xf
+	.long	0x28a9
+	.uleb128 0x5
+	.long	.LASF146
+	.byte	0x10
+	.value	0x313
+	.byte	0x10
+	.long	0x28e1
+	.uleb128 0x5
+	.long	.LASF147
+	.byte	0x10
+	.value	0x314
+	.byte	0x10
+	.long	0x290b
+	.uleb128 0x5
+	.long	.LASF148
+	.byte	0x10
+	.value	0x315
+	.byte	0xe
+	.long	0x2935
+	.uleb128 0x5
+	.long	.LASF149
+	.byte	0x10
+	.value	0x316
+	.byte	0x12
+	.long	0x297b
+	.uleb128 0x5
+	.long	.LASF150
+	.byte	0x10
+	.value	0x317
+	.byte	0x12
+	.long	0x29b3
+	.uleb128 0x5
+	.long	.LASF151
+	.byte	0x10
+	.value	0x318
+	.byte	0x13
+	.long	0x29eb
+	.uleb128 0x5
+	.long	.LASF152
+	.byte	0x10
+	.value	0x319
+	.byte	0x11
+	.long	0x2a15
+	.uleb128 0x5
+	.long	.LASF153
+	.byte	0x10
+	.value	0x31a
+	.byte	0x12
+	.long	0x2a4d
+	.uleb128 0x5
+	.long	.LASF154
+	.byte	0x10
+	.value	0x31b
+	.byte	0xf
+	.long	0x2a93
+	.uleb128 0x5
+	.long	.LASF155
+	.byte	0x10
+	.value	0x31c
+	.byte	0x11
+	.long	0x2acb
+	.uleb128 0x5
+	.long	.LASF156
+	.byte	0x10
+	.value	0x31d
+	.byte	0x11
+	.long	0x2af5
+	.uleb128 0x5
+	.long	.LASF157
+	.byte	0x10
+	.value	0x31e
+	.byte	0x13
+	.long	0x2b1f
+	.uleb128 0x5
+	.long	.LASF158
+	.byte	0x10
+	.value	0x31f
+	.byte	0x13
+	.long	0x2b57
+	.uleb128 0x5
+	.long	.LASF159
+	.byte	0x10
+	.value	0x320
+	.byte	0x11
+	.long	0x2b8f
+	.uleb128 0x5
+	.long	.LASF160
+	.byte	0x10
+	.value	0x321
+	.byte	0xf
+	.long	0x2bab
+	.uleb128 0x5
+	.long	.LASF161
+	.byte	0x10
+	.value	0x322
+	.byte	0x13
+	.long	0x2bd5
+	.uleb128 0x5
+	.long	.LASF162
+	.byte	0x10
+	.value	0x323
+	.byte	0xe
+	.long	0x2bf1
+	.uleb128 0x5
+	.long	.LASF163
+	.byte	0x10
+	.value	0x324
+	.byte	0x11
+	.long	0x2c1b
+	.uleb128 0x5
+	.long	.LASF164
+	.byte	0x10
+	.value	0x325
+	.byte	0x13
+	.long	0x2c45
+	.uleb128 0x5
+	.long	.LASF165
+	.byte	0x10
+	.value	0x326
+	.byte	0x15
+	.long	0x2c8b
+	.uleb128 0x5
+	.long	.LASF166
+	.byte	0x10
+	.value	0x327
+	.byte	0x13
+	.long	0x2cc3
+	.uleb128 0x5
+	.long	.LASF167
+	.byte	0x10
+	.value	0x328
+	.byte	0x11
+	.long	0x2cfb
+	.uleb128 0x5
+	.long	.LASF168
+	.byte	0x10
+	.value	0x329
+	.byte	0x15
+	.long	0x2d25
+	.uleb128 0x5
+	.long	.LASF169
+	.byte	0x10
+	.value	0x32a
+	.byte	0x12
+	.long	0x2d4f
+	.uleb128 0x5
+	.long	.LASF170
+	.byte	0x10
+	.value	0x32b
+	.byte	0x16
+	.long	0x2d87
+	.uleb128 0x5
+	.long	.LASF171
+	.byte	0x10
+	.value	0x32c
+	.byte	0x15
+	.long	0x2dbf
+	.uleb128 0x5
+	.long	.LASF172
+	.byte	0x10
+	.value	0x32d
+	.byte	0x12
+	.long	0x2df7
+	.uleb128 0x5
+	.long	.LASF173
+	.byte	0x10
+	.value	0x32e
+	.byte	0x12
+	.long	0x2e21
+	.uleb128 0x5
+	.long	.LASF174
+	.byte	0x10
+	.value	0x32f
+	.byte	0x14
+	.long	0x2e59
+	.uleb128 0x5
+	.long	.LASF175
+	.byte	0x10
+	.value	0x330
+	.byte	0x10
+	.long	0x2e83
+	.uleb128 0x5
+	.long	.LASF176
+	.byte	0x10
+	.value	0x331
+	.byte	0xf
+	.long	0x2ead
+	.uleb128 0x5
+	.long	.LASF177
+	.byte	0x10
+	.value	0x332
+	.byte	0x11
+	.long	0x2f00
+	.uleb128 0x5
+	.long	.LASF178
+	.byte	0x10
+	.value	0x333
+	.byte	0x11
+	.long	0x2f38
+	.uleb128 0x5
+	.long	.LASF179
+	.byte	0x10
+	.value	0x334
+	.byte	0x10
+	.long	0x2f62
+	.uleb128 0x5
+	.long	.LASF180
+	.byte	0x10
+	.value	0x335
+	.byte	0x11
+	.long	0x2f9a
+	.byte	0
+	.uleb128 0xa
+	.long	.LASF181
+	.byte	0xe
+	.byte	0x1e
+	.byte	0x17
+	.long	0x661
+	.uleb128 0xa
+	.long	.LASF182
+	.byte	0xe
+	.byte	0x20
+	.byte	0x18
+	.long	0xa41
+	.uleb128 0x7
+	.long	0xa46
+	.uleb128 0x10
+	.long	.LASF183
+	.uleb128 0xa
+	.long	.LASF184
+	.byte	0xe
+	.byte	0x21
+	.byte	0x1a
+	.long	0xa57
+	.uleb128 0x7
+	.long	0xa5c
+	.uleb128 0xc
+	.long	.LASF185
+	.byte	0x8
+	.byte	0x11
+	.byte	0x13
+	.byte	0x8
+	.long	0xa77
+	.uleb128 0x3
+	.long	.LASF186
+	.byte	0x11
+	.byte	0x14
+	.byte	0x9
+	.long	0x98
+	.byte	0
+	.byte	0
+	.uleb128 0xa
+	.long	.LASF187
+	.byte	0xe
+	.byte	0x22
+	.byte	0x17
+	.long	0xa83
+	.uleb128 0x7
+	.long	0xa88
+	.uleb128 0x10
+	.long	.LASF188
+	.uleb128 0xa
+	.long	.LASF189
+	.byte	0xe
+	.byte	0x23
+	.byte	0x17
+	.long	0xa99
+	.uleb128 0x7
+	.long	0xa9e
+	.uleb128 0xc
+	.long	.LASF190
+	.byte	0x40
+	.byte	0x12
+	.byte	0xcf
+	.byte	0x8
+	.long	0xb3a
+	.uleb128 0x3
+	.long	.LASF191
+	.byte	0x12
+	.byte	0xd0
+	.byte	0x8
+	.long	0x2d4
+	.byte	0
+	.uleb128 0x3
+	.long	.LASF192
+	.byte	0x12
+	.byte	0xd1
+	.byte	0x8
+	.long	0x2d4
+	.byte	0x1
+	.uleb128 0x3
+	.long	.LASF193
+	.byte	0x12
+	.byte	0xd2
+	.byte	0x9
+	.long	0x2e1
+	.byte	0x2
+	.uleb128 0x12
+	.string	"id"
+	.byte	0x12
+	.byte	0xd4
+	.byte	0x9
+	.long	0x606
+	.byte	0x8
+	.uleb128 0x12
+	.string	"lib"
+	.byte	0x12
+	.byte	0xd5
+	.byte	0x6
+	.long	0x115c
+	.byte	0x10
+	.uleb128 0x3
+	.long	.LASF194
+	.byte	0x12
+	.byte	0xd6
+	.byte	0x7
+	.long	0x322
+	.byte	0x18
+	.uleb128 0x3
+	.long	.LASF195
+	.byte	0x12
+	.byte	0xd7
+	.byte	0x8
+	.long	0xb3a
+	.byte	0x20
+	.uleb128 0x3
+	.long	.LASF196
+	.byte	0x12
+	.byte	0xd9
+	.byte	0xf
+	.long	0x43
+	.byte	0x28
+	.uleb128 0x3
+	.long	.LASF197
+	.byte	0x12
+	.byte	0xda
+	.byte	0xf
+	.long	0x43
+	.byte	0x2c
+	.uleb128 0x3
+	.long	.LASF198
+	.byte	0x12
+	.byte	0xdb
+	.byte	0x7
+	.long	0xa8d
+	.byte	0x30
+	.uleb128 0x3
+	.long	.LASF199
+	.byte	0x12
+	.byte	0xdc
+	.byte	0x9
+	.long	0x1c77
+	.byte	0x38
+	.byte	0
+	.uleb128 0xa
+	.long	.LASF200
+	.byte	0xe
+	.byte	0x24
+	.byte	0x18
+	.long	0xb46
+	.uleb128 0x7
+	.long	0xb4b
+	.uleb128 0xc
+	.long	.LASF201
+	.byte	0xd0
+	.byte	0x13
+	.byte	0x78
+	.byte	0x8
+	.long	0xcf8
+	.uleb128 0x12
+	.string	"tag"
+	.byte	0x13
+	.byte	0x79
+	.byte	0x8
+	.long	0x2d4
+	.byte	0
+	.uleb128 0x3
+	.long	.LASF202
+	.byte	0x13
+	.byte	0x7a
+	.byte	0x8
+	.long	0x2d4
+	.byte	0x1
+	.uleb128 0x3
+	.long	.LASF203
+	.byte	0x13
+	.byte	0x7b
+	.byte	0x8
+	.long	0x2d4
+	.byte	0x2
+	.uleb128 0x3
+	.long	.LASF204
+	.byte	0x13
+	.byte	0x7c
+	.byte	0x8
+	.long	0x2d4
+	.byte	0x3
+	.uleb128 0x3
+	.long	.LASF205
+	.byte	0x13
+	.byte	0x7d
+	.byte	0x8
+	.long	0x2d4
+	.byte	0x4
+	.uleb128 0x3
+	.long	.LASF206
+	.byte	0x13
+	.byte	0x7e
+	.byte	0x8
+	.long	0x2d4
+	.byte	0x5
+	.uleb128 0x12
+	.string	"raw"
+	.byte	0x13
+	.byte	0x7f
+	.byte	0x8
+	.long	0x2d4
+	.byte	0x6
+	.uleb128 0x3
+	.long	.LASF194
+	.byte	0x13
+	.byte	0x80
+	.byte	0x7
+	.long	0x322
+	.byte	0x8
+	.uleb128 0x3
+	.long	.LASF207
+	.byte	0x13
+	.byte	0x81
+	.byte	0x8
+	.long	0x655
+	.byte	0x10
+	.uleb128 0x3
+	.long	.LASF208
+	.byte	0x13
+	.byte	0x82
+	.byte	0x9
+	.long	0x2e1
+	.byte	0x18
+	.uleb128 0x3
+	.long	.LASF209
+	.byte	0x13
+	.byte	0x84
+	.byte	0x9
+	.long	0x32f
+	.byte	0x20
+	.uleb128 0x3
+	.long	.LASF210
+	.byte	0x13
+	.byte	0x85
+	.byte	0x9
+	.long	0x1b84
+	.byte	0x28
+	.uleb128 0x3
+	.long	.LASF211
+	.byte	0x13
+	.byte	0x87
+	.byte	0x7
+	.long	0x143b
+	.byte	0x30
+	.uleb128 0x3
+	.long	.LASF212
+	.byte	0x13
+	.byte	0x88
+	.byte	0xb
+	.long	0x1c61
+	.byte	0x38
+	.uleb128 0x3
+	.long	.LASF213
+	.byte	0x13
+	.byte	0x89
+	.byte	0xb
+	.long	0x1c61
+	.byte	0x40
+	.uleb128 0x3
+	.long	.LASF214
+	.byte	0x13
+	.byte	0x8a
+	.byte	0xb
+	.long	0x1c61
+	.byte	0x48
+	.uleb128 0x3
+	.long	.LASF215
+	.byte	0x13
+	.byte	0x8b
+	.byte	0xb
+	.long	0x1c61
+	.byte	0x50
+	.uleb128 0x3
+	.long	.LASF216
+	.byte	0x13
+	.byte	0x8d
+	.byte	0xb
+	.long	0x1c61
+	.byte	0x58
+	.uleb128 0x3
+	.long	.LASF217
+	.byte	0x13
+	.byte	0x8e
+	.byte	0xb
+	.long	0x1c61
+	.byte	0x60
+	.uleb128 0x3
+	.long	.LASF218
+	.byte	0x13
+	.byte	0x8f
+	.byte	0xb
+	.long	0x1c61
+	.byte	0x68
+	.uleb128 0x3
+	.long	.LASF219
+	.byte	0x13
+	.byte	0x91
+	.byte	0xa
+	.long	0x49c4
+	.byte	0x70
+	.uleb128 0x3
+	.long	.LASF220
+	.byte	0x13
+	.byte	0x93
+	.byte	0xd
+	.long	0x1d9a
+	.byte	0x78
+	.uleb128 0x3
+	.long	.LASF221
+	.byte	0x13
+	.byte	0x95
+	.byte	0xd
+	.long	0x1bb6
+	.byte	0x80
+	.uleb128 0x3
+	.long	.LASF222
+	.byte	0x13
+	.byte	0x96
+	.byte	0xc
+	.long	0x1b78
+	.byte	0x88
+	.uleb128 0x3
+	.long	.LASF223
+	.byte	0x13
+	.byte	0x97
+	.byte	0xc
+	.long	0x1bef
+	.byte	0x90
+	.uleb128 0x3
+	.long	.LASF224
+	.byte	0x13
+	.byte	0x99
+	.byte	0x9
+	.long	0x498b
+	.byte	0x98
+	.uleb128 0x3
+	.long	.LASF225
+	.byte	0x13
+	.byte	0x9b
+	.byte	0x8
+	.long	0xa35
+	.byte	0xa0
+	.uleb128 0x12
+	.string	"fv"
+	.byte	0x13
+	.byte	0x9c
+	.byte	0xa
+	.long	0xa77
+	.byte	0xa8
+	.uleb128 0x12
+	.string	"rho"
+	.byte	0x13
+	.byte	0x9d
+	.byte	0xa
+	.long	0x49d5
+	.byte	0xb0
+	.uleb128 0x3
+	.long	.LASF226
+	.byte	0x13
+	.byte	0x9f
+	.byte	0xb
+	.long	0x148a
+	.byte	0xb8
+	.uleb128 0x3
+	.long	.LASF227
+	.byte	0x13
+	.byte	0xa0
+	.byte	0x8
+	.long	0xb3a
+	.byte	0xc0
+	.uleb128 0x3
+	.long	.LASF228
+	.byte	0x13
+	.byte	0xa1
+	.byte	0x8
+	.long	0x2ee
+	.byte	0xc8
+	.byte	0
+	.uleb128 0xa
+	.long	.LASF229
+	.byte	0xe
+	.byte	0x25
+	.byte	0x18
+	.long	0xd04
+	.uleb128 0x7
+	.long	0xd09
+	.uleb128 0x10
+	.long	.LASF230
+	.uleb128 0xa
+	.long	.LASF231
+	.byte	0xe
+	.byte	0x26
+	.byte	0x19
+	.long	0xd1a
+	.uleb128 0x7
+	.long	0xd1f
+	.uleb128 0x10
+	.long	.LASF232
+	.uleb128 0xa
+	.long	.LASF233
+	.byte	0xe
+	.byte	0x27
+	.byte	0x18
+	.long	0xd30
+	.uleb128 0x7
+	.long	0xd35
+	.uleb128 0x10
+	.long	.LASF234
+	.uleb128 0xa
+	.long	.LASF235
+	.byte	0xe
+	.byte	0x28
+	.byte	0x16
+	.long	0xd46
+	.uleb128 0x7
+	.long	0xd4b
+	.uleb128 0x29
+	.long	.LASF236
+	.byte	0x98
+	.byte	0x14
+	.value	0x4af
+	.long	0x115c
+	.uleb128 0x18
+	.string	"hdr"
+	.byte	0x14
+	.value	0x4b0
+	.byte	0x11
+	.long	0x3050
+	.uleb128 0x5
+	.long	.LASF237
+	.byte	0x14
+	.value	0x4b1
+	.byte	0x11
+	.long	0x3119
+	.uleb128 0x5
+	.long	.LASF238
+	.byte	0x14
+	.value	0x4b3
+	.byte	0x11
+	.long	0x3153
+	.uleb128 0x5
+	.long	.LASF239
+	.byte	0x14
+	.value	0x4b4
+	.byte	0x12
+	.long	0x316f
+	.uleb128 0x5
+	.long	.LASF240
+	.byte	0x14
+	.value	0x4b5
+	.byte	0x12
+	.long	0x3199
+	.uleb128 0x5
+	.long	.LASF241
+	.byte	0x14
+	.value	0x4b6
+	.byte	0x12
+	.long	0x31c3
+	.uleb128 0x5
+	.long	.LASF242
+	.byte	0x14
+	.value	0x4b7
+	.byte	0x12
+	.long	0x31ed
+	.uleb128 0x5
+	.long	.LASF243
+	.byte	0x14
+	.value	0x4b8
+	.byte	0x12
+	.long	0x3217
+	.uleb128 0x5
+	.long	.LASF244
+	.byte	0x14
+	.value	0x4b9
+	.byte	0x12
+	.long	0x3241
+	.uleb128 0x5
+	.long	.LASF245
+	.byte	0x14
+	.value	0x4ba
+	.byte	0x12
+	.long	0x326b
+	.uleb128 0x5
+	.long	.LASF246
+	.byte	0x14
+	.value	0x4bb
+	.byte	0x12
+	.long	0x3295
+	.uleb128 0x5
+	.long	.LASF247
+	.byte	0x14
+	.value	0x4bc
+	.byte	0x12
+	.long	0x32bf
+	.uleb128 0x5
+	.long	.LASF248
+	.byte	0x14
+	.value	0x4bd
+	.byte	0x11
+	.long	0x32e9
+	.uleb128 0x5
+	.long	.LASF249
+	.byte	0x14
+	.value	0x4be
+	.byte	0x11
+	.long	0x3323
+	.uleb128 0x5
+	.long	.LASF250
+	.byte	0x14
+	.value	0x4bf
+	.byte	0x11
+	.long	0x336b
+	.uleb128 0x5
+	.long	.LASF251
+	.byte	0x14
+	.value	0x4c0
+	.byte	0x12
+	.long	0x33b3
+	.uleb128 0x5
+	.long	.LASF252
+	.byte	0x14
+	.value	0x4c1
+	.byte	0x12
+	.long	0x33f9
+	.uleb128 0x5
+	.long	.LASF253
+	.byte	0x14
+	.value	0x4c2
+	.byte	0x12
+	.long	0x34cb
+	.uleb128 0x5
+	.long	.LASF254
+	.byte	0x14
+	.value	0x4c4
+	.byte	0x12
+	.long	0x3572
+	.uleb128 0x5
+	.long	.LASF255
+	.byte	0x14
+	.value	0x4c5
+	.byte	0x13
+	.long	0x3503
+	.uleb128 0x5
+	.long	.LASF256
+	.byte	0x14
+	.value	0x4c6
+	.byte	0x13
+	.long	0x35c5
+	.uleb128 0x5
+	.long	.LASF257
+	.byte	0x14
+	.value	0x4c7
+	.byte	0x14
+	.long	0x35fd
+	.uleb128 0x5
+	.long	.LASF258
+	.byte	0x14
+	.value	0x4c8
+	.byte	0x12
+	.long	0x3627
+	.uleb128 0x5
+	.long	.LASF259
+	.byte	0x14
+	.value	0x4c9
+	.byte	0x12
+	.long	0x3651
+	.uleb128 0x5
+	.long	.LASF260
+	.byte	0x14
+	.value	0x4ca
+	.byte	0x11
+	.long	0x367b
+	.uleb128 0x5
+	.long	.LASF261
+	.byte	0x14
+	.value	0x4cb
+	.byte	0x12
+	.long	0x36b3
+	.uleb128 0x5
+	.long	.LASF262
+	.byte	0x14
+	.value	0x4cd
+	.byte	0x11
+	.long	0x36dd
+	.uleb128 0x5
+	.long	.LASF263
+	.byte	0x14
+	.value	0x4ce
+	.byte	0x11
+	.long	0x3707
+	.uleb128 0x5
+	.long	.LASF264
+	.byte	0x14
+	.value	0x4cf
+	.byte	0x11
+	.long	0x3731
+	.uleb128 0x5
+	.long	.LASF265
+	.byte	0x14
+	.value	0x4d0
+	.byte	0x11
+	.long	0x3769
+	.uleb128 0x5
+	.long	.LASF266
+	.byte	0x14
+	.value	0x4d1
+	.byte	0x13
+	.long	0x37bd
+	.uleb128 0x5
+	.long	.LASF267
+	.byte	0x14
+	.value	0x4d2
+	.byte	0x13
+	.long	0x3793
+	.uleb128 0x5
+	.long	.LASF268
+	.byte	0x14
+	.value	0x4d3
+	.byte	0x11
+	.long	0x37e7
+	.uleb128 0x5
+	.long	.LASF269
+	.byte	0x14
+	.value	0x4d4
+	.byte	0x12
+	.long	0x3811
+	.uleb128 0x5
+	.long	.LASF270
+	.byte	0x14
+	.value	0x4d5
+	.byte	0x12
+	.long	0x3849
+	.uleb128 0x5
+	.long	.LASF271
+	.byte	0x14
+	.value	0x4d6
+	.byte	0x13
+	.long	0x3881
+	.uleb128 0x5
+	.long	.LASF272
+	.byte	0x14
+	.value	0x4d7
+	.byte	0x11
+	.long	0x38ab
+	.uleb128 0x5
+	.long	.LASF273
+	.byte	0x14
+	.value	0x4d8
+	.byte	0x13
+	.long	0x38d5
+	.uleb128 0x5
+	.long	.LASF274
+	.byte	0x14
+	.value	0x4d9
+	.byte	0x12
+	.long	0x38ff
+	.uleb128 0x5
+	.long	.LASF275
+	.byte	0x14
+	.value	0x4da
+	.byte	0x13
+	.long	0x3929
+	.uleb128 0x5
+	.long	.LASF276
+	.byte	0x14
+	.value	0x4db
+	.byte	0x15
+	.long	0x3953
+	.uleb128 0x5
+	.long	.LASF277
+	.byte	0x14
+	.value	0x4dc
+	.byte	0x13
+	.long	0x397d
+	.uleb128 0x5
+	.long	.LASF278
+	.byte	0x14
+	.value	0x4dd
+	.byte	0x12
+	.long	0x39a7
+	.uleb128 0x5
+	.long	.LASF279
+	.byte	0x14
+	.value	0x4de
+	.byte	0x12
+	.long	0x3a95
+	.uleb128 0x5
+	.long	.LASF280
+	.byte	0x14
+	.value	0x4df
+	.byte	0x13
+	.long	0x3a25
+	.uleb128 0x5
+	.long	.LASF281
+	.byte	0x14
+	.value	0x4e0
+	.byte	0x13
+	.long	0x3adb
+	.uleb128 0x5
+	.long	.LASF282
+	.byte	0x14
+	.value	0x4e1
+	.byte	0x13
+	.long	0x3b21
+	.uleb128 0x5
+	.long	.LASF283
+	.byte	0x14
+	.value	0x4e2
+	.byte	0x12
+	.long	0x3b75
+	.uleb128 0x5
+	.long	.LASF284
+	.byte	0x14
+	.value	0x4e3
+	.byte	0x12
+	.long	0x3bc9
+	.uleb128 0x5
+	.long	.LASF285
+	.byte	0x14
+	.value	0x4e5
+	.byte	0x13
+	.long	0x3bf3
+	.uleb128 0x5
+	.long	.LASF286
+	.byte	0x14
+	.value	0x4e6
+	.byte	0x11
+	.long	0x3c1d
+	.uleb128 0x5
+	.long	.LASF287
+	.byte	0x14
+	.value	0x4e7
+	.byte	0x11
+	.long	0x3c39
+	.uleb128 0x5
+	.long	.LASF288
+	.byte	0x14
+	.value	0x4e8
+	.byte	0x10
+	.long	0x3c71
+	.uleb128 0x5
+	.long	.LASF289
+	.byte	0x14
+	.value	0x4e9
+	.byte	0x11
+	.long	0x3ca9
+	.uleb128 0x5
+	.long	.LASF290
+	.byte	0x14
+	.value	0x4ea
+	.byte	0x14
+	.long	0x3f7d
+	.uleb128 0x5
+	.long	.LASF291
+	.byte	0x14
+	.value	0x4eb
+	.byte	0x12
+	.long	0x3cd3
+	.uleb128 0x5
+	.long	.LASF292
+	.byte	0x14
+	.value	0x4ec
+	.byte	0x12
+	.long	0x3d0b
+	.uleb128 0x5
+	.long	.LASF293
+	.byte	0x14
+	.value	0x4ed
+	.byte	0x13
+	.long	0x39ed
+	.uleb128 0x5
+	.long	.LASF294
+	.byte	0x14
+	.value	0x4ee
+	.byte	0x13
+	.long	0x3d35
+	.uleb128 0x5
+	.long	.LASF295
+	.byte	0x14
+	.value	0x4ef
+	.byte	0x12
+	.long	0x3d6d
+	.uleb128 0x5
+	.long	.LASF296
+	.byte	0x14
+	.value	0x4f0
+	.byte	0x13
+	.long	0x3da5
+	.uleb128 0x5
+	.long	.LASF297
+	.byte	0x14
+	.value	0x4f1
+	.byte	0x13
+	.long	0x3df8
+	.uleb128 0x5
+	.long	.LASF298
+	.byte	0x14
+	.value	0x4f2
+	.byte	0x13
+	.long	0x3e2f
+	.uleb128 0x5
+	.long	.LASF299
+	.byte	0x14
+	.value	0x4f3
+	.byte	0x13
+	.long	0x3e74
+	.uleb128 0x5
+	.long	.LASF300
+	.byte	0x14
+	.value	0x4f4
+	.byte	0x14
+	.long	0x3ec7
+	.uleb128 0x5
+	.long	.LASF301
+	.byte	0x14
+	.value	0x4f5
+	.byte	0x14
+	.long	0x3f1b
+	.uleb128 0x5
+	.long	.LASF302
+	.byte	0x14
+	.value	0x4f6
+	.byte	0x15
+	.long	0x3fec
+	.uleb128 0x5
+	.long	.LASF303
+	.byte	0x14
+	.value	0x4f7
+	.byte	0x14
+	.long	0x4024
+	.uleb128 0x5
+	.long	.LASF304
+	.byte	0x14
+	.value	0x4f8
+	.byte	0x12
+	.long	0x4040
+	.uleb128 0x5
+	.long	.LASF305
+	.byte	0x14
+	.value	0x4f9
+	.byte	0x13
+	.long	0x3a6b
+	.uleb128 0x5
+	.long	.LASF306
+	.byte	0x14
+	.value	0x4fa
+	.byte	0x14
+	.long	0x4078
+	.uleb128 0x5
+	.long	.LASF307
+	.byte	0x14
+	.value	0x4fc
+	.byte	0x12
+	.long	0x3fb4
+	.uleb128 0x5
+	.long	.LASF308
+	.byte	0x14
+	.value	0x4fe
+	.byte	0x12
+	.long	0x40a2
+	.uleb128 0x5
+	.long	.LASF309
+	.byte	0x14
+	.value	0x4ff
+	.byte	0x12
+	.long	0x40cc
+	.uleb128 0x5
+	.long	.LASF310
+	.byte	0x14
+	.value	0x500
+	.byte	0x12
+	.long	0x40f6
+	.uleb128 0x5
+	.long	.LASF311
+	.byte	0x14
+	.value	0x501
+	.byte	0x13
+	.long	0x4120
+	.uleb128 0x5
+	.long	.LASF312
+	.byte	0x14
+	.value	0x502
+	.byte	0x13
+	.long	0x4158
+	.uleb128 0x5
+	.long	.LASF313
+	.byte	0x14
+	.value	0x503
+	.byte	0x15
+	.long	0x4190
+	.uleb128 0x5
+	.long	.LASF314
+	.byte	0x14
+	.value	0x504
+	.byte	0x14
+	.long	0x41d6
+	.byte	0
+	.uleb128 0x23
+	.string	"Lib"
+	.byte	0xe
+	.byte	0x2a
+	.byte	0x16
+	.long	0x1168
+	.uleb128 0x7
+	.long	0x116d
+	.uleb128 0x34
+	.string	"lib"
+	.value	0x308
+	.byte	0x15
+	.byte	0x63
+	.byte	0x8
+	.long	0x131c
+	.uleb128 0x3
+	.long	.LASF315
+	.byte	0x15
+	.byte	0x64
+	.byte	0xb
+	.long	0x4e2
+	.byte	0
+	.uleb128 0x3
+	.long	.LASF316
+	.byte	0x15
+	.byte	0x65
+	.byte	0xa
+	.long	0x131c
+	.byte	0x8
+	.uleb128 0x3
+	.long	.LASF317
+	.byte	0x15
+	.byte	0x66
+	.byte	0x8
+	.long	0x2d4
+	.byte	0x10
+	.uleb128 0x3
+	.long	.LASF318
+	.byte	0x15
+	.byte	0x67
+	.byte	0x8
+	.long	0x2d4
+	.byte	0x11
+	.uleb128 0x3
+	.long	.LASF319
+	.byte	0x15
+	.byte	0x68
+	.byte	0x8
+	.long	0x2d4
+	.byte	0x12
+	.uleb128 0x3
+	.long	.LASF320
+	.byte	0x15
+	.byte	0x69
+	.byte	0x9
+	.long	0x356
+	.byte	0x18
+	.uleb128 0x3
+	.long	.LASF321
+	.byte	0x15
+	.byte	0x6a
+	.byte	0x9
+	.long	0x2c3
+	.byte	0x20
+	.uleb128 0x3
+	.long	.LASF322
+	.byte	0x15
+	.byte	0x6b
+	.byte	0x9
+	.long	0x33c
+	.byte	0x28
+	.uleb128 0x3
+	.long	.LASF212
+	.byte	0x15
+	.byte	0x6c
+	.byte	0x7
+	.long	0xa8d
+	.byte	0x30
+	.uleb128 0x3
+	.long	.LASF211
+	.byte	0x15
+	.byte	0x6d
+	.byte	0x7
+	.long	0x143b
+	.byte	0x38
+	.uleb128 0x3
+	.long	.LASF323
+	.byte	0x15
+	.byte	0x70
+	.byte	0x9
+	.long	0x2e1
+	.byte	0x40
+	.uleb128 0x3
+	.long	.LASF324
+	.byte	0x15
+	.byte	0x71
+	.byte	0x9
+	.long	0x2e1
+	.byte	0x42
+	.uleb128 0x3
+	.long	.LASF325
+	.byte	0x15
+	.byte	0x72
+	.byte	0x9
+	.long	0x1c6d
+	.byte	0x48
+	.uleb128 0x3
+	.long	.LASF215
+	.byte	0x15
+	.byte	0x73
+	.byte	0xb
+	.long	0x1c61
+	.byte	0x50
+	.uleb128 0x3
+	.long	.LASF326
+	.byte	0x15
+	.byte	0x74
+	.byte	0xa
+	.long	0x48cd
+	.byte	0x58
+	.uleb128 0x3
+	.long	.LASF327
+	.byte	0x15
+	.byte	0x75
+	.byte	0xb
+	.long	0x48d2
+	.byte	0x60
+	.uleb128 0x3
+	.long	.LASF328
+	.byte	0x15
+	.byte	0x76
+	.byte	0xb
+	.long	0x1c61
+	.byte	0x68
+	.uleb128 0x3
+	.long	.LASF329
+	.byte	0x15
+	.byte	0x79
+	.byte	0x8
+	.long	0x2ee
+	.byte	0x70
+	.uleb128 0x3
+	.long	.LASF330
+	.byte	0x15
+	.byte	0x7a
+	.byte	0xa
+	.long	0x1b84
+	.byte	0x78
+	.uleb128 0x3
+	.long	.LASF331
+	.byte	0x15
+	.byte	0x7b
+	.byte	0xc
+	.long	0x1b78
+	.byte	0x80
+	.uleb128 0x3
+	.long	.LASF332
+	.byte	0x15
+	.byte	0x7c
+	.byte	0x8
+	.long	0x4dd
+	.byte	0x88
+	.uleb128 0x3
+	.long	.LASF333
+	.byte	0x15
+	.byte	0x7d
+	.byte	0x9
+	.long	0x397
+	.byte	0x90
+	.uleb128 0x3
+	.long	.LASF334
+	.byte	0x15
+	.byte	0x80
+	.byte	0x9
+	.long	0x32f
+	.byte	0x98
+	.uleb128 0x3
+	.long	.LASF335
+	.byte	0x15
+	.byte	0x81
+	.byte	0x9
+	.long	0x1c72
+	.byte	0xa0
+	.uleb128 0x3
+	.long	.LASF336
+	.byte	0x15
+	.byte	0x82
+	.byte	0x8
+	.long	0x4dd
+	.byte	0xa8
+	.uleb128 0x3
+	.long	.LASF337
+	.byte	0x15
+	.byte	0x83
+	.byte	0x9
+	.long	0x397
+	.byte	0xb0
+	.uleb128 0x12
+	.string	"pos"
+	.byte	0x15
+	.byte	0x84
+	.byte	0x9
+	.long	0x397
+	.byte	0xb8
+	.uleb128 0x3
+	.long	.LASF338
+	.byte	0x15
+	.byte	0x85
+	.byte	0x9
+	.long	0x397
+	.byte	0xc0
+	.uleb128 0x3
+	.long	.LASF339
+	.byte	0x15
+	.byte	0x86
+	.byte	0x7
+	.long	0xd3a
+	.byte	0xc8
+	.uleb128 0x3
+	.long	.LASF340
+	.byte	0x15
+	.byte	0x87
+	.byte	0x7
+	.long	0xd3a
+	.byte	0xd0
+	.uleb128 0x3
+	.long	.LASF341
+	.byte	0x15
+	.byte	0x89
+	.byte	0x8
+	.long	0x655
+	.byte	0xd8
+	.uleb128 0x12
+	.string	"hdr"
+	.byte	0x15
+	.byte	0x8b
+	.byte	0x10
+	.long	0x484f
+	.byte	0xe0
+	.byte	0
+	.uleb128 0xa
+	.long	.LASF342
+	.byte	0xe
+	.byte	0x2c
+	.byte	0x1b
+	.long	0x1328
+	.uleb128 0x7
+	.long	0x132d
+	.uleb128 0x10
+	.long	.LASF343
+	.uleb128 0xa
+	.long	.LASF344
+	.byte	0xe
+	.byte	0x2e
+	.byte	0x1c
+	.long	0x133e
+	.uleb128 0x7
+	.long	0x1343
+	.uleb128 0xc
+	.long	.LASF345
+	.byte	0x80
+	.byte	0x16
+	.byte	0x3d
+	.byte	0x8
+	.long	0x143b
+	.uleb128 0x3
+	.long	.LASF346
+	.byte	0x16
+	.byte	0x3e
+	.byte	0x8
+	.long	0x2ee
+	.byte	0
+	.uleb128 0x3
+	.long	.LASF347
+	.byte	0x16
+	.byte	0x3f
+	.byte	0x8
+	.long	0x2ee
+	.byte	0x8
+	.uleb128 0x3
+	.long	.LASF348
+	.byte	0x16
+	.byte	0x40
+	.byte	0x8
+	.long	0x2ee
+	.byte	0x10
+	.uleb128 0x3
+	.long	.LASF194
+	.byte	0x16
+	.byte	0x41
+	.byte	0x7
+	.long	0x322
+	.byte	0x18
+	.uleb128 0x3
+	.long	.LASF349
+	.byte	0x16
+	.byte	0x42
+	.byte	0x8
+	.long	0x2d4
+	.byte	0x20
+	.uleb128 0x3
+	.long	.LASF350
+	.byte	0x16
+	.byte	0x43
+	.byte	0x8
+	.long	0x2d4
+	.byte	0x21
+	.uleb128 0x3
+	.long	.LASF351
+	.byte	0x16
+	.byte	0x44
+	.byte	0x8
+	.long	0x2d4
+	.byte	0x22
+	.uleb128 0x3
+	.long	.LASF208
+	.byte	0x16
+	.byte	0x45
+	.byte	0x9
+	.long	0x2e1
+	.byte	0x24
+	.uleb128 0x12
+	.string	"tbl"
+	.byte	0x16
+	.byte	0x46
+	.byte	0x8
+	.long	0x583
+	.byte	0x28
+	.uleb128 0x3
+	.long	.LASF352
+	.byte	0x16
+	.byte	0x47
+	.byte	0xb
+	.long	0x1c28
+	.byte	0x30
+	.uleb128 0x3
+	.long	.LASF89
+	.byte	0x16
+	.byte	0x48
+	.byte	0x9
+	.long	0x50e
+	.byte	0x38
+	.uleb128 0x3
+	.long	.LASF353
+	.byte	0x16
+	.byte	0x49
+	.byte	0xd
+	.long	0x1531
+	.byte	0x40
+	.uleb128 0x3
+	.long	.LASF354
+	.byte	0x16
+	.byte	0x4a
+	.byte	0xc
+	.long	0x156a
+	.byte	0x48
+	.uleb128 0x3
+	.long	.LASF355
+	.byte	0x16
+	.byte	0x4f
+	.byte	0x4
+	.long	0x4b83
+	.byte	0x50
+	.uleb128 0x3
+	.long	.LASF356
+	.byte	0x16
+	.byte	0x51
+	.byte	0xc
+	.long	0x1b78
+	.byte	0x60
+	.uleb128 0x3
+	.long	.LASF357
+	.byte	0x16
+	.byte	0x52
+	.byte	0xb
+	.long	0x1c61
+	.byte	0x68
+	.uleb128 0x3
+	.long	.LASF358
+	.byte	0x16
+	.byte	0x53
+	.byte	0xb
+	.long	0x1c61
+	.byte	0x70
+	.uleb128 0x3
+	.long	.LASF359
+	.byte	0x16
+	.byte	0x54
+	.byte	0x8
+	.long	0x583
+	.byte	0x78
+	.byte	0
+	.uleb128 0xa
+	.long	.LASF360
+	.byte	0xe
+	.byte	0x2f
+	.byte	0x24
+	.long	0x1447
+	.uleb128 0x7
+	.long	0x144c
+	.uleb128 0xc
+	.long	.LASF361
+	.byte	0x10
+	.byte	0xe
+	.byte	0x56
+	.byte	0x10
+	.long	0x1474
+	.uleb128 0x3
+	.long	.LASF362
+	.byte	0xe
+	.byte	0x56
+	.byte	0x2e
+	.long	0x1332
+	.byte	0
+	.uleb128 0x3
+	.long	.LASF90
+	.byte	0xe
+	.byte	0x56
+	.byte	0x4f
+	.long	0x1447
+	.byte	0x8
+	.byte	0
+	.uleb128 0xa
+	.long	.LASF363
+	.byte	0xe
+	.byte	0x30
+	.byte	0x1a
+	.long	0x1480
+	.uleb128 0x7
+	.long	0x1485
+	.uleb128 0x10
+	.long	.LASF364
+	.uleb128 0xa
+	.long	.LASF365
+	.byte	0xe
+	.byte	0x35
+	.byte	0xf
+	.long	0x2ee
+	.uleb128 0xa
+	.long	.LASF366
+	.byte	0xe
+	.byte	0x37
+	.byte	0x1a
+	.long	0x14a2
+	.uleb128 0x7
+	.long	0x14a7
+	.uleb128 0x10
+	.long	.LASF367
+	.uleb128 0xa
+	.long	.LASF368
+	.byte	0xe
+	.byte	0x38
+	.byte	0x1b
+	.long	0x14b8
+	.uleb128 0x7
+	.long	0x14bd
+	.uleb128 0x10
+	.long	.LASF369
+	.uleb128 0xa
+	.long	.LASF370
+	.byte	0xe
+	.byte	0x39
+	.byte	0x1b
+	.long	0x14ce
+	.uleb128 0x7
+	.long	0x14d3
+	.uleb128 0x10
+	.long	.LASF371
+	.uleb128 0xa
+	.long	.LASF372
+	.byte	0xe
+	.byte	0x3a
+	.byte	0x18
+	.long	0x14e4
+	.uleb128 0x7
+	.long	0x14e9
+	.uleb128 0x35
+	.long	.LASF753
+	.uleb128 0xa
+	.long	.LASF373
+	.byte	0xe
+	.byte	0x3d
+	.byte	0x22
+	.long	0x14fa
+	.uleb128 0x7
+	.long	0x14ff
+	.uleb128 0x10
+	.long	.LASF374
+	.uleb128 0xc
+	.long	.LASF375
+	.byte	0x10
+	.byte	0xe
+	.byte	0x49
+	.byte	0x10
+	.long	0x152c
+	.uleb128 0x3
+	.long	.LASF362
+	.byte	0xe
+	.byte	0x49
+	.byte	0x28
+	.long	0x606
+	.byte	0
+	.uleb128 0x3
+	.long	.LASF90
+	.byte	0xe
+	.byte	0x49
+	.byte	0x46
+	.long	0x152c
+	.byte	0x8
+	.byte	0
+	.uleb128 0x7
+	.long	0x1504
+	.uleb128 0xa
+	.long	.LASF376
+	.byte	0xe
+	.byte	0x49
+	.byte	0x4f
+	.long	0x152c
+	.uleb128 0xc
+	.long	.LASF377
+	.byte	0x10
+	.byte	0xe
+	.byte	0x4f
+	.byte	0x10
+	.long	0x1565
+	.uleb128 0x3
+	.long	.LASF362
+	.byte	0xe
+	.byte	0x4f
+	.byte	0x26
+	.long	0x655
+	.byte	0
+	.uleb128 0x3
+	.long	.LASF90
+	.byte	0xe
+	.byte	0x4f
+	.byte	0x43
+	.long	0x1565
+	.byte	0x8
+	.byte	0
+	.uleb128 0x7
+	.long	0x153d
+	.uleb128 0xa
+	.long	.LASF378
+	.byte	0xe
+	.byte	0x4f
+	.byte	0x4c
+	.long	0x1565
+	.uleb128 0x24
+	.long	.LASF379
+	.value	0x140
+	.byte	0xe
+	.byte	0x4f
+	.byte	0x5e
+	.long	0x17b9
+	.uleb128 0x3
+	.long	.LASF380
+	.byte	0xe
+	.byte	0x4f
+	.byte	0x80
+	.long	0x17d2
+	.byte	0
+	.uleb128 0x3
+	.long	.LASF381
+	.byte	0xe
+	.byte	0x4f
+	.byte	0xa6
+	.long	0x17e6
+	.byte	0x8
+	.uleb128 0x3
+	.long	.LASF382
+	.byte	0xe
+	.byte	0x4f
+	.byte	0xc6
+	.long	0x17fb
+	.byte	0x10
+	.uleb128 0x3
+	.long	.LASF383
+	.byte	0xe
+	.byte	0x4f
+	.byte	0xe6
+	.long	0x180f
+	.byte	0x18
+	.uleb128 0xb
+	.long	.LASF384
+	.byte	0xe
+	.byte	0x4f
+	.value	0x109
+	.long	0x1824
+	.byte	0x20
+	.uleb128 0xb
+	.long	.LASF385
+	.byte	0xe
+	.byte	0x4f
+	.value	0x128
+	.long	0x185b
+	.byte	0x28
+	.uleb128 0xb
+	.long	.LASF386
+	.byte	0xe
+	.byte	0x4f
+	.value	0x169
+	.long	0x187e
+	.byte	0x30
+	.uleb128 0xb
+	.long	.LASF387
+	.byte	0xe
+	.byte	0x4f
+	.value	0x1af
+	.long	0x1892
+	.byte	0x38
+	.uleb128 0xb
+	.long	.LASF388
+	.byte	0xe
+	.byte	0x4f
+	.value	0x1cd
+	.long	0x18a2
+	.byte	0x40
+	.uleb128 0xb
+	.long	.LASF389
+	.byte	0xe
+	.byte	0x4f
+	.value	0x1ec
+	.long	0x18bb
+	.byte	0x48
+	.uleb128 0xb
+	.long	.LASF390
+	.byte	0xe
+	.byte	0x4f
+	.value	0x213
+	.long	0x18e0
+	.byte	0x50
+	.uleb128 0xb
+	.long	.LASF391
+	.byte	0xe
+	.byte	0x4f
+	.value	0x24a
+	.long	0x18fe
+	.byte	0x58
+	.uleb128 0xb
+	.long	.LASF392
+	.byte	0xe
+	.byte	0x4f
+	.value	0x290
+	.long	0x1930
+	.byte	0x60
+	.uleb128 0x1c
+	.string	"Elt"
+	.byte	0xe
+	.byte	0x4f
+	.value	0x2d4
+	.long	0x1949
+	.byte	0x68
+	.uleb128 0xb
+	.long	.LASF393
+	.byte	0xe
+	.byte	0x4f
+	.value	0x2fa
+	.long	0x1962
+	.byte	0x70
+	.uleb128 0xb
+	.long	.LASF394
+	.byte	0xe
+	.byte	0x4f
+	.value	0x321
+	.long	0x1892
+	.byte	0x78
+	.uleb128 0xb
+	.long	.LASF395
+	.byte	0xe
+	.byte	0x4f
+	.value	0x341
+	.long	0x1976
+	.byte	0x80
+	.uleb128 0xb
+	.long	.LASF396
+	.byte	0xe
+	.byte	0x4f
+	.value	0x35e
+	.long	0x198f
+	.byte	0x88
+	.uleb128 0xb
+	.long	.LASF397
+	.byte	0xe
+	.byte	0x4f
+	.value	0x384
+	.long	0x198f
+	.byte	0x90
+	.uleb128 0xb
+	.long	.LASF398
+	.byte	0xe
+	.byte	0x4f
+	.value	0x3ab
+	.long	0x198f
+	.byte	0x98
+	.uleb128 0xb
+	.long	.LASF399
+	.byte	0xe
+	.byte	0x4f
+	.value	0x3d6
+	.long	0x1892
+	.byte	0xa0
+	.uleb128 0xb
+	.long	.LASF400
+	.byte	0xe
+	.byte	0x4f
+	.value	0x3f5
+	.long	0x18bb
+	.byte	0xa8
+	.uleb128 0xb
+	.long	.LASF401
+	.byte	0xe
+	.byte	0x4f
+	.value	0x421
+	.long	0x19bc
+	.byte	0xb0
+	.uleb128 0xb
+	.long	.LASF402
+	.byte	0xe
+	.byte	0x4f
+	.value	0x458
+	.long	0x19da
+	.byte	0xb8
+	.uleb128 0x1c
+	.string	"Map"
+	.byte	0xe
+	.byte	0x4f
+	.value	0x49c
+	.long	0x19f3
+	.byte	0xc0
+	.uleb128 0xb
+	.long	.LASF403
+	.byte	0xe
+	.byte	0x4f
+	.value	0x4cd
+	.long	0x19f3
+	.byte	0xc8
+	.uleb128 0xb
+	.long	.LASF404
+	.byte	0xe
+	.byte	0x4f
+	.value	0x4ff
+	.long	0x1892
+	.byte	0xd0
+	.uleb128 0xb
+	.long	.LASF405
+	.byte	0xe
+	.byte	0x4f
+	.value	0x521
+	.long	0x1892
+	.byte	0xd8
+	.uleb128 0xb
+	.long	.LASF406
+	.byte	0xe
+	.byte	0x4f
+	.value	0x544
+	.long	0x18bb
+	.byte	0xe0
+	.uleb128 0xb
+	.long	.LASF407
+	.byte	0xe
+	.byte	0x4f
+	.value	0x570
+	.long	0x18bb
+	.byte	0xe8
+	.uleb128 0xb
+	.long	.LASF408
+	.byte	0xe
+	.byte	0x4f
+	.value	0x598
+	.long	0x1a0c
+	.byte	0xf0
+	.uleb128 0xb
+	.long	.LASF409
+	.byte	0xe
+	.byte	0x4f
+	.value	0x5b9
+	.long	0x1a2a
+	.byte	0xf8
+	.uleb128 0x11
+	.long	.LASF410
+	.byte	0xe
+	.byte	0x4f
+	.value	0x5f5
+	.long	0x1a43
+	.value	0x100
+	.uleb128 0x11
+	.long	.LASF411
+	.byte	0xe
+	.byte	0x4f
+	.value	0x621
+	.long	0x1a5c
+	.value	0x108
+	.uleb128 0x11
+	.long	.LASF412
+	.byte	0xe
+	.byte	0x4f
+	.value	0x641
+	.long	0x1a7a
+	.value	0x110
+	.uleb128 0x11
+	.long	.LASF413
+	.byte	0xe
+	.byte	0x4f
+	.value	0x684
+	.long	0x1a98
+	.value	0x118
+	.uleb128 0x11
+	.long	.LASF414
+	.byte	0xe
+	.byte	0x4f
+	.value	0x6c1
+	.long	0x1ab2
+	.value	0x120
+	.uleb128 0x11
+	.long	.LASF415
+	.byte	0xe
+	.byte	0x4f
+	.value	0x6e9
+	.long	0x1ae9
+	.value	0x128
+	.uleb128 0x11
+	.long	.LASF416
+	.byte	0xe
+	.byte	0x4f
+	.value	0x726
+	.long	0x1b16
+	.value	0x130
+	.uleb128 0x11
+	.long	.LASF417
+	.byte	0xe
+	.byte	0x4f
+	.value	0x77c
+	.long	0x1b34
+	.value	0x138
+	.byte	0
+	.uleb128 0x22
+	.long	0x1576
+	.uleb128 0x9
+	.long	0x156a
+	.long	0x17d2
+	.uleb128 0x2
+	.long	0x655
+	.uleb128 0x2
+	.long	0x156a
+	.byte	0
+	.uleb128 0x7
+	.long	0x17be
+	.uleb128 0x9
+	.long	0x156a
+	.long	0x17e6
+	.uleb128 0x2
+	.long	0x655
+	.byte	0
+	.uleb128 0x7
+	.long	0x17d7
+	.uleb128 0x9
+	.long	0x156a
+	.long	0x17fb
+	.uleb128 0x2
+	.long	0x2e
+	.uleb128 0x19
+	.byte	0
+	.uleb128 0x7
+	.long	0x17eb
+	.uleb128 0x9
+	.long	0x156a
+	.long	0x180f
+	.uleb128 0x2
+	.long	0x4d8
+	.byte	0
+	.uleb128 0x7
+	.long	0x1800
+	.uleb128 0x9
+	.long	0x156a
+	.long	0x1824
+	.uleb128 0x2
+	.long	0x655
+	.uleb128 0x19
+	.byte	0
+	.uleb128 0x7
+	.long	0x1814
+	.uleb128 0x9
+	.long	0x315
+	.long	0x1842
+	.uleb128 0x2
+	.long	0x156a
+	.uleb128 0x2
+	.long	0x156a
+	.uleb128 0x2
+	.long	0x1842
+	.byte	0
+	.uleb128 0x7
+	.long	0x1847
+	.uleb128 0x9
+	.long	0x315
+	.long	0x185b
+	.uleb128 0x2
+	.long	0x655
+	.uleb128 0x2
+	.long	0x655
+	.byte	0
+	.uleb128 0x7
+	.long	0x1829
+	.uleb128 0x9
+	.long	0x655
+	.long	0x187e
+	.uleb128 0x2
+	.long	0x156a
+	.uleb128 0x2
+	.long	0x655
+	.uleb128 0x2
+	.long	0x1842
+	.uleb128 0x2
+	.long	0x4dd
+	.byte	0
+	.uleb128 0x7
+	.long	0x1860
+	.uleb128 0x9
+	.long	0x156a
+	.long	0x1892
+	.uleb128 0x2
+	.long	0x156a
+	.byte	0
+	.uleb128 0x7
+	.long	0x1883
+	.uleb128 0x16
+	.long	0x18a2
+	.uleb128 0x2
+	.long	0x156a
+	.byte	0
+	.uleb128 0x7
+	.long	0x1897
+	.uleb128 0x9
+	.long	0x156a
+	.long	0x18bb
+	.uleb128 0x2
+	.long	0x156a
+	.uleb128 0x2
+	.long	0x156a
+	.byte	0
+	.uleb128 0x7
+	.long	0x18a7
+	.uleb128 0x16
+	.long	0x18d0
+	.uleb128 0x2
+	.long	0x156a
+	.uleb128 0x2
+	.long	0x18d0
+	.byte	0
+	.uleb128 0x7
+	.long	0x18d5
+	.uleb128 0x16
+	.long	0x18e0
+	.uleb128 0x2
+	.long	0x655
+	.byte	0
+	.uleb128 0x7
+	.long	0x18c0
+	.uleb128 0x9
+	.long	0x156a
+	.long	0x18fe
+	.uleb128 0x2
+	.long	0x156a
+	.uleb128 0x2
+	.long	0x156a
+	.uleb128 0x2
+	.long	0x18d0
+	.byte	0
+	.uleb128 0x7
+	.long	0x18e5
+	.uleb128 0x9
+	.long	0x156a
+	.long	0x191c
+	.uleb128 0x2
+	.long	0x156a
+	.uleb128 0x2
+	.long	0x18d0
+	.uleb128 0x2
+	.long	0x191c
+	.byte	0
+	.uleb128 0x7
+	.long	0x1921
+	.uleb128 0x9
+	.long	0x315
+	.long	0x1930
+	.uleb128 0x2
+	.long	0x655
+	.byte	0
+	.uleb128 0x7
+	.long	0x1903
+	.uleb128 0x9
+	.long	0x655
+	.long	0x1949
+	.uleb128 0x2
+	.long	0x156a
+	.uleb128 0x2
+	.long	0x32f
+	.byte	0
+	.uleb128 0x7
+	.long	0x1935
+	.uleb128 0x9
+	.long	0x156a
+	.long	0x1962
+	.uleb128 0x2
+	.long	0x156a
+	.uleb128 0x2
+	.long	0x32f
+	.byte	0
+	.uleb128 0x7
+	.long	0x194e
+	.uleb128 0x9
+	.long	0x32f
+	.long	0x1976
+	.uleb128 0x2
+	.long	0x156a
+	.byte	0
+	.uleb128 0x7
+	.long	0x1967
+	.uleb128 0x9
+	.long	0x315
+	.long	0x198f
+	.uleb128 0x2
+	.long	0x156a
+	.uleb128 0x2
+	.long	0x32f
+	.byte	0
+	.uleb128 0x7
+	.long	0x197b
+	.uleb128 0x9
+	.long	0x156a
+	.long	0x19a8
+	.uleb128 0x2
+	.long	0x156a
+	.uleb128 0x2
+	.long	0x19a8
+	.byte	0
+	.uleb128 0x7
+	.long	0x19ad
+	.uleb128 0x9
+	.long	0x655
+	.long	0x19bc
+	.uleb128 0x2
+	.long	0x655
+	.byte	0
+	.uleb128 0x7
+	.long	0x1994
+	.uleb128 0x9
+	.long	0x156a
+	.long	0x19da
+	.uleb128 0x2
+	.long	0x156a
+	.uleb128 0x2
+	.long	0x156a
+	.uleb128 0x2
+	.long	0x19a8
+	.byte	0
+	.uleb128 0x7
+	.long	0x19c1
+	.uleb128 0x9
+	.long	0x156a
+	.long	0x19f3
+	.uleb128 0x2
+	.long	0x19a8
+	.uleb128 0x2
+	.long	0x156a
+	.byte	0
+	.uleb128 0x7
+	.long	0x19df
+	.uleb128 0x9
+	.long	0x315
+	.long	0x1a0c
+	.uleb128 0x2
+	.long	0x156a
+	.uleb128 0x2
+	.long	0x655
+	.byte	0
+	.uleb128 0x7
+	.long	0x19f8
+	.uleb128 0x9
+	.long	0x315
+	.long	0x1a2a
+	.uleb128 0x2
+	.long	0x156a
+	.uleb128 0x2
+	.long	0x655
+	.uleb128 0x2
+	.long	0x1842
+	.byte	0
+	.uleb128 0x7
+	.long	0x1a11
+	.uleb128 0x9
+	.long	0x315
+	.long	0x1a43
+	.uleb128 0x2
+	.long	0x156a
+	.uleb128 0x2
+	.long	0x156a
+	.byte	0
+	.uleb128 0x7
+	.long	0x1a2f
+	.uleb128 0x9
+	.long	0x2e
+	.long	0x1a5c
+	.uleb128 0x2
+	.long	0x156a
+	.uleb128 0x2
+	.long	0x655
+	.byte	0
+	.uleb128 0x7
+	.long	0x1a48
+	.uleb128 0x9
+	.long	0x2e
+	.long	0x1a7a
+	.uleb128 0x2
+	.long	0x156a
+	.uleb128 0x2
+	.long	0x655
+	.uleb128 0x2
+	.long	0x1842
+	.byte	0
+	.uleb128 0x7
+	.long	0x1a61
+	.uleb128 0x9
+	.long	0x156a
+	.long	0x1a98
+	.uleb128 0x2
+	.long	0x156a
+	.uleb128 0x2
+	.long	0x655
+	.uleb128 0x2
+	.long	0x1842
+	.byte	0
+	.uleb128 0x7
+	.long	0x1a7f
+	.uleb128 0x16
+	.long	0x1aad
+	.uleb128 0x2
+	.long	0x1aad
+	.uleb128 0x2
+	.long	0x156a
+	.byte	0
+	.uleb128 0x7
+	.long	0x655
+	.uleb128 0x7
+	.long	0x1a9d
+	.uleb128 0x9
+	.long	0x2e
+	.long	0x1ad0
+	.uleb128 0x2
+	.long	0x2c3
+	.uleb128 0x2
+	.long	0x156a
+	.uleb128 0x2
+	.long	0x1ad0
+	.byte	0
+	.uleb128 0x7
+	.long	0x1ad5
+	.uleb128 0x9
+	.long	0x2e
+	.long	0x1ae9
+	.uleb128 0x2
+	.long	0x2c3
+	.uleb128 0x2
+	.long	0x655
+	.byte	0
+	.uleb128 0x7
+	.long	0x1ab7
+	.uleb128 0x9
+	.long	0x2e
+	.long	0x1b16
+	.uleb128 0x2
+	.long	0x2c3
+	.uleb128 0x2
+	.long	0x156a
+	.uleb128 0x2
+	.long	0x1ad0
+	.uleb128 0x2
+	.long	0x80
+	.uleb128 0x2
+	.long	0x80
+	.uleb128 0x2
+	.long	0x80
+	.byte	0
+	.uleb128 0x7
+	.long	0x1aee
+	.uleb128 0x9
+	.long	0x2e
+	.long	0x1b34
+	.uleb128 0x2
+	.long	0x3d2
+	.uleb128 0x2
+	.long	0x363
+	.uleb128 0x2
+	.long	0x156a
+	.byte	0
+	.uleb128 0x7
+	.long	0x1b1b
+	.uleb128 0x2a
+	.long	.LASF430
+	.byte	0xe
+	.byte	0x4f
+	.value	0x7cf
+	.long	0x1b46
+	.uleb128 0x7
+	.long	0x17b9
+	.uleb128 0xc
+	.long	.LASF418
+	.byte	0x10
+	.byte	0xe
+	.byte	0x52
+	.byte	0x10
+	.long	0x1b73
+	.uleb128 0x3
+	.long	.LASF362
+	.byte	0xe
+	.byte	0x52
+	.byte	0x26
+	.long	0xb3a
+	.byte	0
+	.uleb128 0x3
+	.long	.LASF90
+	.byte	0xe
+	.byte	0x52
+	.byte	0x43
+	.long	0x1b73
+	.byte	0x8
+	.byte	0
+	.uleb128 0x7
+	.long	0x1b4b
+	.uleb128 0xa
+	.long	.LASF419
+	.byte	0xe
+	.byte	0x52
+	.byte	0x4c
+	.long	0x1b73
+	.uleb128 0x7
+	.long	0xb3a
+	.uleb128 0xc
+	.long	.LASF420
+	.byte	0x10
+	.byte	0xe
+	.byte	0x53
+	.byte	0x10
+	.long	0x1bb1
+	.uleb128 0x3
+	.long	.LASF362
+	.byte	0xe
+	.byte	0x53
+	.byte	0x28
+	.long	0xd0e
+	.byte	0
+	.uleb128 0x3
+	.long	.LASF90
+	.byte	0xe
+	.byte	0x53
+	.byte	0x46
+	.long	0x1bb1
+	.byte	0x8
+	.byte	0
+	.uleb128 0x7
+	.long	0x1b89
+	.uleb128 0xa
+	.long	.LASF421
+	.byte	0xe
+	.byte	0x53
+	.byte	0x4f
+	.long	0x1bb1
+	.uleb128 0xc
+	.long	.LASF422
+	.byte	0x10
+	.byte	0xe
+	.byte	0x54
+	.byte	0x10
+	.long	0x1bea
+	.uleb128 0x3
+	.long	.LASF362
+	.byte	0xe
+	.byte	0x54
+	.byte	0x26
+	.long	0xd24
+	.byte	0
+	.uleb128 0x3
+	.long	.LASF90
+	.byte	0xe
+	.byte	0x54
+	.byte	0x43
+	.long	0x1bea
+	.byte	0x8
+	.byte	0
+	.uleb128 0x7
+	.long	0x1bc2
+	.uleb128 0xa
+	.long	.LASF423
+	.byte	0xe
+	.byte	0x54
+	.byte	0x4c
+	.long	0x1bea
+	.uleb128 0xc
+	.long	.LASF424
+	.byte	0x10
+	.byte	0xe
+	.byte	0x55
+	.byte	0x10
+	.long	0x1c23
+	.uleb128 0x3
+	.long	.LASF362
+	.byte	0xe
+	.byte	0x55
+	.byte	0x24
+	.long	0x143b
+	.byte	0
+	.uleb128 0x3
+	.long	.LASF90
+	.byte	0xe
+	.byte	0x55
+	.byte	0x40
+	.long	0x1c23
+	.byte	0x8
+	.byte	0
+	.uleb128 0x7
+	.long	0x1bfb
+	.uleb128 0xa
+	.long	.LASF425
+	.byte	0xe
+	.byte	0x55
+	.byte	0x49
+	.long	0x1c23
+	.uleb128 0xc
+	.long	.LASF426
+	.byte	0x10
+	.byte	0xe
+	.byte	0x57
+	.byte	0x10
+	.long	0x1c5c
+	.uleb128 0x3
+	.long	.LASF362
+	.byte	0xe
+	.byte	0x57
+	.byte	0x24
+	.long	0xa8d
+	.byte	0
+	.uleb128 0x3
+	.long	.LASF90
+	.byte	0xe
+	.byte	0x57
+	.byte	0x40
+	.long	0x1c5c
+	.byte	0x8
+	.byte	0
+	.uleb128 0x7
+	.long	0x1c34
+	.uleb128 0xa
+	.long	.LASF427
+	.byte	0xe
+	.byte	0x57
+	.byte	0x49
+	.long	0x1c5c
+	.uleb128 0x7
+	.long	0xa8d
+	.uleb128 0x7
+	.long	0xd3a
+	.uleb128 0x7
+	.long	0x2fb
+	.uleb128 0xc
+	.long	.LASF428
+	.byte	0x10
+	.byte	0xe
+	.byte	0x5d
+	.byte	0x10
+	.long	0x1ca4
+	.uleb128 0x3
+	.long	.LASF362
+	.byte	0xe
+	.byte	0x5d
+	.byte	0x28
+	.long	0x1496
+	.byte	0
+	.uleb128 0x3
+	.long	.LASF90
+	.byte	0xe
+	.byte	0x5d
+	.byte	0x46
+	.long	0x1ca4
+	.byte	0x8
+	.byte	0
+	.uleb128 0x7
+	.long	0x1c7c
+	.uleb128 0xa
+	.long	.LASF429
+	.byte	0xe
+	.byte	0x5d
+	.byte	0x4f
+	.long	0x1ca4
+	.uleb128 0x13
+	.long	0x356
+	.long	0x1cc5
+	.uleb128 0x14
+	.long	0x4a
+	.byte	0x9
+	.byte	0
+	.uleb128 0x1d
+	.long	.LASF431
+	.byte	0xc
+	.byte	0x13
+	.byte	0xf
+	.long	0x50e
+	.uleb128 0xa
+	.long	.LASF432
+	.byte	0xd
+	.byte	0xe
+	.byte	0x11
+	.long	0x349
+	.uleb128 0xa
+	.long	.LASF433
+	.byte	0xd
+	.byte	0xf
+	.byte	0x11
+	.long	0x349
+	.uleb128 0xa
+	.long	.LASF434
+	.byte	0xd
+	.byte	0x11
+	.byte	0x11
+	.long	0x1cf5
+	.uleb128 0x7
+	.long	0x1cfa
+	.uleb128 0x9
+	.long	0x322
+	.long	0x1d09
+	.uleb128 0x2
+	.long	0x1cd1
+	.byte	0
+	.uleb128 0xa
+	.long	.LASF435
+	.byte	0xd
+	.byte	0x12
+	.byte	0x11
+	.long	0x1d15
+	.uleb128 0x7
+	.long	0x1d1a
+	.uleb128 0x9
+	.long	0x315
+	.long	0x1d2e
+	.uleb128 0x2
+	.long	0x1cd1
+	.uleb128 0x2
+	.long	0x1cd1
+	.byte	0
+	.uleb128 0xc
+	.long	.LASF436
+	.byte	0x20
+	.byte	0xd
+	.byte	0x1a
+	.byte	0x8
+	.long	0x1d70
+	.uleb128 0x12
+	.string	"key"
+	.byte	0xd
+	.byte	0x1b
+	.byte	0x9
+	.long	0x1cd1
+	.byte	0
+	.uleb128 0x12
+	.string	"elt"
+	.byte	0xd
+	.byte	0x1c
+	.byte	0x9
+	.long	0x1cdd
+	.byte	0x8
+	.uleb128 0x3
+	.long	.LASF194
+	.byte	0xd
+	.byte	0x1d
+	.byte	0x7
+	.long	0x322
+	.byte	0x10
+	.uleb128 0x3
+	.long	.LASF437
+	.byte	0xd
+	.byte	0x1e
+	.byte	0x12
+	.long	0x1d70
+	.byte	0x18
+	.byte	0
+	.uleb128 0x7
+	.long	0x1d2e
+	.uleb128 0x7
+	.long	0x1d70
+	.uleb128 0x7
+	.long	0x38a
+	.uleb128 0xc
+	.long	.LASF438
+	.byte	0x8
+	.byte	0xf
+	.byte	0x2e
+	.byte	0x10
+	.long	0x1d9a
+	.uleb128 0x3
+	.long	.LASF94
+	.byte	0xf
+	.byte	0x2e
+	.byte	0x24
+	.long	0x583
+	.byte	0
+	.byte	0
+	.uleb128 0xa
+	.long	.LASF439
+	.byte	0xf
+	.byte	0x2e
+	.byte	0x2e
+	.long	0x1da6
+	.uleb128 0x7
+	.long	0x1d7f
+	.uleb128 0x25
+	.long	.LASF523
+	.long	0x43
+	.byte	0x16
+	.long	0x1fa6
+	.uleb128 0x8
+	.long	.LASF440
+	.byte	0
+	.uleb128 0x8
+	.long	.LASF441
+	.byte	0
+	.uleb128 0x8
+	.long	.LASF442
+	.byte	0
+	.uleb128 0x8
+	.long	.LASF443
+	.byte	0x1
+	.uleb128 0x8
+	.long	.LASF444
+	.byte	0x2
+	.uleb128 0x8
+	.long	.LASF445
+	.byte	0x3
+	.uleb128 0x8
+	.long	.LASF446
+	.byte	0x3
+	.uleb128 0x8
+	.long	.LASF447
+	.byte	0x3
+	.uleb128 0x8
+	.long	.LASF448
+	.byte	0x4
+	.uleb128 0x8
+	.long	.LASF449
+	.byte	0x4
+	.uleb128 0x8
+	.long	.LASF450
+	.byte	0x4
+	.uleb128 0x8
+	.long	.LASF451
+	.byte	0x5
+	.uleb128 0x8
+	.long	.LASF452
+	.byte	0x6
+	.uleb128 0x8
+	.long	.LASF453
+	.byte	0x7
+	.uleb128 0x8
+	.long	.LASF454
+	.byte	0x7
+	.uleb128 0x8
+	.long	.LASF455
+	.byte	0x7
+	.uleb128 0x8
+	.long	.LASF456
+	.byte	0x8
+	.uleb128 0x8
+	.long	.LASF457
+	.byte	0x9
+	.uleb128 0x8
+	.long	.LASF458
+	.byte	0xa
+	.uleb128 0x8
+	.long	.LASF459
+	.byte	0xb
+	.uleb128 0x8
+	.long	.LASF460
+	.byte	0xc
+	.uleb128 0x8
+	.long	.LASF461
+	.byte	0xd
+	.uleb128 0x8
+	.long	.LASF462
+	.byte	0xe
+	.uleb128 0x8
+	.long	.LASF463
+	.byte	0xf
+	.uleb128 0x8
+	.long	.LASF464
+	.byte	0x10
+	.uleb128 0x8
+	.long	.LASF465
+	.byte	0x11
+	.uleb128 0x8
+	.long	.LASF466
+	.byte	0x12
+	.uleb128 0x8
+	.long	.LASF467
+	.byte	0x13
+	.uleb128 0x8
+	.long	.LASF468
+	.byte	0x14
+	.uleb128 0x8
+	.long	.LASF469
+	.byte	0x15
+	.uleb128 0x8
+	.long	.LASF470
+	.byte	0x16
+	.uleb128 0x8
+	.long	.LASF471
+	.byte	0x17
+	.uleb128 0x8
+	.long	.LASF472
+	.byte	0x18
+	.uleb128 0x8
+	.long	.LASF473
+	.byte	0x19
+	.uleb128 0x8
+	.long	.LASF474
+	.byte	0x1a
+	.uleb128 0x8
+	.long	.LASF475
+	.byte	0x1b
+	.uleb128 0x8
+	.long	.LASF476
+	.byte	0x1c
+	.uleb128 0x8
+	.long	.LASF477
+	.byte	0x1d
+	.uleb128 0x8
+	.long	.LASF478
+	.byte	0x1e
+	.uleb128 0x8
+	.long	.LASF479
+	.byte	0x1f
+	.uleb128 0x8
+	.long	.LASF480
+	.byte	0x20
+	.uleb128 0x8
+	.long	.LASF481
+	.byte	0x21
+	.uleb128 0x8
+	.long	.LASF482
+	.byte	0x22
+	.uleb128 0x8
+	.long	.LASF483
+	.byte	0x23
+	.uleb128 0x8
+	.long	.LASF484
+	.byte	0x24
+	.uleb128 0x8
+	.long	.LASF485
+	.byte	0x25
+	.uleb128 0x8
+	.long	.LASF486
+	.byte	0x26
+	.uleb128 0x8
+	.long	.LASF487
+	.byte	0x27
+	.uleb128 0x8
+	.long	.LASF488
+	.byte	0x28
+	.uleb128 0x8
+	.long	.LASF489
+	.byte	0x29
+	.uleb128 0x8
+	.long	.LASF490
+	.byte	0x2a
+	.uleb128 0x8
+	.long	.LASF491
+	.byte	0x2b
+	.uleb128 0x8
+	.long	.LASF492
+	.byte	0x2c
+	.uleb128 0x8
+	.long	.LASF493
+	.byte	0x2d
+	.uleb128 0x8
+	.long	.LASF494
+	.byte	0x2e
+	.uleb128 0x8
+	.long	.LASF495
+	.byte	0x2f
+	.uleb128 0x8
+	.long	.LASF496
+	.byte	0x30
+	.uleb128 0x8
+	.long	.LASF497
+	.byte	0x31
+	.uleb128 0x8
+	.long	.LASF498
+	.byte	0x32
+	.uleb128 0x8
+	.long	.LASF499
+	.byte	0x33
+	.uleb128 0x8
+	.long	.LASF500
+	.byte	0x34
+	.uleb128 0x8
+	.long	.LASF501
+	.byte	0x35
+	.uleb128 0x8
+	.long	.LASF502
+	.byte	0x36
+	.uleb128 0x8
+	.long	.LASF503
+	.byte	0x37
+	.uleb128 0x8
+	.long	.LASF504
+	.byte	0x38
+	.uleb128 0x8
+	.long	.LASF505
+	.byte	0x39
+	.uleb128 0x8
+	.long	.LASF506
+	.byte	0x3a
+	.uleb128 0x8
+	.long	.LASF507
+	.byte	0x3b
+	.uleb128 0x8
+	.long	.LASF508
+	.byte	0x3c
+	.uleb128 0x8
+	.long	.LASF509
+	.byte	0x3d
+	.uleb128 0x8
+	.long	.LASF510
+	.byte	0x3e
+	.uleb128 0x8
+	.long	.LASF511
+	.byte	0x3f
+	.uleb128 0x8
+	.long	.LASF512
+	.byte	0x40
+	.uleb128 0x8
+	.long	.LASF513
+	.byte	0x41
+	.uleb128 0x8
+	.long	.LASF514
+	.byte	0x42
+	.uleb128 0x8
+	.long	.LASF515
+	.byte	0x43
+	.uleb128 0x8
+	.long	.LASF516
+	.byte	0x44
+	.uleb128 0x8
+	.long	.LASF517
+	.byte	0x45
+	.uleb128 0x8
+	.long	.LASF518
+	.byte	0x46
+	.uleb128 0x8
+	.long	.LASF519
+	.byte	0x47
+	.uleb128 0x8
+	.long	.LASF520
+	.byte	0x48
+	.uleb128 0x8
+	.long	.LASF521
+	.byte	0x48
+	.byte	0
+	.uleb128 0xa
+	.long	.LASF522
+	.byte	0x10
+	.byte	0x75
+	.byte	0x17
+	.long	0x1dab
+	.uleb128 0x25
+	.long	.LASF524
+	.long	0x43
+	.byte	0xdc
+	.long	0x200f
+	.uleb128 0x8
+	.long	.LASF525
+	.byte	0
+	.uleb128 0x8
+	.long	.LASF526
+	.byte	0x1
+	.uleb128 0x8
+	.long	.LASF527
+	.byte	0x2
+	.uleb128 0x8
+	.long	.LASF528
+	.byte	0x3
+	.uleb128 0x8
+	.long	.LASF529
+	.byte	0x4
+	.uleb128 0x8
+	.long	.LASF530
+	.byte	0x5
+	.uleb128 0x8
+	.long	.LASF531
+	.byte	0x6
+	.uleb128 0x8
+	.long	.LASF532
+	.byte	0x7
+	.uleb128 0x8
+	.long	.LASF533
+	.byte	0x8
+	.uleb128 0x8
+	.long	.LASF534
+	.byte	0x9
+	.uleb128 0x8
+	.long	.LASF535
+	.byte	0xa
+	.uleb128 0x8
+	.long	.LASF536
+	.byte	0xb
+	.uleb128 0x8
+	.long	.LASF537
+	.byte	0xc
+	.byte	0
+	.uleb128 0xa
+	.long	.LASF538
+	.byte	0x10
+	.byte	0xec
+	.byte	0x15
+	.long	0x1fb2
+	.uleb128 0x25
+	.long	.LASF539
+	.long	0x43
+	.byte	0xf2
+	.long	0x2048
+	.uleb128 0x8
+	.long	.LASF540
+	.byte	0
+	.uleb128 0x8
+	.long	.LASF541
+	.byte	0x1
+	.uleb128 0x8
+	.long	.LASF542
+	.byte	0x2
+	.uleb128 0x8
+	.long	.LASF543
+	.byte	0x3
+	.uleb128 0x8
+	.long	.LASF544
+	.byte	0x4
+	.byte	0
+	.uleb128 0xf
+	.long	.LASF545
+	.byte	0x10
+	.value	0x100
+	.byte	0xf
+	.long	0x2ee
+	.uleb128 0x6
+	.long	.LASF546
+	.byte	0x48
+	.byte	0x10
+	.value	0x11e
+	.long	0x20e1
+	.uleb128 0x1
+	.long	.LASF547
+	.byte	0x10
+	.value	0x11f
+	.byte	0x6
+	.long	0x63f
+	.byte	0
+	.uleb128 0x1
+	.long	.LASF211
+	.byte	0x10
+	.value	0x120
+	.byte	0x7
+	.long	0x143b
+	.byte	0x8
+	.uleb128 0x1
+	.long	.LASF548
+	.byte	0x10
+	.value	0x121
+	.byte	0x6
+	.long	0x2e
+	.byte	0x10
+	.uleb128 0x1
+	.long	.LASF190
+	.byte	0x10
+	.value	0x122
+	.byte	0x7
+	.long	0xa8d
+	.byte	0x18
+	.uleb128 0x1
+	.long	.LASF201
+	.byte	0x10
+	.value	0x123
+	.byte	0x8
+	.long	0xb3a
+	.byte	0x20
+	.uleb128 0x1
+	.long	.LASF549
+	.byte	0x10
+	.value	0x124
+	.byte	0x8
+	.long	0x655
+	.byte	0x28
+	.uleb128 0x1
+	.long	.LASF550
+	.byte	0x10
+	.value	0x125
+	.byte	0xa
+	.long	0x2048
+	.byte	0x30
+	.uleb128 0x1
+	.long	.LASF551
+	.byte	0x10
+	.value	0x126
+	.byte	0x8
+	.long	0x14d8
+	.byte	0x38
+	.uleb128 0x1
+	.long	.LASF212
+	.byte	0x10
+	.value	0x127
+	.byte	0xb
+	.long	0x1c61
+	.byte	0x40
+	.byte	0
+	.uleb128 0xf
+	.long	.LASF552
+	.byte	0x10
+	.value	0x12a
+	.byte	0x19
+	.long	0x20ee
+	.uleb128 0x7
+	.long	0x2055
+	.uleb128 0x1e
+	.byte	0x8
+	.byte	0x10
+	.value	0x13a
+	.long	0x2117
+	.uleb128 0x5
+	.long	.LASF553
+	.byte	0x10
+	.value	0x13b
+	.byte	0x9
+	.long	0xcf8
+	.uleb128 0x5
+	.long	.LASF554
+	.byte	0x10
+	.value	0x13c
+	.byte	0x9
+	.long	0xb3a
+	.byte	0
+	.uleb128 0x6
+	.long	.LASF108
+	.byte	0x28
+	.byte	0x10
+	.value	0x130
+	.long	0x2187
+	.uleb128 0x4
+	.string	"tag"
+	.byte	0x10
+	.value	0x131
+	.byte	0x8
+	.long	0x2d4
+	.byte	0
+	.uleb128 0x4
+	.string	"use"
+	.byte	0x10
+	.value	0x132
+	.byte	0x8
+	.long	0x2d4
+	.byte	0x1
+	.uleb128 0x1
+	.long	.LASF203
+	.byte	0x10
+	.value	0x133
+	.byte	0x8
+	.long	0x2d4
+	.byte	0x2
+	.uleb128 0x1
+	.long	.LASF209
+	.byte	0x10
+	.value	0x135
+	.byte	0x9
+	.long	0x32f
+	.byte	0x8
+	.uleb128 0x4
+	.string	"pos"
+	.byte	0x10
+	.value	0x136
+	.byte	0xe
+	.long	0x553
+	.byte	0x10
+	.uleb128 0x1
+	.long	.LASF555
+	.byte	0x10
+	.value	0x138
+	.byte	0xa
+	.long	0x20e1
+	.byte	0x18
+	.uleb128 0x1
+	.long	.LASF195
+	.byte	0x10
+	.value	0x13d
+	.byte	0x4
+	.long	0x20f3
+	.byte	0x20
+	.byte	0
+	.uleb128 0x1e
+	.byte	0x50
+	.byte	0x10
+	.value	0x142
+	.long	0x21c5
+	.uleb128 0x18
+	.string	"sym"
+	.byte	0x10
+	.value	0x143
+	.byte	0xa
+	.long	0x606
+	.uleb128 0x18
+	.string	"doc"
+	.byte	0x10
+	.value	0x144
+	.byte	0x7
+	.long	0x63f
+	.uleb128 0x18
+	.string	"str"
+	.byte	0x10
+	.value	0x145
+	.byte	0xa
+	.long	0x356
+	.uleb128 0x5
+	.long	.LASF210
+	.byte	0x10
+	.value	0x146
+	.byte	0x9
+	.long	0x21c5
+	.byte	0
+	.uleb128 0x13
+	.long	0x655
+	.long	0x21d5
+	.uleb128 0x14
+	.long	0x4a
+	.byte	0x9
+	.byte	0
+	.uleb128 0x6
+	.long	.LASF109
+	.byte	0x78
+	.byte	0x10
+	.value	0x140
+	.long	0x21ff
+	.uleb128 0x4
+	.string	"hdr"
+	.byte	0x10
+	.value	0x141
+	.byte	0xf
+	.long	0x2117
+	.byte	0
+	.uleb128 0x1
+	.long	.LASF74
+	.byte	0x10
+	.value	0x147
+	.byte	0x4
+	.long	0x2187
+	.byte	0x28
+	.byte	0
+	.uleb128 0x6
+	.long	.LASF110
+	.byte	0x30
+	.byte	0x10
+	.value	0x14e
+	.long	0x2229
+	.uleb128 0x4
+	.string	"hdr"
+	.byte	0x10
+	.value	0x14f
+	.byte	0xf
+	.long	0x2117
+	.byte	0
+	.uleb128 0x4
+	.string	"sym"
+	.byte	0x10
+	.value	0x150
+	.byte	0x9
+	.long	0x606
+	.byte	0x28
+	.byte	0
+	.uleb128 0x6
+	.long	.LASF111
+	.byte	0x30
+	.byte	0x10
+	.value	0x153
+	.long	0x2253
+	.uleb128 0x4
+	.string	"hdr"
+	.byte	0x10
+	.value	0x154
+	.byte	0xf
+	.long	0x2117
+	.byte	0
+	.uleb128 0x4
+	.string	"sym"
+	.byte	0x10
+	.value	0x155
+	.byte	0x9
+	.long	0x606
+	.byte	0x28
+	.byte	0
+	.uleb128 0x6
+	.long	.LASF112
+	.byte	0x30
+	.byte	0x10
+	.value	0x158
+	.long	0x227d
+	.uleb128 0x4
+	.string	"hdr"
+	.byte	0x10
+	.value	0x159
+	.byte	0xf
+	.long	0x2117
+	.byte	0
+	.uleb128 0x4
+	.string	"sym"
+	.byte	0x10
+	.value	0x15a
+	.byte	0x9
+	.long	0x606
+	.byte	0x28
+	.byte	0
+	.uleb128 0x6
+	.long	.LASF113
+	.byte	0x30
+	.byte	0x10
+	.value	0x15d
+	.long	0x22a7
+	.uleb128 0x4
+	.string	"hdr"
+	.byte	0x10
+	.value	0x15e
+	.byte	0xf
+	.long	0x2117
+	.byte	0
+	.uleb128 0x4
+	.string	"doc"
+	.byte	0x10
+	.value	0x15f
+	.byte	0x6
+	.long	0x63f
+	.byte	0x28
+	.byte	0
+	.uleb128 0x6
+	.long	.LASF114
+	.byte	0x30
+	.byte	0x10
+	.value	0x162
+	.long	0x22d1
+	.uleb128 0x4
+	.string	"hdr"
+	.byte	0x10
+	.value	0x163
+	.byte	0xf
+	.long	0x2117
+	.byte	0
+	.uleb128 0x4
+	.string	"str"
+	.byte	0x10
+	.value	0x164
+	.byte	0x9
+	.long	0x356
+	.byte	0x28
+	.byte	0
+	.uleb128 0x6
+	.long	.LASF116
+	.byte	0x30
+	.byte	0x10
+	.value	0x167
+	.long	0x22fb
+	.uleb128 0x4
+	.string	"hdr"
+	.byte	0x10
+	.value	0x168
+	.byte	0xf
+	.long	0x2117
+	.byte	0
+	.uleb128 0x4
+	.string	"str"
+	.byte	0x10
+	.value	0x169
+	.byte	0x9
+	.long	0x356
+	.byte	0x28
+	.byte	0
+	.uleb128 0x6
+	.long	.LASF115
+	.byte	0x30
+	.byte	0x10
+	.value	0x16c
+	.long	0x2325
+	.uleb128 0x4
+	.string	"hdr"
+	.byte	0x10
+	.value	0x16d
+	.byte	0xf
+	.long	0x2117
+	.byte	0
+	.uleb128 0x4
+	.string	"str"
+	.byte	0x10
+	.value	0x16e
+	.byte	0x9
+	.long	0x356
+	.byte	0x28
+	.byte	0
+	.uleb128 0x6
+	.long	.LASF117
+	.byte	0x38
+	.byte	0x10
+	.value	0x175
+	.long	0x235d
+	.uleb128 0x4
+	.string	"hdr"
+	.byte	0x10
+	.value	0x176
+	.byte	0xf
+	.long	0x2117
+	.byte	0
+	.uleb128 0x1
+	.long	.LASF556
+	.byte	0x10
+	.value	0x177
+	.byte	0x8
+	.long	0x655
+	.byte	0x28
+	.uleb128 0x1
+	.long	.LASF557
+	.byte	0x10
+	.value	0x178
+	.byte	0x8
+	.long	0x655
+	.byte	0x30
+	.byte	0
+	.uleb128 0x6
+	.long	.LASF118
+	.byte	0x78
+	.byte	0x10
+	.value	0x17b
+	.long	0x2387
+	.uleb128 0x4
+	.string	"hdr"
+	.byte	0x10
+	.value	0x17c
+	.byte	0xf
+	.long	0x2117
+	.byte	0
+	.uleb128 0x1
+	.long	.LASF210
+	.byte	0x10
+	.value	0x17d
+	.byte	0x8
+	.long	0x21c5
+	.byte	0x28
+	.byte	0
+	.uleb128 0x6
+	.long	.LASF119
+	.byte	0x80
+	.byte	0x10
+	.value	0x180
+	.long	0x23be
+	.uleb128 0x4
+	.string	"hdr"
+	.byte	0x10
+	.value	0x181
+	.byte	0xf
+	.long	0x2117
+	.byte	0
+	.uleb128 0x4
+	.string	"op"
+	.byte	0x10
+	.value	0x182
+	.byte	0x8
+	.long	0x655
+	.byte	0x28
+	.uleb128 0x1
+	.long	.LASF210
+	.byte	0x10
+	.value	0x183
+	.byte	0x8
+	.long	0x21c5
+	.byte	0x30
+	.byte	0
+	.uleb128 0x6
+	.long	.LASF120
+	.byte	0x30
+	.byte	0x10
+	.value	0x186
+	.long	0x23e8
+	.uleb128 0x4
+	.string	"hdr"
+	.byte	0x10
+	.value	0x187
+	.byte	0xf
+	.long	0x2117
+	.byte	0
+	.uleb128 0x1
+	.long	.LASF558
+	.byte	0x10
+	.value	0x188
+	.byte	0x8
+	.long	0x655
+	.byte	0x28
+	.byte	0
+	.uleb128 0x6
+	.long	.LASF121
+	.byte	0x38
+	.byte	0x10
+	.value	0x18b
+	.long	0x2420
+	.uleb128 0x4
+	.string	"hdr"
+	.byte	0x10
+	.value	0x18c
+	.byte	0xf
+	.long	0x2117
+	.byte	0
+	.uleb128 0x4
+	.string	"lhs"
+	.byte	0x10
+	.value	0x18d
+	.byte	0x8
+	.long	0x655
+	.byte	0x28
+	.uleb128 0x4
+	.string	"rhs"
+	.byte	0x10
+	.value	0x18e
+	.byte	0x8
+	.long	0x655
+	.byte	0x30
+	.byte	0
+	.uleb128 0x6
+	.long	.LASF122
+	.byte	0x30
+	.byte	0x10
+	.value	0x191
+	.long	0x244a
+	.uleb128 0x4
+	.string	"hdr"
+	.byte	0x10
+	.value	0x192
+	.byte	0xf
+	.long	0x2117
+	.byte	0
+	.uleb128 0x1
+	.long	.LASF559
+	.byte	0x10
+	.value	0x193
+	.byte	0x8
+	.long	0x655
+	.byte	0x28
+	.byte	0
+	.uleb128 0x6
+	.long	.LASF123
+	.byte	0x30
+	.byte	0x10
+	.value	0x196
+	.long	0x2474
+	.uleb128 0x4
+	.string	"hdr"
+	.byte	0x10
+	.value	0x197
+	.byte	0xf
+	.long	0x2117
+	.byte	0
+	.uleb128 0x1
+	.long	.LASF560
+	.byte	0x10
+	.value	0x198
+	.byte	0x8
+	.long	0x655
+	.byte	0x28
+	.byte	0
+	.uleb128 0x6
+	.long	.LASF124
+	.byte	0x38
+	.byte	0x10
+	.value	0x19b
+	.long	0x24ab
+	.uleb128 0x4
+	.string	"hdr"
+	.byte	0x10
+	.value	0x19c
+	.byte	0xf
+	.long	0x2117
+	.byte	0
+	.uleb128 0x4
+	.string	"id"
+	.byte	0x10
+	.value	0x19d
+	.byte	0x8
+	.long	0x655
+	.byte	0x28
+	.uleb128 0x1
+	.long	.LASF195
+	.byte	0x10
+	.value	0x19e
+	.byte	0x8
+	.long	0x655
+	.byte	0x30
+	.byte	0
+	.uleb128 0x6
+	.long	.LASF131
+	.byte	0x30
+	.byte	0x10
+	.value	0x1a1
+	.long	0x24d5
+	.uleb128 0x4
+	.string	"hdr"
+	.byte	0x10
+	.value	0x1a2
+	.byte	0xf
+	.long	0x2117
+	.byte	0
+	.uleb128 0x1
+	.long	.LASF561
+	.byte	0x10
+	.value	0x1a3
+	.byte	0x8
+	.long	0x655
+	.byte	0x28
+	.byte	0
+	.uleb128 0x6
+	.long	.LASF132
+	.byte	0x38
+	.byte	0x10
+	.value	0x1a6
+	.long	0x250d
+	.uleb128 0x4
+	.string	"hdr"
+	.byte	0x10
+	.value	0x1a7
+	.byte	0xf
+	.long	0x2117
+	.byte	0
+	.uleb128 0x1
+	.long	.LASF561
+	.byte	0x10
+	.value	0x1a8
+	.byte	0x8
+	.long	0x655
+	.byte	0x28
+	.uleb128 0x4
+	.string	"doc"
+	.byte	0x10
+	.value	0x1a9
+	.byte	0x8
+	.long	0x655
+	.byte	0x30
+	.byte	0
+	.uleb128 0x6
+	.long	.LASF125
+	.byte	0x38
+	.byte	0x10
+	.value	0x1ac
+	.long	0x2545
+	.uleb128 0x4
+	.string	"hdr"
+	.byte	0x10
+	.value	0x1ad
+	.byte	0xf
+	.long	0x2117
+	.byte	0
+	.uleb128 0x1
+	.long	.LASF561
+	.byte	0x10
+	.value	0x1ae
+	.byte	0x8
+	.long	0x655
+	.byte	0x28
+	.uleb128 0x1
+	.long	.LASF195
+	.byte	0x10
+	.value	0x1af
+	.byte	0x8
+	.long	0x655
+	.byte	0x30
+	.byte	0
+	.uleb128 0x6
+	.long	.LASF126
+	.byte	0x80
+	.byte	0x10
+	.value	0x1b2
+	.long	0x257d
+	.uleb128 0x4
+	.string	"hdr"
+	.byte	0x10
+	.value	0x1b3
+	.byte	0xf
+	.long	0x2117
+	.byte	0
+	.uleb128 0x1
+	.long	.LASF562
+	.byte	0x10
+	.value	0x1b4
+	.byte	0x8
+	.long	0x655
+	.byte	0x28
+	.uleb128 0x1
+	.long	.LASF563
+	.byte	0x10
+	.value	0x1b5
+	.byte	0x8
+	.long	0x21c5
+	.byte	0x30
+	.byte	0
+	.uleb128 0x6
+	.long	.LASF127
+	.byte	0x78
+	.byte	0x10
+	.value	0x1b8
+	.long	0x25a7
+	.uleb128 0x4
+	.string	"hdr"
+	.byte	0x10
+	.value	0x1b9
+	.byte	0xf
+	.long	0x2117
+	.byte	0
+	.uleb128 0x1
+	.long	.LASF210
+	.byte	0x10
+	.value	0x1ba
+	.byte	0x8
+	.long	0x21c5
+	.byte	0x28
+	.byte	0
+	.uleb128 0x6
+	.long	.LASF128
+	.byte	0x30
+	.byte	0x10
+	.value	0x1bd
+	.long	0x25d1
+	.uleb128 0x4
+	.string	"hdr"
+	.byte	0x10
+	.value	0x1be
+	.byte	0xf
+	.long	0x2117
+	.byte	0
+	.uleb128 0x1
+	.long	.LASF562
+	.byte	0x10
+	.value	0x1bf
+	.byte	0x8
+	.long	0x655
+	.byte	0x28
+	.byte	0
+	.uleb128 0x6
+	.long	.LASF129
+	.byte	0x38
+	.byte	0x10
+	.value	0x1c2
+	.long	0x2609
+	.uleb128 0x4
+	.string	"hdr"
+	.byte	0x10
+	.value	0x1c3
+	.byte	0xf
+	.long	0x2117
+	.byte	0
+	.uleb128 0x4
+	.string	"lhs"
+	.byte	0x10
+	.value	0x1c4
+	.byte	0x8
+	.long	0x655
+	.byte	0x28
+	.uleb128 0x4
+	.string	"rhs"
+	.byte	0x10
+	.value	0x1c5
+	.byte	0x8
+	.long	0x655
+	.byte	0x30
+	.byte	0
+	.uleb128 0x6
+	.long	.LASF130
+	.byte	0x30
+	.byte	0x10
+	.value	0x1c8
+	.long	0x2633
+	.uleb128 0x4
+	.string	"hdr"
+	.byte	0x10
+	.value	0x1c9
+	.byte	0xf
+	.long	0x2117
+	.byte	0
+	.uleb128 0x1
+	.long	.LASF562
+	.byte	0x10
+	.value	0x1ca
+	.byte	0x8
+	.long	0x655
+	.byte	0x28
+	.byte	0
+	.uleb128 0x6
+	.long	.LASF133
+	.byte	0x38
+	.byte	0x10
+	.value	0x1cd
+	.long	0x266b
+	.uleb128 0x4
+	.string	"hdr"
+	.byte	0x10
+	.value	0x1ce
+	.byte	0xf
+	.long	0x2117
+	.byte	0
+	.uleb128 0x1
+	.long	.LASF195
+	.byte	0x10
+	.value	0x1cf
+	.byte	0x8
+	.long	0x655
+	.byte	0x28
+	.uleb128 0x1
+	.long	.LASF564
+	.byte	0x10
+	.value	0x1d0
+	.byte	0x8
+	.long	0x655
+	.byte	0x30
+	.byte	0
+	.uleb128 0x6
+	.long	.LASF134
+	.byte	0x38
+	.byte	0x10
+	.value	0x1d3
+	.long	0x26a3
+	.uleb128 0x4
+	.string	"hdr"
+	.byte	0x10
+	.value	0x1d4
+	.byte	0xf
+	.long	0x2117
+	.byte	0
+	.uleb128 0x1
+	.long	.LASF558
+	.byte	0x10
+	.value	0x1d5
+	.byte	0x8
+	.long	0x655
+	.byte	0x28
+	.uleb128 0x1
+	.long	.LASF565
+	.byte	0x10
+	.value	0x1d6
+	.byte	0x8
+	.long	0x655
+	.byte	0x30
+	.byte	0
+	.uleb128 0x6
+	.long	.LASF135
+	.byte	0x40
+	.byte	0x10
+	.value	0x1d9
+	.long	0x26e9
+	.uleb128 0x4
+	.string	"hdr"
+	.byte	0x10
+	.value	0x1da
+	.byte	0xf
+	.long	0x2117
+	.byte	0
+	.uleb128 0x1
+	.long	.LASF560
+	.byte	0x10
+	.value	0x1db
+	.byte	0x8
+	.long	0x655
+	.byte	0x28
+	.uleb128 0x1
+	.long	.LASF566
+	.byte	0x10
+	.value	0x1dc
+	.byte	0x8
+	.long	0x655
+	.byte	0x30
+	.uleb128 0x1
+	.long	.LASF567
+	.byte	0x10
+	.value	0x1dd
+	.byte	0x8
+	.long	0x655
+	.byte	0x38
+	.byte	0
+	.uleb128 0x6
+	.long	.LASF136
+	.byte	0x30
+	.byte	0x10
+	.value	0x1e0
+	.long	0x2713
+	.uleb128 0x4
+	.string	"hdr"
+	.byte	0x10
+	.value	0x1e1
+	.byte	0xf
+	.long	0x2117
+	.byte	0
+	.uleb128 0x1
+	.long	.LASF562
+	.byte	0x10
+	.value	0x1e2
+	.byte	0x8
+	.long	0x655
+	.byte	0x28
+	.byte	0
+	.uleb128 0x6
+	.long	.LASF137
+	.byte	0x30
+	.byte	0x10
+	.value	0x1e5
+	.long	0x273d
+	.uleb128 0x4
+	.string	"hdr"
+	.byte	0x10
+	.value	0x1e6
+	.byte	0xf
+	.long	0x2117
+	.byte	0
+	.uleb128 0x1
+	.long	.LASF568
+	.byte	0x10
+	.value	0x1e7
+	.byte	0x8
+	.long	0x655
+	.byte	0x28
+	.byte	0
+	.uleb128 0x6
+	.long	.LASF138
+	.byte	0x78
+	.byte	0x10
+	.value	0x1ea
+	.long	0x2767
+	.uleb128 0x4
+	.string	"hdr"
+	.byte	0x10
+	.value	0x1eb
+	.byte	0xf
+	.long	0x2117
+	.byte	0
+	.uleb128 0x1
+	.long	.LASF210
+	.byte	0x10
+	.value	0x1ec
+	.byte	0x8
+	.long	0x21c5
+	.byte	0x28
+	.byte	0
+	.uleb128 0x6
+	.long	.LASF139
+	.byte	0x40
+	.byte	0x10
+	.value	0x1ef
+	.long	0x27ad
+	.uleb128 0x4
+	.string	"hdr"
+	.byte	0x10
+	.value	0x1f0
+	.byte	0xf
+	.long	0x2117
+	.byte	0
+	.uleb128 0x4
+	.string	"lhs"
+	.byte	0x10
+	.value	0x1f1
+	.byte	0x8
+	.long	0x655
+	.byte	0x28
+	.uleb128 0x1
+	.long	.LASF569
+	.byte	0x10
+	.value	0x1f2
+	.byte	0x8
+	.long	0x655
+	.byte	0x30
+	.uleb128 0x1
+	.long	.LASF558
+	.byte	0x10
+	.value	0x1f3
+	.byte	0x8
+	.long	0x655
+	.byte	0x38
+	.byte	0
+	.uleb128 0x6
+	.long	.LASF140
+	.byte	0x38
+	.byte	0x10
+	.value	0x1f6
+	.long	0x27e5
+	.uleb128 0x4
+	.string	"hdr"
+	.byte	0x10
+	.value	0x1f7
+	.byte	0xf
+	.long	0x2117
+	.byte	0
+	.uleb128 0x1
+	.long	.LASF560
+	.byte	0x10
+	.value	0x1f8
+	.byte	0x8
+	.long	0x655
+	.byte	0x28
+	.uleb128 0x1
+	.long	.LASF566
+	.byte	0x10
+	.value	0x1f9
+	.byte	0x8
+	.long	0x655
+	.byte	0x30
+	.byte	0
+	.uleb128 0x6
+	.long	.LASF141
+	.byte	0x38
+	.byte	0x10
+	.value	0x1fc
+	.long	0x281d
+	.uleb128 0x4
+	.string	"hdr"
+	.byte	0x10
+	.value	0x1fd
+	.byte	0xf
+	.long	0x2117
+	.byte	0
+	.uleb128 0x1
+	.long	.LASF560
+	.byte	0x10
+	.value	0x1fe
+	.byte	0x8
+	.long	0x655
+	.byte	0x28
+	.uleb128 0x1
+	.long	.LASF570
+	.byte	0x10
+	.value	0x1ff
+	.byte	0x8
+	.long	0x655
+	.byte	0x30
+	.byte	0
+	.uleb128 0x6
+	.long	.LASF142
+	.byte	0x78
+	.byte	0x10
+	.value	0x202
+	.long	0x2847
+	.uleb128 0x4
+	.string	"hdr"
+	.byte	0x10
+	.value	0x203
+	.byte	0xf
+	.long	0x2117
+	.byte	0
+	.uleb128 0x1
+	.long	.LASF210
+	.byte	0x10
+	.value	0x204
+	.byte	0x8
+	.long	0x21c5
+	.byte	0x28
+	.byte	0
+	.uleb128 0x6
+	.long	.LASF143
+	.byte	0x38
+	.byte	0x10
+	.value	0x207
+	.long	0x287f
+	.uleb128 0x4
+	.string	"hdr"
+	.byte	0x10
+	.value	0x208
+	.byte	0xf
+	.long	0x2117
+	.byte	0
+	.uleb128 0x1
+	.long	.LASF98
+	.byte	0x10
+	.value	0x209
+	.byte	0x8
+	.long	0x655
+	.byte	0x28
+	.uleb128 0x1
+	.long	.LASF562
+	.byte	0x10
+	.value	0x20a
+	.byte	0x8
+	.long	0x655
+	.byte	0x30
+	.byte	0
+	.uleb128 0x6
+	.long	.LASF144
+	.byte	0x30
+	.byte	0x10
+	.value	0x20d
+	.long	0x28a9
+	.uleb128 0x4
+	.string	"hdr"
+	.byte	0x10
+	.value	0x20e
+	.byte	0xf
+	.long	0x2117
+	.byte	0
+	.uleb128 0x1
+	.long	.LASF559
+	.byte	0x10
+	.value	0x20f
+	.byte	0x8
+	.long	0x655
+	.byte	0x28
+	.byte	0
+	.uleb128 0x6
+	.long	.LASF145
+	.byte	0x38
+	.byte	0x10
+	.value	0x212
+	.long	0x28e1
+	.uleb128 0x4
+	.string	"hdr"
+	.byte	0x10
+	.value	0x213
+	.byte	0xf
+	.long	0x2117
+	.byte	0
+	.uleb128 0x1
+	.long	.LASF561
+	.byte	0x10
+	.value	0x214
+	.byte	0x8
+	.long	0x655
+	.byte	0x28
+	.uleb128 0x1
+	.long	.LASF571
+	.byte	0x10
+	.value	0x215
+	.byte	0x8
+	.long	0x655
+	.byte	0x30
+	.byte	0
+	.uleb128 0x6
+	.long	.LASF146
+	.byte	0x30
+	.byte	0x10
+	.value	0x218
+	.long	0x290b
+	.uleb128 0x4
+	.string	"hdr"
+	.byte	0x10
+	.value	0x219
+	.byte	0xf
+	.long	0x2117
+	.byte	0
+	.uleb128 0x1
+	.long	.LASF195
+	.byte	0x10
+	.value	0x21a
+	.byte	0x8
+	.long	0x655
+	.byte	0x28
+	.byte	0
+	.uleb128 0x6
+	.long	.LASF147
+	.byte	0x30
+	.byte	0x10
+	.value	0x21d
+	.long	0x2935
+	.uleb128 0x4
+	.string	"hdr"
+	.byte	0x10
+	.value	0x21e
+	.byte	0xf
+	.long	0x2117
+	.byte	0
+	.uleb128 0x1
+	.long	.LASF561
+	.byte	0x10
+	.value	0x21f
+	.byte	0x8
+	.long	0x655
+	.byte	0x28
+	.byte	0
+	.uleb128 0x6
+	.long	.LASF148
+	.byte	0x40
+	.byte	0x10
+	.value	0x222
+	.long	0x297b
+	.uleb128 0x4
+	.string	"hdr"
+	.byte	0x10
+	.value	0x223
+	.byte	0xf
+	.long	0x2117
+	.byte	0
+	.uleb128 0x1
+	.long	.LASF558
+	.byte	0x10
+	.value	0x224
+	.byte	0x8
+	.long	0x655
+	.byte	0x28
+	.uleb128 0x1
+	.long	.LASF572
+	.byte	0x10
+	.value	0x225
+	.byte	0x8
+	.long	0x655
+	.byte	0x30
+	.uleb128 0x1
+	.long	.LASF573
+	.byte	0x10
+	.value	0x226
+	.byte	0x8
+	.long	0x655
+	.byte	0x38
+	.byte	0
+	.uleb128 0x6
+	.long	.LASF149
+	.byte	0x38
+	.byte	0x10
+	.value	0x229
+	.long	0x29b3
+	.uleb128 0x4
+	.string	"hdr"
+	.byte	0x10
+	.value	0x22a
+	.byte	0xf
+	.long	0x2117
+	.byte	0
+	.uleb128 0x1
+	.long	.LASF560
+	.byte	0x10
+	.value	0x22b
+	.byte	0x8
+	.long	0x655
+	.byte	0x28
+	.uleb128 0x1
+	.long	.LASF566
+	.byte	0x10
+	.value	0x22c
+	.byte	0x8
+	.long	0x655
+	.byte	0x30
+	.byte	0
+	.uleb128 0x6
+	.long	.LASF150
+	.byte	0x38
+	.byte	0x10
+	.value	0x22f
+	.long	0x29eb
+	.uleb128 0x4
+	.string	"hdr"
+	.byte	0x10
+	.value	0x230
+	.byte	0xf
+	.long	0x2117
+	.byte	0
+	.uleb128 0x1
+	.long	.LASF560
+	.byte	0x10
+	.value	0x231
+	.byte	0x8
+	.long	0x655
+	.byte	0x28
+	.uleb128 0x1
+	.long	.LASF566
+	.byte	0x10
+	.value	0x232
+	.byte	0x8
+	.long	0x655
+	.byte	0x30
+	.byte	0
+	.uleb128 0x6
+	.long	.LASF151
+	.byte	0x30
+	.byte	0x10
+	.value	0x235
+	.long	0x2a15
+	.uleb128 0x4
+	.string	"hdr"
+	.byte	0x10
+	.value	0x236
+	.byte	0xf
+	.long	0x2117
+	.byte	0
+	.uleb128 0x1
+	.long	.LASF559
+	.byte	0x10
+	.value	0x237
+	.byte	0x8
+	.long	0x655
+	.byte	0x28
+	.byte	0
+	.uleb128 0x6
+	.long	.LASF152
+	.byte	0x38
+	.byte	0x10
+	.value	0x23a
+	.long	0x2a4d
+	.uleb128 0x4
+	.string	"hdr"
+	.byte	0x10
+	.value	0x23b
+	.byte	0xf
+	.long	0x2117
+	.byte	0
+	.uleb128 0x1
+	.long	.LASF559
+	.byte	0x10
+	.value	0x23c
+	.byte	0x8
+	.long	0x655
+	.byte	0x28
+	.uleb128 0x1
+	.long	.LASF561
+	.byte	0x10
+	.value	0x23d
+	.byte	0x8
+	.long	0x655
+	.byte	0x30
+	.byte	0
+	.uleb128 0x6
+	.long	.LASF153
+	.byte	0x40
+	.byte	0x10
+	.value	0x240
+	.long	0x2a93
+	.uleb128 0x4
+	.string	"hdr"
+	.byte	0x10
+	.value	0x241
+	.byte	0xf
+	.long	0x2117
+	.byte	0
+	.uleb128 0x1
+	.long	.LASF574
+	.byte	0x10
+	.value	0x242
+	.byte	0x8
+	.long	0x655
+	.byte	0x28
+	.uleb128 0x1
+	.long	.LASF575
+	.byte	0x10
+	.value	0x243
+	.byte	0x8
+	.long	0x655
+	.byte	0x30
+	.uleb128 0x1
+	.long	.LASF562
+	.byte	0x10
+	.value	0x244
+	.byte	0x8
+	.long	0x655
+	.byte	0x38
+	.byte	0
+	.uleb128 0x6
+	.long	.LASF154
+	.byte	0x38
+	.byte	0x10
+	.value	0x247
+	.long	0x2acb
+	.uleb128 0x4
+	.string	"hdr"
+	.byte	0x10
+	.value	0x248
+	.byte	0xf
+	.long	0x2117
+	.byte	0
+	.uleb128 0x1
+	.long	.LASF576
+	.byte	0x10
+	.value	0x249
+	.byte	0x8
+	.long	0x655
+	.byte	0x28
+	.uleb128 0x1
+	.long	.LASF561
+	.byte	0x10
+	.value	0x24a
+	.byte	0x8
+	.long	0x655
+	.byte	0x30
+	.byte	0
+	.uleb128 0x6
+	.long	.LASF155
+	.byte	0x78
+	.byte	0x10
+	.value	0x24d
+	.long	0x2af5
+	.uleb128 0x4
+	.string	"hdr"
+	.byte	0x10
+	.value	0x24e
+	.byte	0xf
+	.long	0x2117
+	.byte	0
+	.uleb128 0x1
+	.long	.LASF210
+	.byte	0x10
+	.value	0x24f
+	.byte	0x8
+	.long	0x21c5
+	.byte	0x28
+	.byte	0
+	.uleb128 0x6
+	.long	.LASF156
+	.byte	0x30
+	.byte	0x10
+	.value	0x252
+	.long	0x2b1f
+	.uleb128 0x4
+	.string	"hdr"
+	.byte	0x10
+	.value	0x253
+	.byte	0xf
+	.long	0x2117
+	.byte	0
+	.uleb128 0x1
+	.long	.LASF561
+	.byte	0x10
+	.value	0x254
+	.byte	0x8
+	.long	0x655
+	.byte	0x28
+	.byte	0
+	.uleb128 0x6
+	.long	.LASF157
+	.byte	0x38
+	.byte	0x10
+	.value	0x257
+	.long	0x2b57
+	.uleb128 0x4
+	.string	"hdr"
+	.byte	0x10
+	.value	0x258
+	.byte	0xf
+	.long	0x2117
+	.byte	0
+	.uleb128 0x4
+	.string	"lhs"
+	.byte	0x10
+	.value	0x259
+	.byte	0x8
+	.long	0x655
+	.byte	0x28
+	.uleb128 0x4
+	.string	"rhs"
+	.byte	0x10
+	.value	0x25a
+	.byte	0x8
+	.long	0x655
+	.byte	0x30
+	.byte	0
+	.uleb128 0x6
+	.long	.LASF158
+	.byte	0x38
+	.byte	0x10
+	.value	0x25d
+	.long	0x2b8f
+	.uleb128 0x4
+	.string	"hdr"
+	.byte	0x10
+	.value	0x25e
+	.byte	0xf
+	.long	0x2117
+	.byte	0
+	.uleb128 0x1
+	.long	.LASF574
+	.byte	0x10
+	.value	0x25f
+	.byte	0x8
+	.long	0x655
+	.byte	0x28
+	.uleb128 0x1
+	.long	.LASF562
+	.byte	0x10
+	.value	0x260
+	.byte	0x8
+	.long	0x655
+	.byte	0x30
+	.byte	0
+	.uleb128 0x6
+	.long	.LASF159
+	.byte	0x28
+	.byte	0x10
+	.value	0x263
+	.long	0x2bab
+	.uleb128 0x4
+	.string	"hdr"
+	.byte	0x10
+	.value	0x264
+	.byte	0xf
+	.long	0x2117
+	.byte	0
+	.byte	0
+	.uleb128 0x6
+	.long	.LASF160
+	.byte	0x30
+	.byte	0x10
+	.value	0x267
+	.long	0x2bd5
+	.uleb128 0x4
+	.string	"hdr"
+	.byte	0x10
+	.value	0x268
+	.byte	0xf
+	.long	0x2117
+	.byte	0
+	.uleb128 0x1
+	.long	.LASF561
+	.byte	0x10
+	.value	0x269
+	.byte	0x8
+	.long	0x655
+	.byte	0x28
+	.byte	0
+	.uleb128 0x6
+	.long	.LASF161
+	.byte	0x28
+	.byte	0x10
+	.value	0x26c
+	.long	0x2bf1
+	.uleb128 0x4
+	.string	"hdr"
+	.byte	0x10
+	.value	0x26d
+	.byte	0xf
+	.long	0x2117
+	.byte	0
+	.byte	0
+	.uleb128 0x6
+	.long	.LASF162
+	.byte	0x78
+	.byte	0x10
+	.value	0x270
+	.long	0x2c1b
+	.uleb128 0x4
+	.string	"hdr"
+	.byte	0x10
+	.value	0x271
+	.byte	0xf
+	.long	0x2117
+	.byte	0
+	.uleb128 0x1
+	.long	.LASF210
+	.byte	0x10
+	.value	0x272
+	.byte	0x8
+	.long	0x21c5
+	.byte	0x28
+	.byte	0
+	.uleb128 0x6
+	.long	.LASF163
+	.byte	0x30
+	.byte	0x10
+	.value	0x275
+	.long	0x2c45
+	.uleb128 0x4
+	.string	"hdr"
+	.byte	0x10
+	.value	0x276
+	.byte	0xf
+	.long	0x2117
+	.byte	0
+	.uleb128 0x1
+	.long	.LASF561
+	.byte	0x10
+	.value	0x277
+	.byte	0x8
+	.long	0x655
+	.byte	0x28
+	.byte	0
+	.uleb128 0x6
+	.long	.LASF164
+	.byte	0x40
+	.byte	0x10
+	.value	0x27a
+	.long	0x2c8b
+	.uleb128 0x4
+	.string	"hdr"
+	.byte	0x10
+	.value	0x27b
+	.byte	0xf
+	.long	0x2117
+	.byte	0
+	.uleb128 0x1
+	.long	.LASF574
+	.byte	0x10
+	.value	0x27c
+	.byte	0x8
+	.long	0x655
+	.byte	0x28
+	.uleb128 0x1
+	.long	.LASF575
+	.byte	0x10
+	.value	0x27d
+	.byte	0x8
+	.long	0x655
+	.byte	0x30
+	.uleb128 0x1
+	.long	.LASF562
+	.byte	0x10
+	.value	0x27e
+	.byte	0x8
+	.long	0x655
+	.byte	0x38
+	.byte	0
+	.uleb128 0x6
+	.long	.LASF165
+	.byte	0x38
+	.byte	0x10
+	.value	0x281
+	.long	0x2cc3
+	.uleb128 0x4
+	.string	"hdr"
+	.byte	0x10
+	.value	0x282
+	.byte	0xf
+	.long	0x2117
+	.byte	0
+	.uleb128 0x1
+	.long	.LASF561
+	.byte	0x10
+	.value	0x283
+	.byte	0x8
+	.long	0x655
+	.byte	0x28
+	.uleb128 0x1
+	.long	.LASF195
+	.byte	0x10
+	.value	0x284
+	.byte	0x8
+	.long	0x655
+	.byte	0x30
+	.byte	0
+	.uleb128 0x6
+	.long	.LASF166
+	.byte	0x38
+	.byte	0x10
+	.value	0x287
+	.long	0x2cfb
+	.uleb128 0x4
+	.string	"hdr"
+	.byte	0x10
+	.value	0x288
+	.byte	0xf
+	.long	0x2117
+	.byte	0
+	.uleb128 0x1
+	.long	.LASF560
+	.byte	0x10
+	.value	0x289
+	.byte	0x8
+	.long	0x655
+	.byte	0x28
+	.uleb128 0x1
+	.long	.LASF566
+	.byte	0x10
+	.value	0x28a
+	.byte	0x8
+	.long	0x655
+	.byte	0x30
+	.byte	0
+	.uleb128 0x6
+	.long	.LASF167
+	.byte	0x30
+	.byte	0x10
+	.value	0x28d
+	.long	0x2d25
+	.uleb128 0x4
+	.string	"hdr"
+	.byte	0x10
+	.value	0x28e
+	.byte	0xf
+	.long	0x2117
+	.byte	0
+	.uleb128 0x1
+	.long	.LASF561
+	.byte	0x10
+	.value	0x28f
+	.byte	0x8
+	.long	0x655
+	.byte	0x28
+	.byte	0
+	.uleb128 0x6
+	.long	.LASF168
+	.byte	0x30
+	.byte	0x10
+	.value	0x292
+	.long	0x2d4f
+	.uleb128 0x4
+	.string	"hdr"
+	.byte	0x10
+	.value	0x293
+	.byte	0xf
+	.long	0x2117
+	.byte	0
+	.uleb128 0x1
+	.long	.LASF562
+	.byte	0x10
+	.value	0x294
+	.byte	0x8
+	.long	0x655
+	.byte	0x28
+	.byte	0
+	.uleb128 0x6
+	.long	.LASF169
+	.byte	0x80
+	.byte	0x10
+	.value	0x297
+	.long	0x2d87
+	.uleb128 0x4
+	.string	"hdr"
+	.byte	0x10
+	.value	0x298
+	.byte	0xf
+	.long	0x2117
+	.byte	0
+	.uleb128 0x1
+	.long	.LASF562
+	.byte	0x10
+	.value	0x299
+	.byte	0x8
+	.long	0x655
+	.byte	0x28
+	.uleb128 0x1
+	.long	.LASF563
+	.byte	0x10
+	.value	0x29a
+	.byte	0x8
+	.long	0x21c5
+	.byte	0x30
+	.byte	0
+	.uleb128 0x6
+	.long	.LASF170
+	.byte	0x38
+	.byte	0x10
+	.value	0x29d
+	.long	0x2dbf
+	.uleb128 0x4
+	.string	"hdr"
+	.byte	0x10
+	.value	0x29e
+	.byte	0xf
+	.long	0x2117
+	.byte	0
+	.uleb128 0x1
+	.long	.LASF561
+	.byte	0x10
+	.value	0x29f
+	.byte	0x8
+	.long	0x655
+	.byte	0x28
+	.uleb128 0x1
+	.long	.LASF195
+	.byte	0x10
+	.value	0x2a0
+	.byte	0x8
+	.long	0x655
+	.byte	0x30
+	.byte	0
+	.uleb128 0x6
+	.long	.LASF171
+	.byte	0x38
+	.byte	0x10
+	.value	0x2a3
+	.long	0x2df7
+	.uleb128 0x4
+	.string	"hdr"
+	.byte	0x10
+	.value	0x2a4
+	.byte	0xf
+	.long	0x2117
+	.byte	0
+	.uleb128 0x1
+	.long	.LASF561
+	.byte	0x10
+	.value	0x2a5
+	.byte	0x8
+	.long	0x655
+	.byte	0x28
+	.uleb128 0x1
+	.long	.LASF195
+	.byte	0x10
+	.value	0x2a6
+	.byte	0x8
+	.long	0x655
+	.byte	0x30
+	.byte	0
+	.uleb128 0x6
+	.long	.LASF172
+	.byte	0x30
+	.byte	0x10
+	.value	0x2a9
+	.long	0x2e21
+	.uleb128 0x4
+	.string	"hdr"
+	.byte	0x10
+	.value	0x2aa
+	.byte	0xf
+	.long	0x2117
+	.byte	0
+	.uleb128 0x1
+	.long	.LASF565
+	.byte	0x10
+	.value	0x2ab
+	.byte	0x8
+	.long	0x655
+	.byte	0x28
+	.byte	0
+	.uleb128 0x6
+	.long	.LASF173
+	.byte	0x38
+	.byte	0x10
+	.value	0x2ae
+	.long	0x2e59
+	.uleb128 0x4
+	.string	"hdr"
+	.byte	0x10
+	.value	0x2af
+	.byte	0xf
+	.long	0x2117
+	.byte	0
+	.uleb128 0x1
+	.long	.LASF577
+	.byte	0x10
+	.value	0x2b0
+	.byte	0x8
+	.long	0x655
+	.byte	0x28
+	.uleb128 0x1
+	.long	.LASF578
+	.byte	0x10
+	.value	0x2b1
+	.byte	0x8
+	.long	0x655
+	.byte	0x30
+	.byte	0
+	.uleb128 0x6
+	.long	.LASF174
+	.byte	0x78
+	.byte	0x10
+	.value	0x2b4
+	.long	0x2e83
+	.uleb128 0x4
+	.string	"hdr"
+	.byte	0x10
+	.value	0x2b5
+	.byte	0xf
+	.long	0x2117
+	.byte	0
+	.uleb128 0x1
+	.long	.LASF210
+	.byte	0x10
+	.value	0x2b6
+	.byte	0x8
+	.long	0x21c5
+	.byte	0x28
+	.byte	0
+	.uleb128 0x6
+	.long	.LASF175
+	.byte	0x30
+	.byte	0x10
+	.value	0x2b9
+	.long	0x2ead
+	.uleb128 0x4
+	.string	"hdr"
+	.byte	0x10
+	.value	0x2ba
+	.byte	0xf
+	.long	0x2117
+	.byte	0
+	.uleb128 0x1
+	.long	.LASF579
+	.byte	0x10
+	.value	0x2bb
+	.byte	0x8
+	.long	0x655
+	.byte	0x28
+	.byte	0
+	.uleb128 0x6
+	.long	.LASF176
+	.byte	0x48
+	.byte	0x10
+	.value	0x2be
+	.long	0x2f00
+	.uleb128 0x4
+	.string	"hdr"
+	.byte	0x10
+	.value	0x2bf
+	.byte	0xf
+	.long	0x2117
+	.byte	0
+	.uleb128 0x1
+	.long	.LASF561
+	.byte	0x10
+	.value	0x2c0
+	.byte	0x8
+	.long	0x655
+	.byte	0x28
+	.uleb128 0x4
+	.string	"id"
+	.byte	0x10
+	.value	0x2c1
+	.byte	0x8
+	.long	0x655
+	.byte	0x30
+	.uleb128 0x1
+	.long	.LASF564
+	.byte	0x10
+	.value	0x2c2
+	.byte	0x8
+	.long	0x655
+	.byte	0x38
+	.uleb128 0x1
+	.long	.LASF580
+	.byte	0x10
+	.value	0x2c3
+	.byte	0x8
+	.long	0x655
+	.byte	0x40
+	.byte	0
+	.uleb128 0x6
+	.long	.LASF177
+	.byte	0x38
+	.byte	0x10
+	.value	0x2c6
+	.long	0x2f38
+	.uleb128 0x4
+	.string	"hdr"
+	.byte	0x10
+	.value	0x2c7
+	.byte	0xf
+	.long	0x2117
+	.byte	0
+	.uleb128 0x1
+	.long	.LASF576
+	.byte	0x10
+	.value	0x2c8
+	.byte	0x8
+	.long	0x655
+	.byte	0x28
+	.uleb128 0x1
+	.long	.LASF561
+	.byte	0x10
+	.value	0x2c9
+	.byte	0x8
+	.long	0x655
+	.byte	0x30
+	.byte	0
+	.uleb128 0x6
+	.long	.LASF178
+	.byte	0x30
+	.byte	0x10
+	.value	0x2cc
+	.long	0x2f62
+	.uleb128 0x4
+	.string	"hdr"
+	.byte	0x10
+	.value	0x2cd
+	.byte	0xf
+	.long	0x2117
+	.byte	0
+	.uleb128 0x1
+	.long	.LASF558
+	.byte	0x10
+	.value	0x2ce
+	.byte	0x8
+	.long	0x655
+	.byte	0x28
+	.byte	0
+	.uleb128 0x6
+	.long	.LASF179
+	.byte	0x38
+	.byte	0x10
+	.value	0x2d1
+	.long	0x2f9a
+	.uleb128 0x4
+	.string	"hdr"
+	.byte	0x10
+	.value	0x2d2
+	.byte	0xf
+	.long	0x2117
+	.byte	0
+	.uleb128 0x1
+	.long	.LASF556
+	.byte	0x10
+	.value	0x2d3
+	.byte	0x8
+	.long	0x655
+	.byte	0x28
+	.uleb128 0x1
+	.long	.LASF581
+	.byte	0x10
+	.value	0x2d4
+	.byte	0x8
+	.long	0x655
+	.byte	0x30
+	.byte	0
+	.uleb128 0x6
+	.long	.LASF180
+	.byte	0x30
+	.byte	0x10
+	.value	0x2d7
+	.long	0x2fc4
+	.uleb128 0x4
+	.string	"hdr"
+	.byte	0x10
+	.value	0x2d8
+	.byte	0xf
+	.long	0x2117
+	.byte	0
+	.uleb128 0x1
+	.long	.LASF565
+	.byte	0x10
+	.value	0x2d9
+	.byte	0x8
+	.long	0x655
+	.byte	0x28
+	.byte	0
+	.uleb128 0x1e
+	.byte	0x8
+	.byte	0x14
+	.value	0x1fd
+	.long	0x3050
+	.uleb128 0x18
+	.string	"opt"
+	.byte	0x14
+	.value	0x1fe
+	.byte	0xb
+	.long	0x1474
+	.uleb128 0x5
+	.long	.LASF582
+	.byte	0x14
+	.value	0x1ff
+	.byte	0x8
+	.long	0x315
+	.uleb128 0x5
+	.long	.LASF583
+	.byte	0x14
+	.value	0x200
+	.byte	0x8
+	.long	0x315
+	.uleb128 0x18
+	.string	"sym"
+	.byte	0x14
+	.value	0x201
+	.byte	0xa
+	.long	0x606
+	.uleb128 0x5
+	.long	.LASF584
+	.byte	0x14
+	.value	0x202
+	.byte	0x8
+	.long	0x315
+	.uleb128 0x5
+	.long	.LASF585
+	.byte	0x14
+	.value	0x203
+	.byte	0x8
+	.long	0x2e
+	.uleb128 0x5
+	.long	.LASF586
+	.byte	0x14
+	.value	0x204
+	.byte	0xf
+	.long	0x1ca9
+	.uleb128 0x5
+	.long	.LASF587
+	.byte	0x14
+	.value	0x205
+	.byte	0xb
+	.long	0x14ac
+	.uleb128 0x5
+	.long	.LASF588
+	.byte	0x14
+	.value	0x206
+	.byte	0x19
+	.long	0x14c2
+	.uleb128 0x5
+	.long	.LASF589
+	.byte	0x14
+	.value	0x208
+	.byte	0xc
+	.long	0x14ee
+	.byte	0
+	.uleb128 0x6
+	.long	.LASF590
+	.byte	0x30
+	.byte	0x14
+	.value	0x1f8
+	.long	0x30ce
+	.uleb128 0x4
+	.string	"tag"
+	.byte	0x14
+	.value	0x1f9
+	.byte	0x8
+	.long	0x2d4
+	.byte	0
+	.uleb128 0x1
+	.long	.LASF591
+	.byte	0x14
+	.value	0x1fa
+	.byte	0x8
+	.long	0x2d4
+	.byte	0x1
+	.uleb128 0x1
+	.long	.LASF592
+	.byte	0x14
+	.value	0x1fb
+	.byte	0x8
+	.long	0x2d4
+	.byte	0x2
+	.uleb128 0x4
+	.string	"pos"
+	.byte	0x14
+	.value	0x1fc
+	.byte	0x9
+	.long	0x50e
+	.byte	0x8
+	.uleb128 0x1
+	.long	.LASF97
+	.byte	0x14
+	.value	0x20a
+	.byte	0x4
+	.long	0x2fc4
+	.byte	0x10
+	.uleb128 0x1
+	.long	.LASF593
+	.byte	0x14
+	.value	0x20b
+	.byte	0x6
+	.long	0x2e
+	.byte	0x18
+	.uleb128 0x1
+	.long	.LASF190
+	.byte	0x14
+	.value	0x20c
+	.byte	0x7
+	.long	0xa8d
+	.byte	0x20
+	.uleb128 0x1
+	.long	.LASF209
+	.byte	0x14
+	.value	0x20d
+	.byte	0x9
+	.long	0x32f
+	.byte	0x28
+	.byte	0
+	.uleb128 0x1e
+	.byte	0x8
+	.byte	0x14
+	.value	0x212
+	.long	0x3119
+	.uleb128 0x5
+	.long	.LASF594
+	.byte	0x14
+	.value	0x213
+	.byte	0x8
+	.long	0xd3a
+	.uleb128 0x5
+	.long	.LASF74
+	.byte	0x14
+	.value	0x214
+	.byte	0x8
+	.long	0x2fb
+	.uleb128 0x18
+	.string	"str"
+	.byte	0x14
+	.value	0x215
+	.byte	0xa
+	.long	0x356
+	.uleb128 0x5
+	.long	.LASF102
+	.byte	0x14
+	.value	0x216
+	.byte	0x8
+	.long	0x5f0
+	.uleb128 0x5
+	.long	.LASF595
+	.byte	0x14
+	.value	0x217
+	.byte	0xa
+	.long	0x370
+	.byte	0
+	.uleb128 0x6
+	.long	.LASF237
+	.byte	0x80
+	.byte	0x14
+	.value	0x210
+	.long	0x3143
+	.uleb128 0x4
+	.string	"hdr"
+	.byte	0x14
+	.value	0x211
+	.byte	0x11
+	.long	0x3050
+	.byte	0
+	.uleb128 0x1
+	.long	.LASF210
+	.byte	0x14
+	.value	0x218
+	.byte	0x4
+	.long	0x3143
+	.byte	0x30
+	.byte	0
+	.uleb128 0x13
+	.long	0x30ce
+	.long	0x3153
+	.uleb128 0x14
+	.long	0x4a
+	.byte	0x9
+	.byte	0
+	.uleb128 0x6
+	.long	.LASF238
+	.byte	0x30
+	.byte	0x14
+	.value	0x21e
+	.long	0x316f
+	.uleb128 0x4
+	.string	"hdr"
+	.byte	0x14
+	.value	0x21f
+	.byte	0x11
+	.long	0x3050
+	.byte	0
+	.byte	0
+	.uleb128 0x6
+	.long	.LASF239
+	.byte	0x38
+	.byte	0x14
+	.value	0x225
+	.long	0x3199
+	.uleb128 0x4
+	.string	"hdr"
+	.byte	0x14
+	.value	0x226
+	.byte	0x11
+	.long	0x3050
+	.byte	0
+	.uleb128 0x1
+	.long	.LASF596
+	.byte	0x14
+	.value	0x227
+	.byte	0x7
+	.long	0x2fb
+	.byte	0x30
+	.byte	0
+	.uleb128 0x6
+	.long	.LASF240
+	.byte	0x38
+	.byte	0x14
+	.value	0x22d
+	.long	0x31c3
+	.uleb128 0x4
+	.string	"hdr"
+	.byte	0x14
+	.value	0x22e
+	.byte	0x11
+	.long	0x3050
+	.byte	0
+	.uleb128 0x1
+	.long	.LASF597
+	.byte	0x14
+	.value	0x22f
+	.byte	0x7
+	.long	0x2fb
+	.byte	0x30
+	.byte	0
+	.uleb128 0x6
+	.long	.LASF241
+	.byte	0x38
+	.byte	0x14
+	.value	0x235
+	.long	0x31ed
+	.uleb128 0x4
+	.string	"hdr"
+	.byte	0x14
+	.value	0x236
+	.byte	0x11
+	.long	0x3050
+	.byte	0
+	.uleb128 0x1
+	.long	.LASF598
+	.byte	0x14
+	.value	0x237
+	.byte	0x7
+	.long	0x2fb
+	.byte	0x30
+	.byte	0
+	.uleb128 0x6
+	.long	.LASF242
+	.byte	0x38
+	.byte	0x14
+	.value	0x23d
+	.long	0x3217
+	.uleb128 0x4
+	.string	"hdr"
+	.byte	0x14
+	.value	0x23e
+	.byte	0x11
+	.long	0x3050
+	.byte	0
+	.uleb128 0x1
+	.long	.LASF599
+	.byte	0x14
+	.value	0x23f
+	.byte	0x7
+	.long	0x2fb
+	.byte	0x30
+	.byte	0
+	.uleb128 0x6
+	.long	.LASF243
+	.byte	0x38
+	.byte	0x14
+	.value	0x245
+	.long	0x3241
+	.uleb128 0x4
+	.string	"hdr"
+	.byte	0x14
+	.value	0x246
+	.byte	0x11
+	.long	0x3050
+	.byte	0
+	.uleb128 0x1
+	.long	.LASF600
+	.byte	0x14
+	.value	0x247
+	.byte	0x7
+	.long	0x2fb
+	.byte	0x30
+	.byte	0
+	.uleb128 0x6
+	.long	.LASF244
+	.byte	0x38
+	.byte	0x14
+	.value	0x24d
+	.long	0x326b
+	.uleb128 0x4
+	.string	"hdr"
+	.byte	0x14
+	.value	0x24e
+	.byte	0x11
+	.long	0x3050
+	.byte	0
+	.uleb128 0x1
+	.long	.LASF601
+	.byte	0x14
+	.value	0x24f
+	.byte	0x7
+	.long	0x5f0
+	.byte	0x30
+	.byte	0
+	.uleb128 0x6
+	.long	.LASF245
+	.byte	0x38
+	.byte	0x14
+	.value	0x255
+	.long	0x3295
+	.uleb128 0x4
+	.string	"hdr"
+	.byte	0x14
+	.value	0x256
+	.byte	0x11
+	.long	0x3050
+	.byte	0
+	.uleb128 0x1
+	.long	.LASF602
+	.byte	0x14
+	.value	0x257
+	.byte	0x9
+	.long	0x370
+	.byte	0x30
+	.byte	0
+	.uleb128 0x6
+	.long	.LASF246
+	.byte	0x38
+	.byte	0x14
+	.value	0x25d
+	.long	0x32bf
+	.uleb128 0x4
+	.string	"hdr"
+	.byte	0x14
+	.value	0x25e
+	.byte	0x11
+	.long	0x3050
+	.byte	0
+	.uleb128 0x1
+	.long	.LASF603
+	.byte	0x14
+	.value	0x25f
+	.byte	0x9
+	.long	0x37d
+	.byte	0x30
+	.byte	0
+	.uleb128 0x6
+	.long	.LASF247
+	.byte	0x38
+	.byte	0x14
+	.value	0x262
+	.long	0x32e9
+	.uleb128 0x4
+	.string	"hdr"
+	.byte	0x14
+	.value	0x263
+	.byte	0x11
+	.long	0x3050
+	.byte	0
+	.uleb128 0x1
+	.long	.LASF74
+	.byte	0x14
+	.value	0x264
+	.byte	0x7
+	.long	0x2fb
+	.byte	0x30
+	.byte	0
+	.uleb128 0x6
+	.long	.LASF248
+	.byte	0x40
+	.byte	0x14
+	.value	0x267
+	.long	0x3313
+	.uleb128 0x4
+	.string	"hdr"
+	.byte	0x14
+	.value	0x268
+	.byte	0x11
+	.long	0x3050
+	.byte	0
+	.uleb128 0x1
+	.long	.LASF74
+	.byte	0x14
+	.value	0x269
+	.byte	0x7
+	.long	0x3313
+	.byte	0x30
+	.byte	0
+	.uleb128 0x13
+	.long	0x2fb
+	.long	0x3323
+	.uleb128 0x14
+	.long	0x4a
+	.byte	0x1
+	.byte	0
+	.uleb128 0x6
+	.long	.LASF249
+	.byte	0x88
+	.byte	0x14
+	.value	0x26c
+	.long	0x335b
+	.uleb128 0x4
+	.string	"hdr"
+	.byte	0x14
+	.value	0x26d
+	.byte	0x11
+	.long	0x3050
+	.byte	0
+	.uleb128 0x1
+	.long	.LASF604
+	.byte	0x14
+	.value	0x26e
+	.byte	0x7
+	.long	0x2fb
+	.byte	0x30
+	.uleb128 0x1
+	.long	.LASF605
+	.byte	0x14
+	.value	0x26f
+	.byte	0x7
+	.long	0x335b
+	.byte	0x38
+	.byte	0
+	.uleb128 0x13
+	.long	0x2fb
+	.long	0x336b
+	.uleb128 0x14
+	.long	0x4a
+	.byte	0x9
+	.byte	0
+	.uleb128 0x6
+	.long	.LASF250
+	.byte	0x88
+	.byte	0x14
+	.value	0x274
+	.long	0x33a3
+	.uleb128 0x4
+	.string	"hdr"
+	.byte	0x14
+	.value	0x275
+	.byte	0x11
+	.long	0x3050
+	.byte	0
+	.uleb128 0x1
+	.long	.LASF606
+	.byte	0x14
+	.value	0x276
+	.byte	0x7
+	.long	0x2fb
+	.byte	0x30
+	.uleb128 0x1
+	.long	.LASF605
+	.byte	0x14
+	.value	0x277
+	.byte	0x7
+	.long	0x33a3
+	.byte	0x38
+	.byte	0
+	.uleb128 0x13
+	.long	0xd3a
+	.long	0x33b3
+	.uleb128 0x14
+	.long	0x4a
+	.byte	0x9
+	.byte	0
+	.uleb128 0x6
+	.long	.LASF251
+	.byte	0x48
+	.byte	0x14
+	.value	0x27a
+	.long	0x33f9
+	.uleb128 0x4
+	.string	"hdr"
+	.byte	0x14
+	.value	0x27b
+	.byte	0x11
+	.long	0x3050
+	.byte	0
+	.uleb128 0x1
+	.long	.LASF607
+	.byte	0x14
+	.value	0x27c
+	.byte	0x7
+	.long	0x2fb
+	.byte	0x30
+	.uleb128 0x4
+	.string	"fmt"
+	.byte	0x14
+	.value	0x27d
+	.byte	0x7
+	.long	0xd3a
+	.byte	0x38
+	.uleb128 0x1
+	.long	.LASF608
+	.byte	0x14
+	.value	0x27e
+	.byte	0x7
+	.long	0xd3a
+	.byte	0x40
+	.byte	0
+	.uleb128 0x6
+	.long	.LASF252
+	.byte	0x98
+	.byte	0x14
+	.value	0x28d
+	.long	0x34cb
+	.uleb128 0x4
+	.string	"hdr"
+	.byte	0x14
+	.value	0x28e
+	.byte	0x11
+	.long	0x3050
+	.byte	0
+	.uleb128 0x1
+	.long	.LASF609
+	.byte	0x14
+	.value	0x28f
+	.byte	0x7
+	.long	0x2fb
+	.byte	0x30
+	.uleb128 0x1
+	.long	.LASF610
+	.byte	0x14
+	.value	0x290
+	.byte	0x7
+	.long	0x2fb
+	.byte	0x38
+	.uleb128 0x1
+	.long	.LASF611
+	.byte	0x14
+	.value	0x291
+	.byte	0x7
+	.long	0x2fb
+	.byte	0x40
+	.uleb128 0x1
+	.long	.LASF606
+	.byte	0x14
+	.value	0x292
+	.byte	0x7
+	.long	0x2fb
+	.byte	0x48
+	.uleb128 0x1
+	.long	.LASF612
+	.byte	0x14
+	.value	0x293
+	.byte	0x7
+	.long	0x2fb
+	.byte	0x50
+	.uleb128 0x1
+	.long	.LASF613
+	.byte	0x14
+	.value	0x295
+	.byte	0x7
+	.long	0x2fb
+	.byte	0x58
+	.uleb128 0x1
+	.long	.LASF614
+	.byte	0x14
+	.value	0x296
+	.byte	0x7
+	.long	0x2fb
+	.byte	0x60
+	.uleb128 0x1
+	.long	.LASF615
+	.byte	0x14
+	.value	0x297
+	.byte	0x7
+	.long	0x2fb
+	.byte	0x68
+	.uleb128 0x1
+	.long	.LASF616
+	.byte	0x14
+	.value	0x29c
+	.byte	0x7
+	.long	0xd3a
+	.byte	0x70
+	.uleb128 0x1
+	.long	.LASF617
+	.byte	0x14
+	.value	0x29e
+	.byte	0x7
+	.long	0xd3a
+	.byte	0x78
+	.uleb128 0x1
+	.long	.LASF618
+	.byte	0x14
+	.value	0x29f
+	.byte	0x7
+	.long	0xd3a
+	.byte	0x80
+	.uleb128 0x1
+	.long	.LASF619
+	.byte	0x14
+	.value	0x2a0
+	.byte	0x7
+	.long	0xd3a
+	.byte	0x88
+	.uleb128 0x1
+	.long	.LASF562
+	.byte	0x14
+	.value	0x2a1
+	.byte	0x7
+	.long	0xd3a
+	.byte	0x90
+	.byte	0
+	.uleb128 0x6
+	.long	.LASF253
+	.byte	0x40
+	.byte	0x14
+	.value	0x2a6
+	.long	0x3503
+	.uleb128 0x4
+	.string	"hdr"
+	.byte	0x14
+	.value	0x2a7
+	.byte	0x11
+	.long	0x3050
+	.byte	0
+	.uleb128 0x4
+	.string	"env"
+	.byte	0x14
+	.value	0x2a8
+	.byte	0x7
+	.long	0xd3a
+	.byte	0x30
+	.uleb128 0x1
+	.long	.LASF620
+	.byte	0x14
+	.value	0x2a9
+	.byte	0x7
+	.long	0xd3a
+	.byte	0x38
+	.byte	0
+	.uleb128 0x6
+	.long	.LASF255
+	.byte	0x60
+	.byte	0x14
+	.value	0x2b4
+	.long	0x3572
+	.uleb128 0x4
+	.string	"hdr"
+	.byte	0x14
+	.value	0x2b5
+	.byte	0x11
+	.long	0x3050
+	.byte	0
+	.uleb128 0x1
+	.long	.LASF195
+	.byte	0x14
+	.value	0x2b6
+	.byte	0x7
+	.long	0x2fb
+	.byte	0x30
+	.uleb128 0x4
+	.string	"id"
+	.byte	0x14
+	.value	0x2b7
+	.byte	0x9
+	.long	0x356
+	.byte	0x38
+	.uleb128 0x1
+	.long	.LASF575
+	.byte	0x14
+	.value	0x2b8
+	.byte	0x7
+	.long	0x2fb
+	.byte	0x40
+	.uleb128 0x1
+	.long	.LASF606
+	.byte	0x14
+	.value	0x2b9
+	.byte	0x7
+	.long	0x2fb
+	.byte	0x48
+	.uleb128 0x4
+	.string	"dir"
+	.byte	0x14
+	.value	0x2ba
+	.byte	0x7
+	.long	0x2fb
+	.byte	0x50
+	.uleb128 0x1
+	.long	.LASF621
+	.byte	0x14
+	.value	0x2bb
+	.byte	0x7
+	.long	0x2fb
+	.byte	0x58
+	.byte	0
+	.uleb128 0x6
+	.long	.LASF254
+	.byte	0x50
+	.byte	0x14
+	.value	0x2c1
+	.long	0x35c5
+	.uleb128 0x4
+	.string	"hdr"
+	.byte	0x14
+	.value	0x2c2
+	.byte	0x11
+	.long	0x3050
+	.byte	0
+	.uleb128 0x1
+	.long	.LASF195
+	.byte	0x14
+	.value	0x2c3
+	.byte	0x7
+	.long	0x2fb
+	.byte	0x30
+	.uleb128 0x4
+	.string	"id"
+	.byte	0x14
+	.value	0x2c4
+	.byte	0x9
+	.long	0x356
+	.byte	0x38
+	.uleb128 0x1
+	.long	.LASF622
+	.byte	0x14
+	.value	0x2c5
+	.byte	0x7
+	.long	0x2fb
+	.byte	0x40
+	.uleb128 0x1
+	.long	.LASF606
+	.byte	0x14
+	.value	0x2c6
+	.byte	0x7
+	.long	0x2fb
+	.byte	0x48
+	.byte	0
+	.uleb128 0x6
+	.long	.LASF256
+	.byte	0x88
+	.byte	0x14
+	.value	0x2cd
+	.long	0x35fd
+	.uleb128 0x4
+	.string	"hdr"
+	.byte	0x14
+	.value	0x2ce
+	.byte	0x11
+	.long	0x3050
+	.byte	0
+	.uleb128 0x1
+	.long	.LASF623
+	.byte	0x14
+	.value	0x2cf
+	.byte	0x7
+	.long	0x2fb
+	.byte	0x30
+	.uleb128 0x1
+	.long	.LASF210
+	.byte	0x14
+	.value	0x2d0
+	.byte	0x7
+	.long	0x33a3
+	.byte	0x38
+	.byte	0
+	.uleb128 0x6
+	.long	.LASF257
+	.byte	0x80
+	.byte	0x14
+	.value	0x2d7
+	.long	0x3627
+	.uleb128 0x4
+	.string	"hdr"
+	.byte	0x14
+	.value	0x2d8
+	.byte	0x11
+	.long	0x3050
+	.byte	0
+	.uleb128 0x1
+	.long	.LASF210
+	.byte	0x14
+	.value	0x2d9
+	.byte	0x7
+	.long	0x335b
+	.byte	0x30
+	.byte	0
+	.uleb128 0x6
+	.long	.LASF258
+	.byte	0x80
+	.byte	0x14
+	.value	0x2de
+	.long	0x3651
+	.uleb128 0x4
+	.string	"hdr"
+	.byte	0x14
+	.value	0x2df
+	.byte	0x11
+	.long	0x3050
+	.byte	0
+	.uleb128 0x1
+	.long	.LASF210
+	.byte	0x14
+	.value	0x2e0
+	.byte	0x7
+	.long	0x335b
+	.byte	0x30
+	.byte	0
+	.uleb128 0x6
+	.long	.LASF259
+	.byte	0x80
+	.byte	0x14
+	.value	0x2e5
+	.long	0x367b
+	.uleb128 0x4
+	.string	"hdr"
+	.byte	0x14
+	.value	0x2e6
+	.byte	0x11
+	.long	0x3050
+	.byte	0
+	.uleb128 0x1
+	.long	.LASF210
+	.byte	0x14
+	.value	0x2e7
+	.byte	0x7
+	.long	0x33a3
+	.byte	0x30
+	.byte	0
+	.uleb128 0x6
+	.long	.LASF260
+	.byte	0x40
+	.byte	0x14
+	.value	0x2ed
+	.long	0x36b3
+	.uleb128 0x4
+	.string	"hdr"
+	.byte	0x14
+	.value	0x2ee
+	.byte	0x11
+	.long	0x3050
+	.byte	0
+	.uleb128 0x4
+	.string	"lhs"
+	.byte	0x14
+	.value	0x2ef
+	.byte	0x7
+	.long	0xd3a
+	.byte	0x30
+	.uleb128 0x4
+	.string	"rhs"
+	.byte	0x14
+	.value	0x2f0
+	.byte	0x7
+	.long	0xd3a
+	.byte	0x38
+	.byte	0
+	.uleb128 0x6
+	.long	.LASF261
+	.byte	0x80
+	.byte	0x14
+	.value	0x2f3
+	.long	0x36dd
+	.uleb128 0x4
+	.string	"hdr"
+	.byte	0x14
+	.value	0x2f4
+	.byte	0x11
+	.long	0x3050
+	.byte	0
+	.uleb128 0x1
+	.long	.LASF210
+	.byte	0x14
+	.value	0x2f5
+	.byte	0x7
+	.long	0x33a3
+	.byte	0x30
+	.byte	0
+	.uleb128 0x6
+	.long	.LASF262
+	.byte	0x38
+	.byte	0x14
+	.value	0x2fa
+	.long	0x3707
+	.uleb128 0x4
+	.string	"hdr"
+	.byte	0x14
+	.value	0x2fb
+	.byte	0x11
+	.long	0x3050
+	.byte	0
+	.uleb128 0x1
+	.long	.LASF624
+	.byte	0x14
+	.value	0x2fc
+	.byte	0x7
+	.long	0x2fb
+	.byte	0x30
+	.byte	0
+	.uleb128 0x6
+	.long	.LASF263
+	.byte	0x38
+	.byte	0x14
+	.value	0x303
+	.long	0x3731
+	.uleb128 0x4
+	.string	"hdr"
+	.byte	0x14
+	.value	0x304
+	.byte	0x11
+	.long	0x3050
+	.byte	0
+	.uleb128 0x1
+	.long	.LASF624
+	.byte	0x14
+	.value	0x305
+	.byte	0x7
+	.long	0x2fb
+	.byte	0x30
+	.byte	0
+	.uleb128 0x6
+	.long	.LASF264
+	.byte	0x40
+	.byte	0x14
+	.value	0x30b
+	.long	0x3769
+	.uleb128 0x4
+	.string	"hdr"
+	.byte	0x14
+	.value	0x30c
+	.byte	0x11
+	.long	0x3050
+	.byte	0
+	.uleb128 0x1
+	.long	.LASF625
+	.byte	0x14
+	.value	0x30d
+	.byte	0x7
+	.long	0x2fb
+	.byte	0x30
+	.uleb128 0x1
+	.long	.LASF624
+	.byte	0x14
+	.value	0x30e
+	.byte	0x7
+	.long	0x2fb
+	.byte	0x38
+	.byte	0
+	.uleb128 0x6
+	.long	.LASF265
+	.byte	0x38
+	.byte	0x14
+	.value	0x313
+	.long	0x3793
+	.uleb128 0x4
+	.string	"hdr"
+	.byte	0x14
+	.value	0x314
+	.byte	0x11
+	.long	0x3050
+	.byte	0
+	.uleb128 0x1
+	.long	.LASF624
+	.byte	0x14
+	.value	0x315
+	.byte	0x7
+	.long	0x2fb
+	.byte	0x30
+	.byte	0
+	.uleb128 0x6
+	.long	.LASF267
+	.byte	0x38
+	.byte	0x14
+	.value	0x31a
+	.long	0x37bd
+	.uleb128 0x4
+	.string	"hdr"
+	.byte	0x14
+	.value	0x31b
+	.byte	0x11
+	.long	0x3050
+	.byte	0
+	.uleb128 0x1
+	.long	.LASF624
+	.byte	0x14
+	.value	0x31c
+	.byte	0x7
+	.long	0x2fb
+	.byte	0x30
+	.byte	0
+	.uleb128 0x6
+	.long	.LASF266
+	.byte	0x38
+	.byte	0x14
+	.value	0x321
+	.long	0x37e7
+	.uleb128 0x4
+	.string	"hdr"
+	.byte	0x14
+	.value	0x322
+	.byte	0x11
+	.long	0x3050
+	.byte	0
+	.uleb128 0x1
+	.long	.LASF624
+	.byte	0x14
+	.value	0x323
+	.byte	0x7
+	.long	0x2fb
+	.byte	0x30
+	.byte	0
+	.uleb128 0x6
+	.long	.LASF268
+	.byte	0x38
+	.byte	0x14
+	.value	0x328
+	.long	0x3811
+	.uleb128 0x4
+	.string	"hdr"
+	.byte	0x14
+	.value	0x329
+	.byte	0x11
+	.long	0x3050
+	.byte	0
+	.uleb128 0x1
+	.long	.LASF625
+	.byte	0x14
+	.value	0x32a
+	.byte	0x7
+	.long	0x2fb
+	.byte	0x30
+	.byte	0
+	.uleb128 0x6
+	.long	.LASF269
+	.byte	0x40
+	.byte	0x14
+	.value	0x32f
+	.long	0x3849
+	.uleb128 0x4
+	.string	"hdr"
+	.byte	0x14
+	.value	0x330
+	.byte	0x11
+	.long	0x3050
+	.byte	0
+	.uleb128 0x1
+	.long	.LASF625
+	.byte	0x14
+	.value	0x331
+	.byte	0x7
+	.long	0x2fb
+	.byte	0x30
+	.uleb128 0x4
+	.string	"env"
+	.byte	0x14
+	.value	0x332
+	.byte	0x7
+	.long	0xd3a
+	.byte	0x38
+	.byte	0
+	.uleb128 0x6
+	.long	.LASF270
+	.byte	0x40
+	.byte	0x14
+	.value	0x337
+	.long	0x3881
+	.uleb128 0x4
+	.string	"hdr"
+	.byte	0x14
+	.value	0x338
+	.byte	0x11
+	.long	0x3050
+	.byte	0
+	.uleb128 0x4
+	.string	"idx"
+	.byte	0x14
+	.value	0x339
+	.byte	0x7
+	.long	0x2fb
+	.byte	0x30
+	.uleb128 0x1
+	.long	.LASF620
+	.byte	0x14
+	.value	0x33a
+	.byte	0x7
+	.long	0xd3a
+	.byte	0x38
+	.byte	0
+	.uleb128 0x6
+	.long	.LASF271
+	.byte	0x38
+	.byte	0x14
+	.value	0x33f
+	.long	0x38ab
+	.uleb128 0x4
+	.string	"hdr"
+	.byte	0x14
+	.value	0x340
+	.byte	0x11
+	.long	0x3050
+	.byte	0
+	.uleb128 0x1
+	.long	.LASF559
+	.byte	0x14
+	.value	0x341
+	.byte	0x7
+	.long	0x2fb
+	.byte	0x30
+	.byte	0
+	.uleb128 0x6
+	.long	.LASF272
+	.byte	0x38
+	.byte	0x14
+	.value	0x346
+	.long	0x38d5
+	.uleb128 0x4
+	.string	"hdr"
+	.byte	0x14
+	.value	0x347
+	.byte	0x11
+	.long	0x3050
+	.byte	0
+	.uleb128 0x4
+	.string	"val"
+	.byte	0x14
+	.value	0x348
+	.byte	0x7
+	.long	0xd3a
+	.byte	0x30
+	.byte	0
+	.uleb128 0x6
+	.long	.LASF273
+	.byte	0x38
+	.byte	0x14
+	.value	0x34d
+	.long	0x38ff
+	.uleb128 0x4
+	.string	"hdr"
+	.byte	0x14
+	.value	0x34e
+	.byte	0x11
+	.long	0x3050
+	.byte	0
+	.uleb128 0x1
+	.long	.LASF620
+	.byte	0x14
+	.value	0x34f
+	.byte	0x7
+	.long	0xd3a
+	.byte	0x30
+	.byte	0
+	.uleb128 0x6
+	.long	.LASF274
+	.byte	0x38
+	.byte	0x14
+	.value	0x354
+	.long	0x3929
+	.uleb128 0x4
+	.string	"hdr"
+	.byte	0x14
+	.value	0x355
+	.byte	0x11
+	.long	0x3050
+	.byte	0
+	.uleb128 0x4
+	.string	"env"
+	.byte	0x14
+	.value	0x356
+	.byte	0x7
+	.long	0xd3a
+	.byte	0x30
+	.byte	0
+	.uleb128 0x6
+	.long	.LASF275
+	.byte	0x38
+	.byte	0x14
+	.value	0x35b
+	.long	0x3953
+	.uleb128 0x4
+	.string	"hdr"
+	.byte	0x14
+	.value	0x35c
+	.byte	0x11
+	.long	0x3050
+	.byte	0
+	.uleb128 0x4
+	.string	"loc"
+	.byte	0x14
+	.value	0x35d
+	.byte	0x7
+	.long	0xd3a
+	.byte	0x30
+	.byte	0
+	.uleb128 0x6
+	.long	.LASF276
+	.byte	0x38
+	.byte	0x14
+	.value	0x362
+	.long	0x397d
+	.uleb128 0x4
+	.string	"hdr"
+	.byte	0x14
+	.value	0x363
+	.byte	0x11
+	.long	0x3050
+	.byte	0
+	.uleb128 0x4
+	.string	"env"
+	.byte	0x14
+	.value	0x364
+	.byte	0x7
+	.long	0xd3a
+	.byte	0x30
+	.byte	0
+	.uleb128 0x6
+	.long	.LASF277
+	.byte	0x38
+	.byte	0x14
+	.value	0x369
+	.long	0x39a7
+	.uleb128 0x4
+	.string	"hdr"
+	.byte	0x14
+	.value	0x36a
+	.byte	0x11
+	.long	0x3050
+	.byte	0
+	.uleb128 0x4
+	.string	"env"
+	.byte	0x14
+	.value	0x36b
+	.byte	0x7
+	.long	0xd3a
+	.byte	0x30
+	.byte	0
+	.uleb128 0x6
+	.long	.LASF278
+	.byte	0x48
+	.byte	0x14
+	.value	0x370
+	.long	0x39ed
+	.uleb128 0x4
+	.string	"hdr"
+	.byte	0x14
+	.value	0x371
+	.byte	0x11
+	.long	0x3050
+	.byte	0
+	.uleb128 0x1
+	.long	.LASF604
+	.byte	0x14
+	.value	0x372
+	.byte	0x7
+	.long	0x2fb
+	.byte	0x30
+	.uleb128 0x1
+	.long	.LASF624
+	.byte	0x14
+	.value	0x373
+	.byte	0x7
+	.long	0xd3a
+	.byte	0x38
+	.uleb128 0x1
+	.long	.LASF561
+	.byte	0x14
+	.value	0x374
+	.byte	0x7
+	.long	0xd3a
+	.byte	0x40
+	.byte	0
+	.uleb128 0x6
+	.long	.LASF293
+	.byte	0x40
+	.byte	0x14
+	.value	0x379
+	.long	0x3a25
+	.uleb128 0x4
+	.string	"hdr"
+	.byte	0x14
+	.value	0x37a
+	.byte	0x11
+	.long	0x3050
+	.byte	0
+	.uleb128 0x1
+	.long	.LASF209
+	.byte	0x14
+	.value	0x37b
+	.byte	0x7
+	.long	0x2fb
+	.byte	0x30
+	.uleb128 0x4
+	.string	"fmt"
+	.byte	0x14
+	.value	0x37c
+	.byte	0x7
+	.long	0xd3a
+	.byte	0x38
+	.byte	0
+	.uleb128 0x6
+	.long	.LASF280
+	.byte	0x48
+	.byte	0x14
+	.value	0x382
+	.long	0x3a6b
+	.uleb128 0x4
+	.string	"hdr"
+	.byte	0x14
+	.value	0x383
+	.byte	0x11
+	.long	0x3050
+	.byte	0
+	.uleb128 0x1
+	.long	.LASF626
+	.byte	0x14
+	.value	0x384
+	.byte	0x7
+	.long	0x2fb
+	.byte	0x30
+	.uleb128 0x4
+	.string	"fmt"
+	.byte	0x14
+	.value	0x385
+	.byte	0x7
+	.long	0xd3a
+	.byte	0x38
+	.uleb128 0x1
+	.long	.LASF74
+	.byte	0x14
+	.value	0x386
+	.byte	0x7
+	.long	0xd3a
+	.byte	0x40
+	.byte	0
+	.uleb128 0x6
+	.long	.LASF305
+	.byte	0x38
+	.byte	0x14
+	.value	0x38c
+	.long	0x3a95
+	.uleb128 0x4
+	.string	"hdr"
+	.byte	0x14
+	.value	0x38d
+	.byte	0x11
+	.long	0x3050
+	.byte	0
+	.uleb128 0x4
+	.string	"fmt"
+	.byte	0x14
+	.value	0x38e
+	.byte	0x7
+	.long	0xd3a
+	.byte	0x30
+	.byte	0
+	.uleb128 0x6
+	.long	.LASF279
+	.byte	0x48
+	.byte	0x14
+	.value	0x394
+	.long	0x3adb
+	.uleb128 0x4
+	.string	"hdr"
+	.byte	0x14
+	.value	0x395
+	.byte	0x11
+	.long	0x3050
+	.byte	0
+	.uleb128 0x1
+	.long	.LASF606
+	.byte	0x14
+	.value	0x396
+	.byte	0x7
+	.long	0x2fb
+	.byte	0x30
+	.uleb128 0x1
+	.long	.LASF561
+	.byte	0x14
+	.value	0x397
+	.byte	0x7
+	.long	0xd3a
+	.byte	0x38
+	.uleb128 0x1
+	.long	.LASF626
+	.byte	0x14
+	.value	0x398
+	.byte	0x7
+	.long	0x2fb
+	.byte	0x40
+	.byte	0
+	.uleb128 0x6
+	.long	.LASF281
+	.byte	0x48
+	.byte	0x14
+	.value	0x39d
+	.long	0x3b21
+	.uleb128 0x4
+	.string	"hdr"
+	.byte	0x14
+	.value	0x39e
+	.byte	0x11
+	.long	0x3050
+	.byte	0
+	.uleb128 0x1
+	.long	.LASF606
+	.byte	0x14
+	.value	0x39f
+	.byte	0x7
+	.long	0x2fb
+	.byte	0x30
+	.uleb128 0x1
+	.long	.LASF561
+	.byte	0x14
+	.value	0x3a0
+	.byte	0x7
+	.long	0xd3a
+	.byte	0x38
+	.uleb128 0x1
+	.long	.LASF626
+	.byte	0x14
+	.value	0x3a1
+	.byte	0x7
+	.long	0x2fb
+	.byte	0x40
+	.byte	0
+	.uleb128 0x6
+	.long	.LASF282
+	.byte	0x50
+	.byte	0x14
+	.value	0x3a6
+	.long	0x3b75
+	.uleb128 0x4
+	.string	"hdr"
+	.byte	0x14
+	.value	0x3a7
+	.byte	0x11
+	.long	0x3050
+	.byte	0
+	.uleb128 0x1
+	.long	.LASF606
+	.byte	0x14
+	.value	0x3a8
+	.byte	0x7
+	.long	0x2fb
+	.byte	0x30
+	.uleb128 0x1
+	.long	.LASF561
+	.byte	0x14
+	.value	0x3a9
+	.byte	0x7
+	.long	0xd3a
+	.byte	0x38
+	.uleb128 0x1
+	.long	.LASF624
+	.byte	0x14
+	.value	0x3aa
+	.byte	0x7
+	.long	0xd3a
+	.byte	0x40
+	.uleb128 0x1
+	.long	.LASF626
+	.byte	0x14
+	.value	0x3ab
+	.byte	0x7
+	.long	0x2fb
+	.byte	0x48
+	.byte	0
+	.uleb128 0x6
+	.long	.LASF283
+	.byte	0x50
+	.byte	0x14
+	.value	0x3b0
+	.long	0x3bc9
+	.uleb128 0x4
+	.string	"hdr"
+	.byte	0x14
+	.value	0x3b1
+	.byte	0x11
+	.long	0x3050
+	.byte	0
+	.uleb128 0x4
+	.string	"env"
+	.byte	0x14
+	.value	0x3b2
+	.byte	0x7
+	.long	0x2fb
+	.byte	0x30
+	.uleb128 0x4
+	.string	"ref"
+	.byte	0x14
+	.value	0x3b3
+	.byte	0x7
+	.long	0xd3a
+	.byte	0x38
+	.uleb128 0x1
+	.long	.LASF625
+	.byte	0x14
+	.value	0x3b4
+	.byte	0x7
+	.long	0x2fb
+	.byte	0x40
+	.uleb128 0x4
+	.string	"lex"
+	.byte	0x14
+	.value	0x3b5
+	.byte	0x7
+	.long	0x2fb
+	.byte	0x48
+	.byte	0
+	.uleb128 0x6
+	.long	.LASF284
+	.byte	0x38
+	.byte	0x14
+	.value	0x3bb
+	.long	0x3bf3
+	.uleb128 0x4
+	.string	"hdr"
+	.byte	0x14
+	.value	0x3bc
+	.byte	0x11
+	.long	0x3050
+	.byte	0
+	.uleb128 0x1
+	.long	.LASF627
+	.byte	0x14
+	.value	0x3bd
+	.byte	0x7
+	.long	0x2fb
+	.byte	0x30
+	.byte	0
+	.uleb128 0x6
+	.long	.LASF285
+	.byte	0x38
+	.byte	0x14
+	.value	0x3c3
+	.long	0x3c1d
+	.uleb128 0x4
+	.string	"hdr"
+	.byte	0x14
+	.value	0x3c4
+	.byte	0x11
+	.long	0x3050
+	.byte	0
+	.uleb128 0x4
+	.string	"str"
+	.byte	0x14
+	.value	0x3c5
+	.byte	0x9
+	.long	0x356
+	.byte	0x30
+	.byte	0
+	.uleb128 0x6
+	.long	.LASF286
+	.byte	0x30
+	.byte	0x14
+	.value	0x3cb
+	.long	0x3c39
+	.uleb128 0x4
+	.string	"hdr"
+	.byte	0x14
+	.value	0x3cc
+	.byte	0x11
+	.long	0x3050
+	.byte	0
+	.byte	0
+	.uleb128 0x6
+	.long	.LASF287
+	.byte	0x40
+	.byte	0x14
+	.value	0x3d1
+	.long	0x3c71
+	.uleb128 0x4
+	.string	"hdr"
+	.byte	0x14
+	.value	0x3d2
+	.byte	0x11
+	.long	0x3050
+	.byte	0
+	.uleb128 0x4
+	.string	"lhs"
+	.byte	0x14
+	.value	0x3d3
+	.byte	0x7
+	.long	0xd3a
+	.byte	0x30
+	.uleb128 0x4
+	.string	"rhs"
+	.byte	0x14
+	.value	0x3d4
+	.byte	0x7
+	.long	0xd3a
+	.byte	0x38
+	.byte	0
+	.uleb128 0x6
+	.long	.LASF288
+	.byte	0x40
+	.byte	0x14
+	.value	0x3d9
+	.long	0x3ca9
+	.uleb128 0x4
+	.string	"hdr"
+	.byte	0x14
+	.value	0x3da
+	.byte	0x11
+	.long	0x3050
+	.byte	0
+	.uleb128 0x1
+	.long	.LASF558
+	.byte	0x14
+	.value	0x3db
+	.byte	0x7
+	.long	0xd3a
+	.byte	0x30
+	.uleb128 0x1
+	.long	.LASF559
+	.byte	0x14
+	.value	0x3dc
+	.byte	0x7
+	.long	0x2fb
+	.byte	0x38
+	.byte	0
+	.uleb128 0x6
+	.long	.LASF289
+	.byte	0x80
+	.byte	0x14
+	.value	0x3e1
+	.long	0x3cd3
+	.uleb128 0x4
+	.string	"hdr"
+	.byte	0x14
+	.value	0x3e2
+	.byte	0x11
+	.long	0x3050
+	.byte	0
+	.uleb128 0x1
+	.long	.LASF210
+	.byte	0x14
+	.value	0x3e3
+	.byte	0x7
+	.long	0x33a3
+	.byte	0x30
+	.byte	0
+	.uleb128 0x6
+	.long	.LASF291
+	.byte	0x40
+	.byte	0x14
+	.value	0x3e8
+	.long	0x3d0b
+	.uleb128 0x4
+	.string	"hdr"
+	.byte	0x14
+	.value	0x3e9
+	.byte	0x11
+	.long	0x3050
+	.byte	0
+	.uleb128 0x1
+	.long	.LASF628
+	.byte	0x14
+	.value	0x3ea
+	.byte	0x7
+	.long	0x2fb
+	.byte	0x30
+	.uleb128 0x1
+	.long	.LASF613
+	.byte	0x14
+	.value	0x3eb
+	.byte	0x7
+	.long	0xd3a
+	.byte	0x38
+	.byte	0
+	.uleb128 0x6
+	.long	.LASF292
+	.byte	0x38
+	.byte	0x14
+	.value	0x3f0
+	.long	0x3d35
+	.uleb128 0x4
+	.string	"hdr"
+	.byte	0x14
+	.value	0x3f1
+	.byte	0x11
+	.long	0x3050
+	.byte	0
+	.uleb128 0x1
+	.long	.LASF606
+	.byte	0x14
+	.value	0x3f2
+	.byte	0x7
+	.long	0x2fb
+	.byte	0x30
+	.byte	0
+	.uleb128 0x6
+	.long	.LASF294
+	.byte	0x40
+	.byte	0x14
+	.value	0x3f7
+	.long	0x3d6d
+	.uleb128 0x4
+	.string	"hdr"
+	.byte	0x14
+	.value	0x3f8
+	.byte	0x11
+	.long	0x3050
+	.byte	0
+	.uleb128 0x1
+	.long	.LASF606
+	.byte	0x14
+	.value	0x3f9
+	.byte	0x7
+	.long	0x2fb
+	.byte	0x30
+	.uleb128 0x1
+	.long	.LASF613
+	.byte	0x14
+	.value	0x3fa
+	.byte	0x7
+	.long	0xd3a
+	.byte	0x38
+	.byte	0
+	.uleb128 0x6
+	.long	.LASF295
+	.byte	0x40
+	.byte	0x14
+	.value	0x3ff
+	.long	0x3da5
+	.uleb128 0x4
+	.string	"hdr"
+	.byte	0x14
+	.value	0x400
+	.byte	0x11
+	.long	0x3050
+	.byte	0
+	.uleb128 0x1
+	.long	.LASF195
+	.byte	0x14
+	.value	0x401
+	.byte	0x7
+	.long	0x2fb
+	.byte	0x30
+	.uleb128 0x1
+	.long	.LASF561
+	.byte	0x14
+	.value	0x402
+	.byte	0x7
+	.long	0xd3a
+	.byte	0x38
+	.byte	0
+	.uleb128 0x6
+	.long	.LASF296
+	.byte	0x98
+	.byte	0x14
+	.value	0x408
+	.long	0x3df8
+	.uleb128 0x4
+	.string	"hdr"
+	.byte	0x14
+	.value	0x409
+	.byte	0x11
+	.long	0x3050
+	.byte	0
+	.uleb128 0x1
+	.long	.LASF621
+	.byte	0x14
+	.value	0x40a
+	.byte	0x7
+	.long	0x2fb
+	.byte	0x30
+	.uleb128 0x1
+	.long	.LASF195
+	.byte	0x14
+	.value	0x40b
+	.byte	0x7
+	.long	0x2fb
+	.byte	0x38
+	.uleb128 0x4
+	.string	"op"
+	.byte	0x14
+	.value	0x40c
+	.byte	0x7
+	.long	0xd3a
+	.byte	0x40
+	.uleb128 0x1
+	.long	.LASF210
+	.byte	0x14
+	.value	0x40d
+	.byte	0x7
+	.long	0x33a3
+	.byte	0x48
+	.byte	0
+	.uleb128 0x6
+	.long	.LASF297
+	.byte	0x88
+	.byte	0x14
+	.value	0x418
+	.long	0x3e2f
+	.uleb128 0x4
+	.string	"hdr"
+	.byte	0x14
+	.value	0x419
+	.byte	0x11
+	.long	0x3050
+	.byte	0
+	.uleb128 0x4
+	.string	"op"
+	.byte	0x14
+	.value	0x41a
+	.byte	0x7
+	.long	0x2fb
+	.byte	0x30
+	.uleb128 0x1
+	.long	.LASF210
+	.byte	0x14
+	.value	0x41b
+	.byte	0x7
+	.long	0x33a3
+	.byte	0x38
+	.byte	0
+	.uleb128 0x6
+	.long	.LASF298
+	.byte	0x90
+	.byte	0x14
+	.value	0x421
+	.long	0x3e74
+	.uleb128 0x4
+	.string	"hdr"
+	.byte	0x14
+	.value	0x422
+	.byte	0x11
+	.long	0x3050
+	.byte	0
+	.uleb128 0x1
+	.long	.LASF195
+	.byte	0x14
+	.value	0x423
+	.byte	0x7
+	.long	0x2fb
+	.byte	0x30
+	.uleb128 0x4
+	.string	"op"
+	.byte	0x14
+	.value	0x424
+	.byte	0x7
+	.long	0xd3a
+	.byte	0x38
+	.uleb128 0x1
+	.long	.LASF210
+	.byte	0x14
+	.value	0x425
+	.byte	0x7
+	.long	0x33a3
+	.byte	0x40
+	.byte	0
+	.uleb128 0x6
+	.long	.LASF299
+	.byte	0x98
+	.byte	0x14
+	.value	0x42d
+	.long	0x3ec7
+	.uleb128 0x4
+	.string	"hdr"
+	.byte	0x14
+	.value	0x42e
+	.byte	0x11
+	.long	0x3050
+	.byte	0
+	.uleb128 0x1
+	.long	.LASF195
+	.byte	0x14
+	.value	0x42f
+	.byte	0x7
+	.long	0x2fb
+	.byte	0x30
+	.uleb128 0x4
+	.string	"op"
+	.byte	0x14
+	.value	0x430
+	.byte	0x7
+	.long	0xd3a
+	.byte	0x38
+	.uleb128 0x4
+	.string	"env"
+	.byte	0x14
+	.value	0x431
+	.byte	0x7
+	.long	0xd3a
+	.byte	0x40
+	.uleb128 0x1
+	.long	.LASF210
+	.byte	0x14
+	.value	0x432
+	.byte	0x7
+	.long	0x33a3
+	.byte	0x48
+	.byte	0
+	.uleb128 0x6
+	.long	.LASF300
+	.byte	0x50
+	.byte	0x14
+	.value	0x438
+	.long	0x3f1b
+	.uleb128 0x4
+	.string	"hdr"
+	.byte	0x14
+	.value	0x439
+	.byte	0x11
+	.long	0x3050
+	.byte	0
+	.uleb128 0x1
+	.long	.LASF629
+	.byte	0x14
+	.value	0x43a
+	.byte	0x7
+	.long	0xd3a
+	.byte	0x30
+	.uleb128 0x4
+	.string	"fmt"
+	.byte	0x14
+	.value	0x43b
+	.byte	0x7
+	.long	0x2fb
+	.byte	0x38
+	.uleb128 0x1
+	.long	.LASF630
+	.byte	0x14
+	.value	0x43c
+	.byte	0x7
+	.long	0x2fb
+	.byte	0x40
+	.uleb128 0x1
+	.long	.LASF631
+	.byte	0x14
+	.value	0x43d
+	.byte	0x7
+	.long	0xd3a
+	.byte	0x48
+	.byte	0
+	.uleb128 0x6
+	.long	.LASF301
+	.byte	0x58
+	.byte	0x14
+	.value	0x443
+	.long	0x3f7d
+	.uleb128 0x4
+	.string	"hdr"
+	.byte	0x14
+	.value	0x444
+	.byte	0x11
+	.long	0x3050
+	.byte	0
+	.uleb128 0x1
+	.long	.LASF620
+	.byte	0x14
+	.value	0x445
+	.byte	0x7
+	.long	0xd3a
+	.byte	0x30
+	.uleb128 0x4
+	.string	"env"
+	.byte	0x14
+	.value	0x446
+	.byte	0x7
+	.long	0xd3a
+	.byte	0x38
+	.uleb128 0x4
+	.string	"fmt"
+	.byte	0x14
+	.value	0x447
+	.byte	0x7
+	.long	0x2fb
+	.byte	0x40
+	.uleb128 0x1
+	.long	.LASF630
+	.byte	0x14
+	.value	0x448
+	.byte	0x7
+	.long	0x2fb
+	.byte	0x48
+	.uleb128 0x1
+	.long	.LASF631
+	.byte	0x14
+	.value	0x449
+	.byte	0x7
+	.long	0xd3a
+	.byte	0x50
+	.byte	0
+	.uleb128 0x6
+	.long	.LASF290
+	.byte	0x88
+	.byte	0x14
+	.value	0x44f
+	.long	0x3fb4
+	.uleb128 0x4
+	.string	"hdr"
+	.byte	0x14
+	.value	0x450
+	.byte	0x11
+	.long	0x3050
+	.byte	0
+	.uleb128 0x4
+	.string	"op"
+	.byte	0x14
+	.value	0x451
+	.byte	0x7
+	.long	0xd3a
+	.byte	0x30
+	.uleb128 0x1
+	.long	.LASF210
+	.byte	0x14
+	.value	0x452
+	.byte	0x7
+	.long	0x335b
+	.byte	0x38
+	.byte	0
+	.uleb128 0x6
+	.long	.LASF307
+	.byte	0x40
+	.byte	0x14
+	.value	0x457
+	.long	0x3fec
+	.uleb128 0x4
+	.string	"hdr"
+	.byte	0x14
+	.value	0x458
+	.byte	0x11
+	.long	0x3050
+	.byte	0
+	.uleb128 0x1
+	.long	.LASF340
+	.byte	0x14
+	.value	0x459
+	.byte	0x7
+	.long	0xd3a
+	.byte	0x30
+	.uleb128 0x1
+	.long	.LASF632
+	.byte	0x14
+	.value	0x45a
+	.byte	0x7
+	.long	0xd3a
+	.byte	0x38
+	.byte	0
+	.uleb128 0x6
+	.long	.LASF302
+	.byte	0x40
+	.byte	0x14
+	.value	0x461
+	.long	0x4024
+	.uleb128 0x4
+	.string	"hdr"
+	.byte	0x14
+	.value	0x462
+	.byte	0x11
+	.long	0x3050
+	.byte	0
+	.uleb128 0x1
+	.long	.LASF606
+	.byte	0x14
+	.value	0x463
+	.byte	0x7
+	.long	0x2fb
+	.byte	0x30
+	.uleb128 0x1
+	.long	.LASF227
+	.byte	0x14
+	.value	0x464
+	.byte	0x7
+	.long	0xd3a
+	.byte	0x38
+	.byte	0
+	.uleb128 0x6
+	.long	.LASF303
+	.byte	0x30
+	.byte	0x14
+	.value	0x469
+	.long	0x4040
+	.uleb128 0x4
+	.string	"hdr"
+	.byte	0x14
+	.value	0x46a
+	.byte	0x11
+	.long	0x3050
+	.byte	0
+	.byte	0
+	.uleb128 0x6
+	.long	.LASF304
+	.byte	0x40
+	.byte	0x14
+	.value	0x46f
+	.long	0x4078
+	.uleb128 0x4
+	.string	"hdr"
+	.byte	0x14
+	.value	0x470
+	.byte	0x11
+	.long	0x3050
+	.byte	0
+	.uleb128 0x1
+	.long	.LASF606
+	.byte	0x14
+	.value	0x471
+	.byte	0x7
+	.long	0x2fb
+	.byte	0x30
+	.uleb128 0x1
+	.long	.LASF565
+	.byte	0x14
+	.value	0x472
+	.byte	0x7
+	.long	0xd3a
+	.byte	0x38
+	.byte	0
+	.uleb128 0x6
+	.long	.LASF306
+	.byte	0x80
+	.byte	0x14
+	.value	0x476
+	.long	0x40a2
+	.uleb128 0x4
+	.string	"hdr"
+	.byte	0x14
+	.value	0x477
+	.byte	0x11
+	.long	0x3050
+	.byte	0
+	.uleb128 0x1
+	.long	.LASF210
+	.byte	0x14
+	.value	0x478
+	.byte	0x7
+	.long	0x33a3
+	.byte	0x30
+	.byte	0
+	.uleb128 0x6
+	.long	.LASF308
+	.byte	0x38
+	.byte	0x14
+	.value	0x47b
+	.long	0x40cc
+	.uleb128 0x4
+	.string	"hdr"
+	.byte	0x14
+	.value	0x47c
+	.byte	0x11
+	.long	0x3050
+	.byte	0
+	.uleb128 0x1
+	.long	.LASF633
+	.byte	0x14
+	.value	0x47d
+	.byte	0x7
+	.long	0xd3a
+	.byte	0x30
+	.byte	0
+	.uleb128 0x6
+	.long	.LASF309
+	.byte	0x38
+	.byte	0x14
+	.value	0x482
+	.long	0x40f6
+	.uleb128 0x4
+	.string	"hdr"
+	.byte	0x14
+	.value	0x483
+	.byte	0x11
+	.long	0x3050
+	.byte	0
+	.uleb128 0x1
+	.long	.LASF633
+	.byte	0x14
+	.value	0x484
+	.byte	0x7
+	.long	0xd3a
+	.byte	0x30
+	.byte	0
+	.uleb128 0x6
+	.long	.LASF310
+	.byte	0x38
+	.byte	0x14
+	.value	0x489
+	.long	0x4120
+	.uleb128 0x4
+	.string	"hdr"
+	.byte	0x14
+	.value	0x48a
+	.byte	0x11
+	.long	0x3050
+	.byte	0
+	.uleb128 0x1
+	.long	.LASF559
+	.byte	0x14
+	.value	0x48b
+	.byte	0x7
+	.long	0x2fb
+	.byte	0x30
+	.byte	0
+	.uleb128 0x6
+	.long	.LASF311
+	.byte	0x40
+	.byte	0x14
+	.value	0x490
+	.long	0x4158
+	.uleb128 0x4
+	.string	"hdr"
+	.byte	0x14
+	.value	0x491
+	.byte	0x11
+	.long	0x3050
+	.byte	0
+	.uleb128 0x4
+	.string	"tag"
+	.byte	0x14
+	.value	0x492
+	.byte	0x7
+	.long	0xd3a
+	.byte	0x30
+	.uleb128 0x4
+	.string	"val"
+	.byte	0x14
+	.value	0x493
+	.byte	0x7
+	.long	0xd3a
+	.byte	0x38
+	.byte	0
+	.uleb128 0x6
+	.long	.LASF312
+	.byte	0x40
+	.byte	0x14
+	.value	0x498
+	.long	0x4190
+	.uleb128 0x4
+	.string	"hdr"
+	.byte	0x14
+	.value	0x499
+	.byte	0x11
+	.long	0x3050
+	.byte	0
+	.uleb128 0x4
+	.string	"ref"
+	.byte	0x14
+	.value	0x49a
+	.byte	0x7
+	.long	0xd3a
+	.byte	0x30
+	.uleb128 0x1
+	.long	.LASF561
+	.byte	0x14
+	.value	0x49b
+	.byte	0x7
+	.long	0xd3a
+	.byte	0x38
+	.byte	0
+	.uleb128 0x6
+	.long	.LASF313
+	.byte	0x48
+	.byte	0x14
+	.value	0x4a0
+	.long	0x41d6
+	.uleb128 0x4
+	.string	"hdr"
+	.byte	0x14
+	.value	0x4a1
+	.byte	0x11
+	.long	0x3050
+	.byte	0
+	.uleb128 0x4
+	.string	"val"
+	.byte	0x14
+	.value	0x4a2
+	.byte	0x7
+	.long	0xd3a
+	.byte	0x30
+	.uleb128 0x1
+	.long	.LASF561
+	.byte	0x14
+	.value	0x4a3
+	.byte	0x7
+	.long	0xd3a
+	.byte	0x38
+	.uleb128 0x1
+	.long	.LASF634
+	.byte	0x14
+	.value	0x4a4
+	.byte	0x7
+	.long	0xd3a
+	.byte	0x40
+	.byte	0
+	.uleb128 0x6
+	.long	.LASF314
+	.byte	0x38
+	.byte	0x14
+	.value	0x4a9
+	.long	0x4200
+	.uleb128 0x4
+	.string	"hdr"
+	.byte	0x14
+	.value	0x4aa
+	.byte	0x11
+	.long	0x3050
+	.byte	0
+	.uleb128 0x1
+	.long	.LASF565
+	.byte	0x14
+	.value	0x4ab
+	.byte	0x7
+	.long	0xd3a
+	.byte	0x30
+	.byte	0
+	.uleb128 0xc
+	.long	.LASF635
+	.byte	0x10
+	.byte	0x17
+	.byte	0x14
+	.byte	0x10
+	.long	0x4228
+	.uleb128 0x3
+	.long	.LASF362
+	.byte	0x17
+	.byte	0x14
+	.byte	0x28
+	.long	0x356
+	.byte	0
+	.uleb128 0x3
+	.long	.LASF90
+	.byte	0x17
+	.byte	0x14
+	.byte	0x46
+	.long	0x4228
+	.byte	0x8
+	.byte	0
+	.uleb128 0x7
+	.long	0x4200
+	.uleb128 0xa
+	.long	.LASF636
+	.byte	0x17
+	.byte	0x14
+	.byte	0x4f
+	.long	0x4228
+	.uleb128 0x24
+	.long	.LASF637
+	.value	0x140
+	.byte	0x17
+	.byte	0x14
+	.byte	0x62
+	.long	0x447c
+	.uleb128 0x3
+	.long	.LASF380
+	.byte	0x17
+	.byte	0x14
+	.byte	0x86
+	.long	0x4495
+	.byte	0
+	.uleb128 0x3
+	.long	.LASF381
+	.byte	0x17
+	.byte	0x14
+	.byte	0xaf
+	.long	0x44a9
+	.byte	0x8
+	.uleb128 0x3
+	.long	.LASF382
+	.byte	0x17
+	.byte	0x14
+	.byte	0xd1
+	.long	0x44be
+	.byte	0x10
+	.uleb128 0x3
+	.long	.LASF383
+	.byte	0x17
+	.byte	0x14
+	.byte	0xf2
+	.long	0x44d2
+	.byte	0x18
+	.uleb128 0xb
+	.long	.LASF384
+	.byte	0x17
+	.byte	0x14
+	.value	0x116
+	.long	0x44e7
+	.byte	0x20
+	.uleb128 0xb
+	.long	.LASF385
+	.byte	0x17
+	.byte	0x14
+	.value	0x136
+	.long	0x451e
+	.byte	0x28
+	.uleb128 0xb
+	.long	.LASF386
+	.byte	0x17
+	.byte	0x14
+	.value	0x17c
+	.long	0x4541
+	.byte	0x30
+	.uleb128 0xb
+	.long	.LASF387
+	.byte	0x17
+	.byte	0x14
+	.value	0x1c7
+	.long	0x4555
+	.byte	0x38
+	.uleb128 0xb
+	.long	.LASF388
+	.byte	0x17
+	.byte	0x14
+	.value	0x1e6
+	.long	0x4565
+	.byte	0x40
+	.uleb128 0xb
+	.long	.LASF389
+	.byte	0x17
+	.byte	0x14
+	.value	0x207
+	.long	0x457e
+	.byte	0x48
+	.uleb128 0xb
+	.long	.LASF390
+	.byte	0x17
+	.byte	0x14
+	.value	0x230
+	.long	0x45a3
+	.byte	0x50
+	.uleb128 0xb
+	.long	.LASF391
+	.byte	0x17
+	.byte	0x14
+	.value	0x26a
+	.long	0x45c1
+	.byte	0x58
+	.uleb128 0xb
+	.long	.LASF392
+	.byte	0x17
+	.byte	0x14
+	.value	0x2b4
+	.long	0x45f3
+	.byte	0x60
+	.uleb128 0x1c
+	.string	"Elt"
+	.byte	0x17
+	.byte	0x14
+	.value	0x2fc
+	.long	0x460c
+	.byte	0x68
+	.uleb128 0xb
+	.long	.LASF393
+	.byte	0x17
+	.byte	0x14
+	.value	0x324
+	.long	0x4625
+	.byte	0x70
+	.uleb128 0xb
+	.long	.LASF394
+	.byte	0x17
+	.byte	0x14
+	.value	0x34d
+	.long	0x4555
+	.byte	0x78
+	.uleb128 0xb
+	.long	.LASF395
+	.byte	0x17
+	.byte	0x14
+	.value	0x36e
+	.long	0x4639
+	.byte	0x80
+	.uleb128 0xb
+	.long	.LASF396
+	.byte	0x17
+	.byte	0x14
+	.value	0x38c
+	.long	0x4652
+	.byte	0x88
+	.uleb128 0xb
+	.long	.LASF397
+	.byte	0x17
+	.byte	0x14
+	.value	0x3b3
+	.long	0x4652
+	.byte	0x90
+	.uleb128 0xb
+	.long	.LASF398
+	.byte	0x17
+	.byte	0x14
+	.value	0x3db
+	.long	0x4652
+	.byte	0x98
+	.uleb128 0xb
+	.long	.LASF399
+	.byte	0x17
+	.byte	0x14
+	.value	0x408
+	.long	0x4555
+	.byte	0xa0
+	.uleb128 0xb
+	.long	.LASF400
+	.byte	0x17
+	.byte	0x14
+	.value	0x429
+	.long	0x457e
+	.byte	0xa8
+	.uleb128 0xb
+	.long	.LASF401
+	.byte	0x17
+	.byte	0x14
+	.value	0x458
+	.long	0x467f
+	.byte	0xb0
+	.uleb128 0xb
+	.long	.LASF402
+	.byte	0x17
+	.byte	0x14
+	.value	0x493
+	.long	0x469d
+	.byte	0xb8
+	.uleb128 0x1c
+	.string	"Map"
+	.byte	0x17
+	.byte	0x14
+	.value	0x4dc
+	.long	0x46b6
+	.byte	0xc0
+	.uleb128 0xb
+	.long	.LASF403
+	.byte	0x17
+	.byte	0x14
+	.value	0x511
+	.long	0x46b6
+	.byte	0xc8
+	.uleb128 0xb
+	.long	.LASF404
+	.byte	0x17
+	.byte	0x14
+	.value	0x547
+	.long	0x4555
+	.byte	0xd0
+	.uleb128 0xb
+	.long	.LASF405
+	.byte	0x17
+	.byte	0x14
+	.value	0x56b
+	.long	0x4555
+	.byte	0xd8
+	.uleb128 0xb
+	.long	.LASF406
+	.byte	0x17
+	.byte	0x14
+	.value	0x590
+	.long	0x457e
+	.byte	0xe0
+	.uleb128 0xb
+	.long	.LASF407
+	.byte	0x17
+	.byte	0x14
+	.value	0x5bf
+	.long	0x457e
+	.byte	0xe8
+	.uleb128 0xb
+	.long	.LASF408
+	.byte	0x17
+	.byte	0x14
+	.value	0x5e9
+	.long	0x46cf
+	.byte	0xf0
+	.uleb128 0xb
+	.long	.LASF409
+	.byte	0x17
+	.byte	0x14
+	.value	0x60c
+	.long	0x46ed
+	.byte	0xf8
+	.uleb128 0x11
+	.long	.LASF410
+	.byte	0x17
+	.byte	0x14
+	.value	0x64c
+	.long	0x4706
+	.value	0x100
+	.uleb128 0x11
+	.long	.LASF411
+	.byte	0x17
+	.byte	0x14
+	.value	0x67a
+	.long	0x471f
+	.value	0x108
+	.uleb128 0x11
+	.long	.LASF412
+	.byte	0x17
+	.byte	0x14
+	.value	0x69c
+	.long	0x473d
+	.value	0x110
+	.uleb128 0x11
+	.long	.LASF413
+	.byte	0x17
+	.byte	0x14
+	.value	0x6e4
+	.long	0x475b
+	.value	0x118
+	.uleb128 0x11
+	.long	.LASF414
+	.byte	0x17
+	.byte	0x14
+	.value	0x725
+	.long	0x4775
+	.value	0x120
+	.uleb128 0x11
+	.long	.LASF415
+	.byte	0x17
+	.byte	0x14
+	.value	0x74f
+	.long	0x47ac
+	.value	0x128
+	.uleb128 0x11
+	.long	.LASF416
+	.byte	0x17
+	.byte	0x14
+	.value	0x78e
+	.long	0x47d9
+	.value	0x130
+	.uleb128 0x11
+	.long	.LASF417
+	.byte	0x17
+	.byte	0x14
+	.value	0x7e6
+	.long	0x47f7
+	.value	0x138
+	.byte	0
+	.uleb128 0x22
+	.long	0x4239
+	.uleb128 0x9
+	.long	0x422d
+	.long	0x4495
+	.uleb128 0x2
+	.long	0x356
+	.uleb128 0x2
+	.long	0x422d
+	.byte	0
+	.uleb128 0x7
+	.long	0x4481
+	.uleb128 0x9
+	.long	0x422d
+	.long	0x44a9
+	.uleb128 0x2
+	.long	0x356
+	.byte	0
+	.uleb128 0x7
+	.long	0x449a
+	.uleb128 0x9
+	.long	0x422d
+	.long	0x44be
+	.uleb128 0x2
+	.long	0x2e
+	.uleb128 0x19
+	.byte	0
+	.uleb128 0x7
+	.long	0x44ae
+	.uleb128 0x9
+	.long	0x422d
+	.long	0x44d2
+	.uleb128 0x2
+	.long	0x4d8
+	.byte	0
+	.uleb128 0x7
+	.long	0x44c3
+	.uleb128 0x9
+	.long	0x422d
+	.long	0x44e7
+	.uleb128 0x2
+	.long	0x356
+	.uleb128 0x19
+	.byte	0
+	.uleb128 0x7
+	.long	0x44d7
+	.uleb128 0x9
+	.long	0x315
+	.long	0x4505
+	.uleb128 0x2
+	.long	0x422d
+	.uleb128 0x2
+	.long	0x422d
+	.uleb128 0x2
+	.long	0x4505
+	.byte	0
+	.uleb128 0x7
+	.long	0x450a
+	.uleb128 0x9
+	.long	0x315
+	.long	0x451e
+	.uleb128 0x2
+	.long	0x356
+	.uleb128 0x2
+	.long	0x356
+	.byte	0
+	.uleb128 0x7
+	.long	0x44ec
+	.uleb128 0x9
+	.long	0x356
+	.long	0x4541
+	.uleb128 0x2
+	.long	0x422d
+	.uleb128 0x2
+	.long	0x356
+	.uleb128 0x2
+	.long	0x4505
+	.uleb128 0x2
+	.long	0x4dd
+	.byte	0
+	.uleb128 0x7
+	.long	0x4523
+	.uleb128 0x9
+	.long	0x422d
+	.long	0x4555
+	.uleb128 0x2
+	.long	0x422d
+	.byte	0
+	.uleb128 0x7
+	.long	0x4546
+	.uleb128 0x16
+	.long	0x4565
+	.uleb128 0x2
+	.long	0x422d
+	.byte	0
+	.uleb128 0x7
+	.long	0x455a
+	.uleb128 0x9
+	.long	0x422d
+	.long	0x457e
+	.uleb128 0x2
+	.long	0x422d
+	.uleb128 0x2
+	.long	0x422d
+	.byte	0
+	.uleb128 0x7
+	.long	0x456a
+	.uleb128 0x16
+	.long	0x4593
+	.uleb128 0x2
+	.long	0x422d
+	.uleb128 0x2
+	.long	0x4593
+	.byte	0
+	.uleb128 0x7
+	.long	0x4598
+	.uleb128 0x16
+	.long	0x45a3
+	.uleb128 0x2
+	.long	0x356
+	.byte	0
+	.uleb128 0x7
+	.long	0x4583
+	.uleb128 0x9
+	.long	0x422d
+	.long	0x45c1
+	.uleb128 0x2
+	.long	0x422d
+	.uleb128 0x2
+	.long	0x422d
+	.uleb128 0x2
+	.long	0x4593
+	.byte	0
+	.uleb128 0x7
+	.long	0x45a8
+	.uleb128 0x9
+	.long	0x422d
+	.long	0x45df
+	.uleb128 0x2
+	.long	0x422d
+	.uleb128 0x2
+	.long	0x4593
+	.uleb128 0x2
+	.long	0x45df
+	.byte	0
+	.uleb128 0x7
+	.long	0x45e4
+	.uleb128 0x9
+	.long	0x315
+	.long	0x45f3
+	.uleb128 0x2
+	.long	0x356
+	.byte	0
+	.uleb128 0x7
+	.long	0x45c6
+	.uleb128 0x9
+	.long	0x356
+	.long	0x460c
+	.uleb128 0x2
+	.long	0x422d
+	.uleb128 0x2
+	.long	0x32f
+	.byte	0
+	.uleb128 0x7
+	.long	0x45f8
+	.uleb128 0x9
+	.long	0x422d
+	.long	0x4625
+	.uleb128 0x2
+	.long	0x422d
+	.uleb128 0x2
+	.long	0x32f
+	.byte	0
+	.uleb128 0x7
+	.long	0x4611
+	.uleb128 0x9
+	.long	0x32f
+	.long	0x4639
+	.uleb128 0x2
+	.long	0x422d
+	.byte	0
+	.uleb128 0x7
+	.long	0x462a
+	.uleb128 0x9
+	.long	0x315
+	.long	0x4652
+	.uleb128 0x2
+	.long	0x422d
+	.uleb128 0x2
+	.long	0x32f
+	.byte	0
+	.uleb128 0x7
+	.long	0x463e
+	.uleb128 0x9
+	.long	0x422d
+	.long	0x466b
+	.uleb128 0x2
+	.long	0x422d
+	.uleb128 0x2
+	.long	0x466b
+	.byte	0
+	.uleb128 0x7
+	.long	0x4670
+	.uleb128 0x9
+	.long	0x356
+	.long	0x467f
+	.uleb128 0x2
+	.long	0x356
+	.byte	0
+	.uleb128 0x7
+	.long	0x4657
+	.uleb128 0x9
+	.long	0x422d
+	.long	0x469d
+	.uleb128 0x2
+	.long	0x422d
+	.uleb128 0x2
+	.long	0x422d
+	.uleb128 0x2
+	.long	0x466b
+	.byte	0
+	.uleb128 0x7
+	.long	0x4684
+	.uleb128 0x9
+	.long	0x422d
+	.long	0x46b6
+	.uleb128 0x2
+	.long	0x466b
+	.uleb128 0x2
+	.long	0x422d
+	.byte	0
+	.uleb128 0x7
+	.long	0x46a2
+	.uleb128 0x9
+	.long	0x315
+	.long	0x46cf
+	.uleb128 0x2
+	.long	0x422d
+	.uleb128 0x2
+	.long	0x356
+	.byte	0
+	.uleb128 0x7
+	.long	0x46bb
+	.uleb128 0x9
+	.long	0x315
+	.long	0x46ed
+	.uleb128 0x2
+	.long	0x422d
+	.uleb128 0x2
+	.long	0x356
+	.uleb128 0x2
+	.long	0x4505
+	.byte	0
+	.uleb128 0x7
+	.long	0x46d4
+	.uleb128 0x9
+	.long	0x315
+	.long	0x4706
+	.uleb128 0x2
+	.long	0x422d
+	.uleb128 0x2
+	.long	0x422d
+	.byte	0
+	.uleb128 0x7
+	.long	0x46f2
+	.uleb128 0x9
+	.long	0x2e
+	.long	0x471f
+	.uleb128 0x2
+	.long	0x422d
+	.uleb128 0x2
+	.long	0x356
+	.byte	0
+	.uleb128 0x7
+	.long	0x470b
+	.uleb128 0x9
+	.long	0x2e
+	.long	0x473d
+	.uleb128 0x2
+	.long	0x422d
+	.uleb128 0x2
+	.long	0x356
+	.uleb128 0x2
+	.long	0x4505
+	.byte	0
+	.uleb128 0x7
+	.long	0x4724
+	.uleb128 0x9
+	.long	0x422d
+	.long	0x475b
+	.uleb128 0x2
+	.long	0x422d
+	.uleb128 0x2
+	.long	0x356
+	.uleb128 0x2
+	.long	0x4505
+	.byte	0
+	.uleb128 0x7
+	.long	0x4742
+	.uleb128 0x16
+	.long	0x4770
+	.uleb128 0x2
+	.long	0x4770
+	.uleb128 0x2
+	.long	0x422d
+	.byte	0
+	.uleb128 0x7
+	.long	0x356
+	.uleb128 0x7
+	.long	0x4760
+	.uleb128 0x9
+	.long	0x2e
+	.long	0x4793
+	.uleb128 0x2
+	.long	0x2c3
+	.uleb128 0x2
+	.long	0x422d
+	.uleb128 0x2
+	.long	0x4793
+	.byte	0
+	.uleb128 0x7
+	.long	0x4798
+	.uleb128 0x9
+	.long	0x2e
+	.long	0x47ac
+	.uleb128 0x2
+	.long	0x2c3
+	.uleb128 0x2
+	.long	0x356
+	.byte	0
+	.uleb128 0x7
+	.long	0x477a
+	.uleb128 0x9
+	.long	0x2e
+	.long	0x47d9
+	.uleb128 0x2
+	.long	0x2c3
+	.uleb128 0x2
+	.long	0x422d
+	.uleb128 0x2
+	.long	0x4793
+	.uleb128 0x2
+	.long	0x80
+	.uleb128 0x2
+	.long	0x80
+	.uleb128 0x2
+	.long	0x80
+	.byte	0
+	.uleb128 0x7
+	.long	0x47b1
+	.uleb128 0x9
+	.long	0x2e
+	.long	0x47f7
+	.uleb128 0x2
+	.long	0x3d2
+	.uleb128 0x2
+	.long	0x363
+	.uleb128 0x2
+	.long	0x422d
+	.byte	0
+	.uleb128 0x7
+	.long	0x47de
+	.uleb128 0x2a
+	.long	.LASF638
+	.byte	0x17
+	.byte	0x14
+	.value	0x83b
+	.long	0x4809
+	.uleb128 0x7
+	.long	0x447c
+	.uleb128 0x1d
+	.long	.LASF639
+	.byte	0x18
+	.byte	0x27
+	.byte	0xe
+	.long	0x2c3
+	.uleb128 0xc
+	.long	.LASF640
+	.byte	0x18
+	.byte	0x15
+	.byte	0x33
+	.byte	0x8
+	.long	0x484f
+	.uleb128 0x3
+	.long	.LASF315
+	.byte	0x15
+	.byte	0x34
+	.byte	0x8
+	.long	0x2d4
+	.byte	0
+	.uleb128 0x3
+	.long	.LASF322
+	.byte	0x15
+	.byte	0x35
+	.byte	0x9
+	.long	0x33c
+	.byte	0x8
+	.uleb128 0x3
+	.long	.LASF641
+	.byte	0x15
+	.byte	0x36
+	.byte	0x9
+	.long	0x33c
+	.byte	0x10
+	.byte	0
+	.uleb128 0x24
+	.long	.LASF642
+	.value	0x228
+	.byte	0x15
+	.byte	0x53
+	.byte	0x8
+	.long	0x48ad
+	.uleb128 0x3
+	.long	.LASF643
+	.byte	0x15
+	.byte	0x54
+	.byte	0x9
+	.long	0x2e1
+	.byte	0
+	.uleb128 0x3
+	.long	.LASF644
+	.byte	0x15
+	.byte	0x55
+	.byte	0x8
+	.long	0x2ee
+	.byte	0x8
+	.uleb128 0x3
+	.long	.LASF645
+	.byte	0x15
+	.byte	0x56
+	.byte	0x8
+	.long	0x2ee
+	.byte	0x10
+	.uleb128 0x3
+	.long	.LASF646
+	.byte	0x15
+	.byte	0x57
+	.byte	0x9
+	.long	0x2e1
+	.byte	0x18
+	.uleb128 0x3
+	.long	.LASF647
+	.byte	0x15
+	.byte	0x59
+	.byte	0x11
+	.long	0x48ad
+	.byte	0x20
+	.uleb128 0x36
+	.long	.LASF648
+	.byte	0x15
+	.byte	0x5a
+	.byte	0x9
+	.long	0x48bd
+	.value	0x200
+	.byte	0
+	.uleb128 0x13
+	.long	0x481a
+	.long	0x48bd
+	.uleb128 0x14
+	.long	0x4a
+	.byte	0x13
+	.byte	0
+	.uleb128 0x13
+	.long	0x2e1
+	.long	0x48cd
+	.uleb128 0x14
+	.long	0x4a
+	.byte	0x13
+	.byte	0
+	.uleb128 0x7
+	.long	0x2ee
+	.uleb128 0x7
+	.long	0x2e1
+	.uleb128 0xc
+	.long	.LASF649
+	.byte	0x18
+	.byte	0x19
+	.byte	0x7
+	.byte	0x10
+	.long	0x490c
+	.uleb128 0x3
+	.long	.LASF211
+	.byte	0x19
+	.byte	0x8
+	.byte	0x7
+	.long	0x143b
+	.byte	0
+	.uleb128 0x3
+	.long	.LASF650
+	.byte	0x19
+	.byte	0x9
+	.byte	0xc
+	.long	0x156a
+	.byte	0x8
+	.uleb128 0x3
+	.long	.LASF651
+	.byte	0x19
+	.byte	0xa
+	.byte	0xa
+	.long	0xa4b
+	.byte	0x10
+	.byte	0
+	.uleb128 0xa
+	.long	.LASF652
+	.byte	0x19
+	.byte	0xb
+	.byte	0x4
+	.long	0x4918
+	.uleb128 0x7
+	.long	0x48d7
+	.uleb128 0xc
+	.long	.LASF653
+	.byte	0x10
+	.byte	0x19
+	.byte	0xd
+	.byte	0x10
+	.long	0x4945
+	.uleb128 0x3
+	.long	.LASF362
+	.byte	0x19
+	.byte	0xd
+	.byte	0x2e
+	.long	0x490c
+	.byte	0
+	.uleb128 0x3
+	.long	.LASF90
+	.byte	0x19
+	.byte	0xd
+	.byte	0x4f
+	.long	0x4945
+	.byte	0x8
+	.byte	0
+	.uleb128 0x7
+	.long	0x491d
+	.uleb128 0xa
+	.long	.LASF654
+	.byte	0x19
+	.byte	0xd
+	.byte	0x58
+	.long	0x4945
+	.uleb128 0xc
+	.long	.LASF655
+	.byte	0x18
+	.byte	0x19
+	.byte	0xf
+	.byte	0x10
+	.long	0x498b
+	.uleb128 0x3
+	.long	.LASF656
+	.byte	0x19
+	.byte	0x10
+	.byte	0x7
+	.long	0x315
+	.byte	0
+	.uleb128 0x3
+	.long	.LASF224
+	.byte	0x19
+	.byte	0x11
+	.byte	0x10
+	.long	0x494a
+	.byte	0x8
+	.uleb128 0x3
+	.long	.LASF651
+	.byte	0x19
+	.byte	0x12
+	.byte	0xa
+	.long	0xa4b
+	.byte	0x10
+	.byte	0
+	.uleb128 0xa
+	.long	.LASF657
+	.byte	0x19
+	.byte	0x13
+	.byte	0x4
+	.long	0x4997
+	.uleb128 0x7
+	.long	0x4956
+	.uleb128 0xc
+	.long	.LASF658
+	.byte	0x10
+	.byte	0x1a
+	.byte	0xc
+	.byte	0x10
+	.long	0x49c4
+	.uleb128 0x3
+	.long	.LASF659
+	.byte	0x1a
+	.byte	0xd
+	.byte	0xd
+	.long	0x1d9a
+	.byte	0
+	.uleb128 0x3
+	.long	.LASF215
+	.byte	0x1a
+	.byte	0xe
+	.byte	0xb
+	.long	0x1c61
+	.byte	0x8
+	.byte	0
+	.uleb128 0xa
+	.long	.LASF658
+	.byte	0x1a
+	.byte	0xf
+	.byte	0x4
+	.long	0x49d0
+	.uleb128 0x7
+	.long	0x499c
+	.uleb128 0x7
+	.long	0x32f
+	.uleb128 0xa
+	.long	.LASF660
+	.byte	0x16
+	.byte	0x16
+	.byte	0x1b
+	.long	0x49e6
+	.uleb128 0x7
+	.long	0x49eb
+	.uleb128 0xc
+	.long	.LASF661
+	.byte	0xb0
+	.byte	0x16
+	.byte	0x1a
+	.byte	0x8
+	.long	0x4b4a
+	.uleb128 0x3
+	.long	.LASF662
+	.byte	0x16
+	.byte	0x1b
+	.byte	0x8
+	.long	0x2d4
+	.byte	0
+	.uleb128 0x3
+	.long	.LASF663
+	.byte	0x16
+	.byte	0x1c
+	.byte	0x8
+	.long	0x2d4
+	.byte	0x1
+	.uleb128 0x3
+	.long	.LASF664
+	.byte	0x16
+	.byte	0x1d
+	.byte	0x8
+	.long	0x2d4
+	.byte	0x2
+	.uleb128 0x3
+	.long	.LASF665
+	.byte	0x16
+	.byte	0x1e
+	.byte	0x8
+	.long	0x2d4
+	.byte	0x3
+	.uleb128 0x3
+	.long	.LASF666
+	.byte	0x16
+	.byte	0x1f
+	.byte	0x8
+	.long	0x2d4
+	.byte	0x4
+	.uleb128 0x12
+	.string	"tf"
+	.byte	0x16
+	.byte	0x20
+	.byte	0x8
+	.long	0xb3a
+	.byte	0x8
+	.uleb128 0x3
+	.long	.LASF667
+	.byte	0x16
+	.byte	0x21
+	.byte	0x8
+	.long	0xd24
+	.byte	0x10
+	.uleb128 0x3
+	.long	.LASF668
+	.byte	0x16
+	.byte	0x22
+	.byte	0x8
+	.long	0xd24
+	.byte	0x18
+	.uleb128 0x3
+	.long	.LASF669
+	.byte	0x16
+	.byte	0x23
+	.byte	0x8
+	.long	0xd24
+	.byte	0x20
+	.uleb128 0x3
+	.long	.LASF223
+	.byte	0x16
+	.byte	0x24
+	.byte	0xc
+	.long	0x1bef
+	.byte	0x28
+	.uleb128 0x3
+	.long	.LASF670
+	.byte	0x16
+	.byte	0x25
+	.byte	0xc
+	.long	0x156a
+	.byte	0x30
+	.uleb128 0x3
+	.long	.LASF671
+	.byte	0x16
+	.byte	0x26
+	.byte	0xc
+	.long	0x156a
+	.byte	0x38
+	.uleb128 0x3
+	.long	.LASF672
+	.byte	0x16
+	.byte	0x27
+	.byte	0xd
+	.long	0x1531
+	.byte	0x40
+	.uleb128 0x3
+	.long	.LASF673
+	.byte	0x16
+	.byte	0x28
+	.byte	0x10
+	.long	0x4b77
+	.byte	0x48
+	.uleb128 0x3
+	.long	.LASF674
+	.byte	0x16
+	.byte	0x29
+	.byte	0x10
+	.long	0x4b77
+	.byte	0x50
+	.uleb128 0x3
+	.long	.LASF675
+	.byte	0x16
+	.byte	0x2a
+	.byte	0x9
+	.long	0x32f
+	.byte	0x58
+	.uleb128 0x3
+	.long	.LASF676
+	.byte	0x16
+	.byte	0x2b
+	.byte	0x9
+	.long	0x32f
+	.byte	0x60
+	.uleb128 0x3
+	.long	.LASF677
+	.byte	0x16
+	.byte	0x2c
+	.byte	0x10
+	.long	0x4b77
+	.byte	0x68
+	.uleb128 0x3
+	.long	.LASF678
+	.byte	0x16
+	.byte	0x2d
+	.byte	0x10
+	.long	0x4b77
+	.byte	0x70
+	.uleb128 0x3
+	.long	.LASF679
+	.byte	0x16
+	.byte	0x2e
+	.byte	0x9
+	.long	0x32f
+	.byte	0x78
+	.uleb128 0x3
+	.long	.LASF680
+	.byte	0x16
+	.byte	0x2f
+	.byte	0x9
+	.long	0x32f
+	.byte	0x80
+	.uleb128 0x3
+	.long	.LASF681
+	.byte	0x16
+	.byte	0x30
+	.byte	0x7
+	.long	0x315
+	.byte	0x88
+	.uleb128 0x3
+	.long	.LASF682
+	.byte	0x16
+	.byte	0x31
+	.byte	0x10
+	.long	0x4b77
+	.byte	0x90
+	.uleb128 0x3
+	.long	.LASF683
+	.byte	0x16
+	.byte	0x32
+	.byte	0x9
+	.long	0x32f
+	.byte	0x98
+	.uleb128 0x3
+	.long	.LASF684
+	.byte	0x16
+	.byte	0x33
+	.byte	0x7
+	.long	0x315
+	.byte	0xa0
+	.uleb128 0x3
+	.long	.LASF685
+	.byte	0x16
+	.byte	0x34
+	.byte	0xc
+	.long	0x49da
+	.byte	0xa8
+	.byte	0
+	.uleb128 0xc
+	.long	.LASF686
+	.byte	0x10
+	.byte	0x16
+	.byte	0x18
+	.byte	0x10
+	.long	0x4b72
+	.uleb128 0x3
+	.long	.LASF362
+	.byte	0x16
+	.byte	0x18
+	.byte	0x2e
+	.long	0x49da
+	.byte	0
+	.uleb128 0x3
+	.long	.LASF90
+	.byte	0x16
+	.byte	0x18
+	.byte	0x4f
+	.long	0x4b72
+	.byte	0x8
+	.byte	0
+	.uleb128 0x7
+	.long	0x4b4a
+	.uleb128 0xa
+	.long	.LASF687
+	.byte	0x16
+	.byte	0x18
+	.byte	0x58
+	.long	0x4b72
+	.uleb128 0x37
+	.byte	0x10
+	.byte	0x16
+	.byte	0x4c
+	.byte	0x2
+	.long	0x4ba7
+	.uleb128 0x3
+	.long	.LASF650
+	.byte	0x16
+	.byte	0x4d
+	.byte	0x11
+	.long	0x4b77
+	.byte	0
+	.uleb128 0x3
+	.long	.LASF94
+	.byte	0x16
+	.byte	0x4e
+	.byte	0x9
+	.long	0x583
+	.byte	0x8
+	.byte	0
+	.uleb128 0x23
+	.string	"DNF"
+	.byte	0x1b
+	.byte	0x19
+	.byte	0x19
+	.long	0x4bb3
+	.uleb128 0x7
+	.long	0x4bb8
+	.uleb128 0xc
+	.long	.LASF688
+	.byte	0x58
+	.byte	0x1b
+	.byte	0x1d
+	.byte	0x8
+	.long	0x4be0
+	.uleb128 0x3
+	.long	.LASF209
+	.byte	0x1b
+	.byte	0x1e
+	.byte	0x6
+	.long	0x2e
+	.byte	0
+	.uleb128 0x3
+	.long	.LASF210
+	.byte	0x1b
+	.byte	0x1f
+	.byte	0xa
+	.long	0x4c25
+	.byte	0x8
+	.byte	0
+	.uleb128 0xa
+	.long	.LASF689
+	.byte	0x1b
+	.byte	0x1a
+	.byte	0x19
+	.long	0x4bec
+	.uleb128 0x7
+	.long	0x4bf1
+	.uleb128 0xc
+	.long	.LASF690
+	.byte	0x30
+	.byte	0x1b
+	.byte	0x22
+	.byte	0x8
+	.long	0x4c19
+	.uleb128 0x3
+	.long	.LASF209
+	.byte	0x1b
+	.byte	0x23
+	.byte	0x9
+	.long	0x32f
+	.byte	0
+	.uleb128 0x3
+	.long	.LASF210
+	.byte	0x1b
+	.byte	0x24
+	.byte	0xb
+	.long	0x4c35
+	.byte	0x8
+	.byte	0
+	.uleb128 0xa
+	.long	.LASF691
+	.byte	0x1b
+	.byte	0x1b
+	.byte	0xd
+	.long	0x2e
+	.uleb128 0x13
+	.long	0x4be0
+	.long	0x4c35
+	.uleb128 0x14
+	.long	0x4a
+	.byte	0x9
+	.byte	0
+	.uleb128 0x13
+	.long	0x4c19
+	.long	0x4c45
+	.uleb128 0x14
+	.long	0x4a
+	.byte	0x9
+	.byte	0
+	.uleb128 0x1d
+	.long	.LASF692
+	.byte	0x1
+	.byte	0x1d
+	.byte	0xc
+	.long	0x2e
+	.uleb128 0x1d
+	.long	.LASF693
+	.byte	0x1
+	.byte	0x1e
+	.byte	0xc
+	.long	0x2e
+	.uleb128 0xe
+	.long	.LASF694
+	.byte	0x1b
+	.byte	0x31
+	.byte	0xc
+	.long	0x4ba7
+	.long	0x4c78
+	.uleb128 0x2
+	.long	0x4ba7
+	.uleb128 0x2
+	.long	0x4ba7
+	.byte	0
+	.uleb128 0xe
+	.long	.LASF695
+	.byte	0x1b
+	.byte	0x32
+	.byte	0xc
+	.long	0x4ba7
+	.long	0x4c93
+	.uleb128 0x2
+	.long	0x4ba7
+	.uleb128 0x2
+	.long	0x4ba7
+	.byte	0
+	.uleb128 0xe
+	.long	.LASF696
+	.byte	0x1b
+	.byte	0x2e
+	.byte	0xc
+	.long	0x4ba7
+	.long	0x4ca9
+	.uleb128 0x2
+	.long	0x4c19
+	.byte	0
+	.uleb128 0xe
+	.long	.LASF697
+	.byte	0x1b
+	.byte	0x2a
+	.byte	0xd
+	.long	0x315
+	.long	0x4cbf
+	.uleb128 0x2
+	.long	0x4ba7
+	.byte	0
+	.uleb128 0x1f
+	.long	.LASF699
+	.byte	0x1b
+	.byte	0x28
+	.byte	0xc
+	.long	0x4ba7
+	.uleb128 0xe
+	.long	.LASF698
+	.byte	0x1b
+	.byte	0x2b
+	.byte	0xd
+	.long	0x315
+	.long	0x4ce1
+	.uleb128 0x2
+	.long	0x4ba7
+	.byte	0
+	.uleb128 0x1f
+	.long	.LASF700
+	.byte	0x1b
+	.byte	0x27
+	.byte	0xc
+	.long	0x4ba7
+	.uleb128 0xe
+	.long	.LASF701
+	.byte	0x1b
+	.byte	0x2d
+	.byte	0xc
+	.long	0x4ba7
+	.long	0x4d03
+	.uleb128 0x2
+	.long	0x4c19
+	.byte	0
+	.uleb128 0xe
+	.long	.LASF702
+	.byte	0x1b
+	.byte	0x39
+	.byte	0xd
+	.long	0x315
+	.long	0x4d1e
+	.uleb128 0x2
+	.long	0x4ba7
+	.uleb128 0x2
+	.long	0x4ba7
+	.byte	0
+	.uleb128 0xe
+	.long	.LASF703
+	.byte	0x1c
+	.byte	0x36
+	.byte	0xe
+	.long	0x655
+	.long	0x4d39
+	.uleb128 0x2
+	.long	0x655
+	.uleb128 0x2
+	.long	0x655
+	.byte	0
+	.uleb128 0xe
+	.long	.LASF704
+	.byte	0x1c
+	.byte	0x35
+	.byte	0xe
+	.long	0x655
+	.long	0x4d54
+	.uleb128 0x2
+	.long	0x655
+	.uleb128 0x2
+	.long	0x655
+	.byte	0
+	.uleb128 0xe
+	.long	.LASF558
+	.byte	0x1c
+	.byte	0x33
+	.byte	0xe
+	.long	0x655
+	.long	0x4d6a
+	.uleb128 0x2
+	.long	0x655
+	.byte	0
+	.uleb128 0xe
+	.long	.LASF705
+	.byte	0x1c
+	.byte	0x34
+	.byte	0xe
+	.long	0x655
+	.long	0x4d85
+	.uleb128 0x2
+	.long	0x655
+	.uleb128 0x2
+	.long	0x655
+	.byte	0
+	.uleb128 0xe
+	.long	.LASF706
+	.byte	0x1c
+	.byte	0x2e
+	.byte	0xe
+	.long	0x655
+	.long	0x4da0
+	.uleb128 0x2
+	.long	0x655
+	.uleb128 0x2
+	.long	0x655
+	.byte	0
+	.uleb128 0x20
+	.long	.LASF725
+	.byte	0x1a
+	.uleb128 0x1a
+	.long	.LASF710
+	.byte	0x1e
+	.byte	0xd
+	.byte	0x6
+	.long	0x4dbd
+	.uleb128 0x2
+	.long	0x356
+	.uleb128 0x2
+	.long	0x315
+	.byte	0
+	.uleb128 0xe
+	.long	.LASF707
+	.byte	0x1d
+	.byte	0x26
+	.byte	0xc
+	.long	0x2e
+	.long	0x4dd9
+	.uleb128 0x2
+	.long	0x2c3
+	.uleb128 0x2
+	.long	0x2cf
+	.uleb128 0x19
+	.byte	0
+	.uleb128 0xe
+	.long	.LASF708
+	.byte	0x11
+	.byte	0x2f
+	.byte	0xd
+	.long	0x315
+	.long	0x4df4
+	.uleb128 0x2
+	.long	0xa4b
+	.uleb128 0x2
+	.long	0xa4b
+	.byte	0
+	.uleb128 0xe
+	.long	.LASF709
+	.byte	0x11
+	.byte	0x1d
+	.byte	0x10
+	.long	0xa4b
+	.long	0x4e0a
+	.uleb128 0x2
+	.long	0xa29
+	.byte	0
+	.uleb128 0x1a
+	.long	.LASF711
+	.byte	0x1f
+	.byte	0xe
+	.byte	0xd
+	.long	0x4e21
+	.uleb128 0x2
+	.long	0x143b
+	.uleb128 0x2
+	.long	0xa29
+	.byte	0
+	.uleb128 0x38
+	.string	"has"
+	.byte	0x1c
+	.byte	0x2d
+	.byte	0xe
+	.long	0x655
+	.long	0x4e3c
+	.uleb128 0x2
+	.long	0x655
+	.uleb128 0x2
+	.long	0x655
+	.byte	0
+	.uleb128 0x2b
+	.long	.LASF712
+	.value	0x3cb
+	.long	0x655
+	.long	0x4e51
+	.uleb128 0x2
+	.long	0xa8d
+	.byte	0
+	.uleb128 0xe
+	.long	.LASF713
+	.byte	0x1c
+	.byte	0x48
+	.byte	0x6
+	.long	0xa8d
+	.long	0x4e6c
+	.uleb128 0x2
+	.long	0x143b
+	.uleb128 0x2
+	.long	0x356
+	.byte	0
+	.uleb128 0x1a
+	.long	.LASF714
+	.byte	0x1e
+	.byte	0x8
+	.byte	0x6
+	.long	0x4e88
+	.uleb128 0x2
+	.long	0x356
+	.uleb128 0x2
+	.long	0x2e
+	.uleb128 0x2
+	.long	0x2e
+	.byte	0
+	.uleb128 0x1f
+	.long	.LASF715
+	.byte	0x20
+	.byte	0x49
+	.byte	0xc
+	.long	0x2e
+	.uleb128 0x1a
+	.long	.LASF716
+	.byte	0x1e
+	.byte	0xc
+	.byte	0x6
+	.long	0x4eab
+	.uleb128 0x2
+	.long	0x356
+	.uleb128 0x2
+	.long	0x315
+	.byte	0
+	.uleb128 0xe
+	.long	.LASF717
+	.byte	0x21
+	.byte	0x16
+	.byte	0xe
+	.long	0xb3a
+	.long	0x4ec6
+	.uleb128 0x2
+	.long	0x143b
+	.uleb128 0x2
+	.long	0x655
+	.byte	0
+	.uleb128 0x1a
+	.long	.LASF718
+	.byte	0x22
+	.byte	0xe
+	.byte	0xd
+	.long	0x4edd
+	.uleb128 0x2
+	.long	0x143b
+	.uleb128 0x2
+	.long	0x655
+	.byte	0
+	.uleb128 0xe
+	.long	.LASF719
+	.byte	0x16
+	.byte	0x91
+	.byte	0xd
+	.long	0x143b
+	.long	0x4efd
+	.uleb128 0x2
+	.long	0x143b
+	.uleb128 0x2
+	.long	0x50e
+	.uleb128 0x2
+	.long	0x2ee
+	.byte	0
+	.uleb128 0x1f
+	.long	.LASF720
+	.byte	0x16
+	.byte	0x85
+	.byte	0xd
+	.long	0x143b
+	.uleb128 0xe
+	.long	.LASF721
+	.byte	0x23
+	.byte	0xe
+	.byte	0xe
+	.long	0x655
+	.long	0x4f24
+	.uleb128 0x2
+	.long	0x655
+	.uleb128 0x2
+	.long	0x200f
+	.byte	0
+	.uleb128 0x2b
+	.long	.LASF722
+	.value	0x3b9
+	.long	0x655
+	.long	0x4f43
+	.uleb128 0x2
+	.long	0x1fa6
+	.uleb128 0x2
+	.long	0x50e
+	.uleb128 0x2
+	.long	0x156a
+	.byte	0
+	.uleb128 0x39
+	.long	.LASF723
+	.byte	0x1c
+	.byte	0x45
+	.byte	0x7
+	.long	0x655
+	.long	0x4f55
+	.uleb128 0x19
+	.byte	0
+	.uleb128 0xe
+	.long	.LASF724
+	.byte	0x1c
+	.byte	0x42
+	.byte	0xb
+	.long	0x156a
+	.long	0x4f6b
+	.uleb128 0x2
+	.long	0x422d
+	.byte	0
+	.uleb128 0x20
+	.long	.LASF726
+	.byte	0x19
+	.uleb128 0x20
+	.long	.LASF727
+	.byte	0x18
+	.uleb128 0x20
+	.long	.LASF728
+	.byte	0x17
+	.uleb128 0x26
+	.long	.LASF734
+	.byte	0xa2
+	.quad	.LFB4
+	.quad	.LFE4-.LFB4
+	.uleb128 0x1
+	.byte	0x9c
+	.long	0x4fb2
+	.uleb128 0x17
+	.string	"a"
+	.byte	0xa4
+	.byte	0x6
+	.long	0x4ba7
+	.uleb128 0x2
+	.byte	0x91
+	.sleb128 -40
+	.uleb128 0x17
+	.string	"b"
+	.byte	0xa5
+	.byte	0x6
+	.long	0x4ba7
+	.uleb128 0x2
+	.byte	0x91
+	.sleb128 -48
+	.byte	0
+	.uleb128 0x3a
+	.long	.LASF754
+	.byte	0x1
+	.byte	0x96
+	.byte	0x1
+	.quad	.LFB3
+	.quad	.LFE3-.LFB3
+	.uleb128 0x1
+	.byte	0x9c
+	.long	0x5021
+	.uleb128 0x21
+	.long	.LASF729
+	.byte	0x17
+	.long	0x356
+	.uleb128 0x2
+	.byte	0x91
+	.sleb128 -40
+	.uleb128 0x21
+	.long	.LASF211
+	.byte	0x22
+	.long	0x143b
+	.uleb128 0x2
+	.byte	0x91
+	.sleb128 -48
+	.uleb128 0x21
+	.long	.LASF730
+	.byte	0x2d
+	.long	0xa29
+	.uleb128 0x2
+	.byte	0x91
+	.sleb128 -56
+	.uleb128 0x21
+	.long	.LASF731
+	.byte	0x39
+	.long	0xa29
+	.uleb128 0x2
+	.byte	0x91
+	.sleb128 -64
+	.uleb128 0xd
+	.long	.LASF732
+	.byte	0x98
+	.byte	0xa
+	.long	0xa4b
+	.uleb128 0x2
+	.byte	0x91
+	.sleb128 -24
+	.uleb128 0xd
+	.long	.LASF733
+	.byte	0x98
+	.byte	0x12
+	.long	0xa4b
+	.uleb128 0x2
+	.byte	0x91
+	.sleb128 -32
+	.byte	0
+	.uleb128 0x26
+	.long	.LASF735
+	.byte	0x63
+	.quad	.LFB2
+	.quad	.LFE2-.LFB2
+	.uleb128 0x1
+	.byte	0x9c
+	.long	0x510a
+	.uleb128 0xd
+	.long	.LASF736
+	.byte	0x65
+	.byte	0x9
+	.long	0x356
+	.uleb128 0x2
+	.byte	0x91
+	.sleb128 -40
+	.uleb128 0xd
+	.long	.LASF737
+	.byte	0x67
+	.byte	0x9
+	.long	0x356
+	.uleb128 0x2
+	.byte	0x91
+	.sleb128 -48
+	.uleb128 0xd
+	.long	.LASF738
+	.byte	0x68
+	.byte	0x9
+	.long	0x356
+	.uleb128 0x2
+	.byte	0x91
+	.sleb128 -56
+	.uleb128 0xd
+	.long	.LASF739
+	.byte	0x69
+	.byte	0x9
+	.long	0x356
+	.uleb128 0x2
+	.byte	0x91
+	.sleb128 -64
+	.uleb128 0xd
+	.long	.LASF740
+	.byte	0x6b
+	.byte	0xd
+	.long	0x422d
+	.uleb128 0x3
+	.byte	0x91
+	.sleb128 -72
+	.uleb128 0xd
+	.long	.LASF594
+	.byte	0x6d
+	.byte	0xc
+	.long	0x156a
+	.uleb128 0x3
+	.byte	0x91
+	.sleb128 -80
+	.uleb128 0xd
+	.long	.LASF741
+	.byte	0x6e
+	.byte	0x8
+	.long	0x655
+	.uleb128 0x3
+	.byte	0x91
+	.sleb128 -88
+	.uleb128 0xd
+	.long	.LASF321
+	.byte	0x70
+	.byte	0x7
+	.long	0x143b
+	.uleb128 0x3
+	.byte	0x91
+	.sleb128 -96
+	.uleb128 0xd
+	.long	.LASF211
+	.byte	0x71
+	.byte	0x7
+	.long	0x143b
+	.uleb128 0x3
+	.byte	0x91
+	.sleb128 -104
+	.uleb128 0xd
+	.long	.LASF742
+	.byte	0x73
+	.byte	0x8
+	.long	0x655
+	.uleb128 0x3
+	.byte	0x91
+	.sleb128 -112
+	.uleb128 0x17
+	.string	"d0"
+	.byte	0x73
+	.byte	0xf
+	.long	0x655
+	.uleb128 0x3
+	.byte	0x91
+	.sleb128 -120
+	.uleb128 0x17
+	.string	"D0"
+	.byte	0x73
+	.byte	0x13
+	.long	0x655
+	.uleb128 0x3
+	.byte	0x91
+	.sleb128 -128
+	.uleb128 0xd
+	.long	.LASF730
+	.byte	0x73
+	.byte	0x17
+	.long	0x655
+	.uleb128 0x3
+	.byte	0x91
+	.sleb128 -136
+	.uleb128 0xd
+	.long	.LASF731
+	.byte	0x73
+	.byte	0x1e
+	.long	0x655
+	.uleb128 0x3
+	.byte	0x91
+	.sleb128 -144
+	.byte	0
+	.uleb128 0x26
+	.long	.LASF743
+	.byte	0x21
+	.quad	.LFB1
+	.quad	.LFE1-.LFB1
+	.uleb128 0x1
+	.byte	0x9c
+	.long	0x522d
+	.uleb128 0xd
+	.long	.LASF736
+	.byte	0x23
+	.byte	0x9
+	.long	0x356
+	.uleb128 0x2
+	.byte	0x91
+	.sleb128 -40
+	.uleb128 0xd
+	.long	.LASF744
+	.byte	0x24
+	.byte	0x9
+	.long	0x356
+	.uleb128 0x2
+	.byte	0x91
+	.sleb128 -48
+	.uleb128 0xd
+	.long	.LASF745
+	.byte	0x25
+	.byte	0x9
+	.long	0x356
+	.uleb128 0x2
+	.byte	0x91
+	.sleb128 -56
+	.uleb128 0xd
+	.long	.LASF737
+	.byte	0x27
+	.byte	0x9
+	.long	0x356
+	.uleb128 0x2
+	.byte	0x91
+	.sleb128 -64
+	.uleb128 0xd
+	.long	.LASF746
+	.byte	0x28
+	.byte	0x9
+	.long	0x356
+	.uleb128 0x3
+	.byte	0x91
+	.sleb128 -72
+	.uleb128 0xd
+	.long	.LASF740
+	.byte	0x2a
+	.byte	0xd
+	.long	0x422d
+	.uleb128 0x3
+	.byte	0x91
+	.sleb128 -80
+	.uleb128 0xd
+	.long	.LASF594
+	.byte	0x2c
+	.byte	0xc
+	.long	0x156a
+	.uleb128 0x3
+	.byte	0x91
+	.sleb128 -88
+	.uleb128 0xd
+	.long	.LASF741
+	.byte	0x2d
+	.byte	0x8
+	.long	0x655
+	.uleb128 0x3
+	.byte	0x91
+	.sleb128 -96
+	.uleb128 0xd
+	.long	.LASF321
+	.byte	0x2f
+	.byte	0x7
+	.long	0x143b
+	.uleb128 0x3
+	.byte	0x91
+	.sleb128 -104
+	.uleb128 0xd
+	.long	.LASF211
+	.byte	0x30
+	.byte	0x7
+	.long	0x143b
+	.uleb128 0x3
+	.byte	0x91
+	.sleb128 -112
+	.uleb128 0x17
+	.string	"C0"
+	.byte	0x32
+	.byte	0x7
+	.long	0xa8d
+	.uleb128 0x3
+	.byte	0x91
+	.sleb128 -120
+	.uleb128 0x17
+	.string	"C1"
+	.byte	0x32
+	.byte	0xb
+	.long	0xa8d
+	.uleb128 0x3
+	.byte	0x91
+	.sleb128 -128
+	.uleb128 0x17
+	.string	"D0"
+	.byte	0x32
+	.byte	0xf
+	.long	0xa8d
+	.uleb128 0x3
+	.byte	0x91
+	.sleb128 -136
+	.uleb128 0x17
+	.string	"D1"
+	.byte	0x32
+	.byte	0x13
+	.long	0xa8d
+	.uleb128 0x3
+	.byte	0x91
+	.sleb128 -144
+	.uleb128 0xd
+	.long	.LASF730
+	.byte	0x33
+	.byte	0x8
+	.long	0x655
+	.uleb128 0x3
+	.byte	0x91
+	.sleb128 -152
+	.uleb128 0xd
+	.long	.LASF747
+	.byte	0x33
+	.byte	0xf
+	.long	0x655
+	.uleb128 0x3
+	.byte	0x91
+	.sleb128 -160
+	.uleb128 0xd
+	.long	.LASF748
+	.byte	0x35
+	.byte	0xa
+	.long	0xa4b
+	.uleb128 0x3
+	.byte	0x91
+	.sleb128 -168
+	.uleb128 0xd
+	.long	.LASF749
+	.byte	0x35
+	.byte	0x11
+	.long	0xa4b
+	.uleb128 0x3
+	.byte	0x91
+	.sleb128 -176
+	.byte	0
+	.uleb128 0x3b
+	.long	.LASF755
+	.byte	0x1
+	.byte	0x14
+	.byte	0x6
+	.quad	.LFB0
+	.quad	.LFE0-.LFB0
+	.uleb128 0x1
+	.byte	0x9c
+	.byte	0
+	.section	.debug_abbrev,"",@progbits
+.Ldebug_abbrev0:
+	.uleb128 0x1
+	.uleb128 0xd
+	.byte	0
+	.uleb128 0x3
+	.uleb128 0xe
+	.uleb128 0x3a
+	.uleb128 0xb
+	.uleb128 0x3b
+	.uleb128 0x5
+	.uleb128 0x39
+	.uleb128 0xb
+	.uleb128 0x49
+	.uleb128 0x13
+	.uleb128 0x38
+	.uleb128 0xb
+	.byte	0
+	.byte	0
+	.uleb128 0x2
+	.uleb128 0x5
+	.byte	0
+	.uleb128 0x49
+	.uleb128 0x13
+	.byte	0
+	.byte	0
+	.uleb128 0x3
+	.uleb128 0xd
+	.byte	0
+	.uleb128 0x3
+	.uleb128 0xe
+	.uleb128 0x3a
+	.uleb128 0xb
+	.uleb128 0x3b
+	.uleb128 0xb
+	.uleb128 0x39
+	.uleb128 0xb
+	.uleb128 0x49
+	.uleb128 0x13
+	.uleb128 0x38
+	.uleb128 0xb
+	.byte	0
+	.byte	0
+	.uleb128 0x4
+	.uleb128 0xd
+	.byte	0
+	.uleb128 0x3
+	.uleb128 0x8
+	.uleb128 0x3a
+	.uleb128 0xb
+	.uleb128 0x3b
+	.uleb128 0x5
+	.uleb128 0x39
+	.uleb128 0xb
+	.uleb128 0x49
+	.uleb128 0x13
+	.uleb128 0x38
+	.uleb128 0xb
+	.byte	0
+	.byte	0
+	.uleb128 0x5
+	.uleb128 0xd
+	.byte	0
+	.uleb128 0x3
+	.uleb128 0xe
+	.uleb128 0x3a
+	.uleb128 0xb
+	.uleb128 0x3b
+	.uleb128 0x5
+	.uleb128 0x39
+	.uleb128 0xb
+	.uleb128 0x49
+	.uleb128 0x13
+	.byte	0
+	.byte	0
+	.uleb128 0x6
+	.uleb128 0x13
+	.byte	0x1
+	.uleb128 0x3
+	.uleb128 0xe
+	.uleb128 0xb
+	.uleb128 0xb
+	.uleb128 0x3a
+	.uleb128 0xb
+	.uleb128 0x3b
+	.uleb128 0x5
+	.uleb128 0x39
+	.uleb128 0x21
+	.sleb128 8
+	.uleb128 0x1
+	.uleb128 0x13
+	.byte	0
+	.byte	0
+	.uleb128 0x7
+	.uleb128 0xf
+	.byte	0
+	.uleb128 0xb
+	.uleb128 0x21
+	.sleb128 8
+	.uleb128 0x49
+	.uleb128 0x13
+	.byte	0
+	.byte	0
+	.uleb128 0x8
+	.uleb128 0x28
+	.byte	0
+	.uleb128 0x3
+	.uleb128 0xe
+	.uleb128 0x1c
+	.uleb128 0xb
+	.byte	0
+	.byte	0
+	.uleb128 0x9
+	.uleb128 0x15
+	.byte	0x1
+	.uleb128 0x27
+	.uleb128 0x19
+	.uleb128 0x49
+	.uleb128 0x13
+	.uleb128 0x1
+	.uleb128 0x13
+	.byte	0
+	.byte	0
+	.uleb128 0xa
+	.uleb128 0x16
+	.byte	0
+	.uleb128 0x3
+	.uleb128 0xe
+	.uleb128 0x3a
+	.uleb128 0xb
+	.uleb128 0x3b
+	.uleb128 0xb
+	.uleb128 0x39
+	.uleb128 0xb
+	.uleb128 0x49
+	.uleb128 0x13
+	.byte	0
+	.byte	0
+	.uleb128 0xb
+	.uleb128 0xd
+	.byte	0
+	.uleb128 0x3
+	.uleb128 0xe
+	.uleb128 0x3a
+	.uleb128 0xb
+	.uleb128 0x3b
+	.uleb128 0xb
+	.uleb128 0x39
+	.uleb128 0x5
+	.uleb128 0x49
+	.uleb128 0x13
+	.uleb128 0x38
+	.uleb128 0xb
+	.byte	0
+	.byte	0
+	.uleb128 0xc
+	.uleb128 0x13
+	.byte	0x1
+	.uleb128 0x3
+	.uleb128 0xe
+	.uleb128 0xb
+	.uleb128 0xb
+	.uleb128 0x3a
+	.uleb128 0xb
+	.uleb128 0x3b
+	.uleb128 0xb
+	.uleb128 0x39
+	.uleb128 0xb
+	.uleb128 0x1
+	.uleb128 0x13
+	.byte	0
+	.byte	0
+	.uleb128 0xd
+	.uleb128 0x34
+	.byte	0
+	.uleb128 0x3
+	.uleb128 0xe
+	.uleb128 0x3a
+	.uleb128 0x21
+	.sleb128 1
+	.uleb128 0x3b
+	.uleb128 0xb
+	.uleb128 0x39
+	.uleb128 0xb
+	.uleb128 0x49
+	.uleb128 0x13
+	.uleb128 0x2
+	.uleb128 0x18
+	.byte	0
+	.byte	0
+	.uleb128 0xe
+	.uleb128 0x2e
+	.byte	0x1
+	.uleb128 0x3f
+	.uleb128 0x19
+	.uleb128 0x3
+	.uleb128 0xe
+	.uleb128 0x3a
+	.uleb128 0xb
+	.uleb128 0x3b
+	.uleb128 0xb
+	.uleb128 0x39
+	.uleb128 0xb
+	.uleb128 0x27
+	.uleb128 0x19
+	.uleb128 0x49
+	.uleb128 0x13
+	.uleb128 0x3c
+	.uleb128 0x19
+	.uleb128 0x1
+	.uleb128 0x13
+	.byte	0
+	.byte	0
+	.uleb128 0xf
+	.uleb128 0x16
+	.byte	0
+	.uleb128 0x3
+	.uleb128 0xe
+	.uleb128 0x3a
+	.uleb128 0xb
+	.uleb128 0x3b
+	.uleb128 0x5
+	.uleb128 0x39
+	.uleb128 0xb
+	.uleb128 0x49
+	.uleb128 0x13
+	.byte	0
+	.byte	0
+	.uleb128 0x10
+	.uleb128 0x13
+	.byte	0
+	.uleb128 0x3
+	.uleb128 0xe
+	.uleb128 0x3c
+	.uleb128 0x19
+	.byte	0
+	.byte	0
+	.uleb128 0x11
+	.uleb128 0xd
+	.byte	0
+	.uleb128 0x3
+	.uleb128 0xe
+	.uleb128 0x3a
+	.uleb128 0xb
+	.uleb128 0x3b
+	.uleb128 0xb
+	.uleb128 0x39
+	.uleb128 0x5
+	.uleb128 0x49
+	.uleb128 0x13
+	.uleb128 0x38
+	.uleb128 0x5
+	.byte	0
+	.byte	0
+	.uleb128 0x12
+	.uleb128 0xd
+	.byte	0
+	.uleb128 0x3
+	.uleb128 0x8
+	.uleb128 0x3a
+	.uleb128 0xb
+	.uleb128 0x3b
+	.uleb128 0xb
+	.uleb128 0x39
+	.uleb128 0xb
+	.uleb128 0x49
+	.uleb128 0x13
+	.uleb128 0x38
+	.uleb128 0xb
+	.byte	0
+	.byte	0
+	.uleb128 0x13
+	.uleb128 0x1
+	.byte	0x1
+	.uleb128 0x49
+	.uleb128 0x13
+	.uleb128 0x1
+	.uleb128 0x13
+	.byte	0
+	.byte	0
+	.uleb128 0x14
+	.uleb128 0x21
+	.byte	0
+	.uleb128 0x49
+	.uleb128 0x13
+	.uleb128 0x2f
+	.uleb128 0xb
+	.byte	0
+	.byte	0
+	.uleb128 0x15
+	.uleb128 0x24
+	.byte	0
+	.uleb128 0xb
+	.uleb128 0xb
+	.uleb128 0x3e
+	.uleb128 0xb
+	.uleb128 0x3
+	.uleb128 0xe
+	.byte	0
+	.byte	0
+	.uleb128 0x16
+	.uleb128 0x15
+	.byte	0x1
+	.uleb128 0x27
+	.uleb128 0x19
+	.uleb128 0x1
+	.uleb128 0x13
+	.byte	0
+	.byte	0
+	.uleb128 0x17
+	.uleb128 0x34
+	.byte	0
+	.uleb128 0x3
+	.uleb128 0x8
+	.uleb128 0x3a
+	.uleb128 0x21
+	.sleb128 1
+	.uleb128 0x3b
+	.uleb128 0xb
+	.uleb128 0x39
+	.uleb128 0xb
+	.uleb128 0x49
+	.uleb128 0x13
+	.uleb128 0x2
+	.uleb128 0x18
+	.byte	0
+	.byte	0
+	.uleb128 0x18
+	.uleb128 0xd
+	.byte	0
+	.uleb128 0x3
+	.uleb128 0x8
+	.uleb128 0x3a
+	.uleb128 0xb
+	.uleb128 0x3b
+	.uleb128 0x5
+	.uleb128 0x39
+	.uleb128 0xb
+	.uleb128 0x49
+	.uleb128 0x13
+	.byte	0
+	.byte	0
+	.uleb128 0x19
+	.uleb128 0x18
+	.byte	0
+	.byte	0
+	.byte	0
+	.uleb128 0x1a
+	.uleb128 0x2e
+	.byte	0x1
+	.uleb128 0x3f
+	.uleb128 0x19
+	.uleb128 0x3
+	.uleb128 0xe
+	.uleb128 0x3a
+	.uleb128 0xb
+	.uleb128 0x3b
+	.uleb128 0xb
+	.uleb128 0x39
+	.uleb128 0xb
+	.uleb128 0x27
+	.uleb128 0x19
+	.uleb128 0x3c
+	.uleb128 0x19
+	.uleb128 0x1
+	.uleb128 0x13
+	.byte	0
+	.byte	0
+	.uleb128 0x1b
+	.uleb128 0xd
+	.byte	0
+	.uleb128 0x3
+	.uleb128 0xe
+	.uleb128 0x3a
+	.uleb128 0x21
+	.sleb128 3
+	.uleb128 0x3b
+	.uleb128 0x21
+	.sleb128 0
+	.uleb128 0x49
+	.uleb128 0x13
+	.uleb128 0x38
+	.uleb128 0xb
+	.byte	0
+	.byte	0
+	.uleb128 0x1c
+	.uleb128 0xd
+	.byte	0
+	.uleb128 0x3
+	.uleb128 0x8
+	.uleb128 0x3a
+	.uleb128 0xb
+	.uleb128 0x3b
+	.uleb128 0xb
+	.uleb128 0x39
+	.uleb128 0x5
+	.uleb128 0x49
+	.uleb128 0x13
+	.uleb128 0x38
+	.uleb128 0xb
+	.byte	0
+	.byte	0
+	.uleb128 0x1d
+	.uleb128 0x34
+	.byte	0
+	.uleb128 0x3
+	.uleb128 0xe
+	.uleb128 0x3a
+	.uleb128 0xb
+	.uleb128 0x3b
+	.uleb128 0xb
+	.uleb128 0x39
+	.uleb128 0xb
+	.uleb128 0x49
+	.uleb128 0x13
+	.uleb128 0x3f
+	.uleb128 0x19
+	.uleb128 0x3c
+	.uleb128 0x19
+	.byte	0
+	.byte	0
+	.uleb128 0x1e
+	.uleb128 0x17
+	.byte	0x1
+	.uleb128 0xb
+	.uleb128 0xb
+	.uleb128 0x3a
+	.uleb128 0xb
+	.uleb128 0x3b
+	.uleb128 0x5
+	.uleb128 0x39
+	.uleb128 0x21
+	.sleb128 2
+	.uleb128 0x1
+	.uleb128 0x13
+	.byte	0
+	.byte	0
+	.uleb128 0x1f
+	.uleb128 0x2e
+	.byte	0
+	.uleb128 0x3f
+	.uleb128 0x19
+	.uleb128 0x3
+	.uleb128 0xe
+	.uleb128 0x3a
+	.uleb128 0xb
+	.uleb128 0x3b
+	.uleb128 0xb
+	.uleb128 0x39
+	.uleb128 0xb
+	.uleb128 0x27
+	.uleb128 0x19
+	.uleb128 0x49
+	.uleb128 0x13
+	.uleb128 0x3c
+	.uleb128 0x19
+	.byte	0
+	.byte	0
+	.uleb128 0x20
+	.uleb128 0x2e
+	.byte	0
+	.uleb128 0x3f
+	.uleb128 0x19
+	.uleb128 0x3
+	.uleb128 0xe
+	.uleb128 0x3a
+	.uleb128 0x21
+	.sleb128 30
+	.uleb128 0x3b
+	.uleb128 0xb
+	.uleb128 0x39
+	.uleb128 0x21
+	.sleb128 6
+	.uleb128 0x27
+	.uleb128 0x19
+	.uleb128 0x3c
+	.uleb128 0x19
+	.byte	0
+	.byte	0
+	.uleb128 0x21
+	.uleb128 0x5
+	.byte	0
+	.uleb128 0x3
+	.uleb128 0xe
+	.uleb128 0x3a
+	.uleb128 0x21
+	.sleb128 1
+	.uleb128 0x3b
+	.uleb128 0x21
+	.sleb128 150
+	.uleb128 0x39
+	.uleb128 0xb
+	.uleb128 0x49
+	.uleb128 0x13
+	.uleb128 0x2
+	.uleb128 0x18
+	.byte	0
+	.byte	0
+	.uleb128 0x22
+	.uleb128 0x26
+	.byte	0
+	.uleb128 0x49
+	.uleb128 0x13
+	.byte	0
+	.byte	0
+	.uleb128 0x23
+	.uleb128 0x16
+	.byte	0
+	.uleb128 0x3
+	.uleb128 0x8
+	.uleb128 0x3a
+	.uleb128 0xb
+	.uleb128 0x3b
+	.uleb128 0xb
+	.uleb128 0x39
+	.uleb128 0xb
+	.uleb128 0x49
+	.uleb128 0x13
+	.byte	0
+	.byte	0
+	.uleb128 0x24
+	.uleb128 0x13
+	.byte	0x1
+	.uleb128 0x3
+	.uleb128 0xe
+	.uleb128 0xb
+	.uleb128 0x5
+	.uleb128 0x3a
+	.uleb128 0xb
+	.uleb128 0x3b
+	.uleb128 0xb
+	.uleb128 0x39
+	.uleb128 0xb
+	.uleb128 0x1
+	.uleb128 0x13
+	.byte	0
+	.byte	0
+	.uleb128 0x25
+	.uleb128 0x4
+	.byte	0x1
+	.uleb128 0x3
+	.uleb128 0xe
+	.uleb128 0x3e
+	.uleb128 0x21
+	.sleb128 7
+	.uleb128 0xb
+	.uleb128 0x21
+	.sleb128 4
+	.uleb128 0x49
+	.uleb128 0x13
+	.uleb128 0x3a
+	.uleb128 0x21
+	.sleb128 16
+	.uleb128 0x3b
+	.uleb128 0xb
+	.uleb128 0x39
+	.uleb128 0x21
+	.sleb128 6
+	.uleb128 0x1
+	.uleb128 0x13
+	.byte	0
+	.byte	0
+	.uleb128 0x26
+	.uleb128 0x2e
+	.byte	0x1
+	.uleb128 0x3
+	.uleb128 0xe
+	.uleb128 0x3a
+	.uleb128 0x21
+	.sleb128 1
+	.uleb128 0x3b
+	.uleb128 0xb
+	.uleb128 0x39
+	.uleb128 0x21
+	.sleb128 1
+	.uleb128 0x11
+	.uleb128 0x1
+	.uleb128 0x12
+	.uleb128 0x7
+	.uleb128 0x40
+	.uleb128 0x18
+	.uleb128 0x7c
+	.uleb128 0x19
+	.uleb128 0x1
+	.uleb128 0x13
+	.byte	0
+	.byte	0
+	.uleb128 0x27
+	.uleb128 0xd
+	.byte	0
+	.uleb128 0x3
+	.uleb128 0x8
+	.uleb128 0x3a
+	.uleb128 0x21
+	.sleb128 9
+	.uleb128 0x3b
+	.uleb128 0xb
+	.uleb128 0x39
+	.uleb128 0xb
+	.uleb128 0x49
+	.uleb128 0x13
+	.byte	0
+	.byte	0
+	.uleb128 0x28
+	.uleb128 0xd
+	.byte	0
+	.uleb128 0x3
+	.uleb128 0xe
+	.uleb128 0x3a
+	.uleb128 0x21
+	.sleb128 12
+	.uleb128 0x3b
+	.uleb128 0xb
+	.uleb128 0x39
+	.uleb128 0xb
+	.uleb128 0x49
+	.uleb128 0x13
+	.byte	0
+	.byte	0
+	.uleb128 0x29
+	.uleb128 0x17
+	.byte	0x1
+	.uleb128 0x3
+	.uleb128 0xe
+	.uleb128 0xb
+	.uleb128 0xb
+	.uleb128 0x3a
+	.uleb128 0xb
+	.uleb128 0x3b
+	.uleb128 0x5
+	.uleb128 0x39
+	.uleb128 0x21
+	.sleb128 7
+	.uleb128 0x1
+	.uleb128 0x13
+	.byte	0
+	.byte	0
+	.uleb128 0x2a
+	.uleb128 0x34
+	.byte	0
+	.uleb128 0x3
+	.uleb128 0xe
+	.uleb128 0x3a
+	.uleb128 0xb
+	.uleb128 0x3b
+	.uleb128 0xb
+	.uleb128 0x39
+	.uleb128 0x5
+	.uleb128 0x49
+	.uleb128 0x13
+	.uleb128 0x3f
+	.uleb128 0x19
+	.uleb128 0x3c
+	.uleb128 0x19
+	.byte	0
+	.byte	0
+	.uleb128 0x2b
+	.uleb128 0x2e
+	.byte	0x1
+	.uleb128 0x3f
+	.uleb128 0x19
+	.uleb128 0x3
+	.uleb128 0xe
+	.uleb128 0x3a
+	.uleb128 0x21
+	.sleb128 16
+	.uleb128 0x3b
+	.uleb128 0x5
+	.uleb128 0x39
+	.uleb128 0x21
+	.sleb128 14
+	.uleb128 0x27
+	.uleb128 0x19
+	.uleb128 0x49
+	.uleb128 0x13
+	.uleb128 0x3c
+	.uleb128 0x19
+	.uleb128 0x1
+	.uleb128 0x13
+	.byte	0
+	.byte	0
+	.uleb128 0x2c
+	.uleb128 0x11
+	.byte	0x1
+	.uleb128 0x25
+	.uleb128 0xe
+	.uleb128 0x13
+	.uleb128 0xb
+	.uleb128 0x3
+	.uleb128 0x1f
+	.uleb128 0x1b
+	.uleb128 0x1f
+	.uleb128 0x11
+	.uleb128 0x1
+	.uleb128 0x12
+	.uleb128 0x7
+	.uleb128 0x10
+	.uleb128 0x17
+	.byte	0
+	.byte	0
+	.uleb128 0x2d
+	.uleb128 0x24
+	.byte	0
+	.uleb128 0xb
+	.uleb128 0xb
+	.uleb128 0x3e
+	.uleb128 0xb
+	.uleb128 0x3
+	.uleb128 0x8
+	.byte	0
+	.byte	0
+	.uleb128 0x2e
+	.uleb128 0xf
+	.byte	0
+	.uleb128 0xb
+	.uleb128 0xb
+	.byte	0
+	.byte	0
+	.uleb128 0x2f
+	.uleb128 0x13
+	.byte	0x1
+	.uleb128 0x3
+	.uleb128 0xe
+	.uleb128 0xb
+	.uleb128 0xb
+	.uleb128 0x3a
+	.uleb128 0xb
+	.uleb128 0x3b
+	.uleb128 0xb
+	.uleb128 0x1
+	.uleb128 0x13
+	.byte	0
+	.byte	0
+	.uleb128 0x30
+	.uleb128 0x16
+	.byte	0
+	.uleb128 0x3
+	.uleb128 0xe
+	.uleb128 0x3a
+	.uleb128 0xb
+	.uleb128 0x3b
+	.uleb128 0xb
+	.uleb128 0x39
+	.uleb128 0xb
+	.byte	0
+	.byte	0
+	.uleb128 0x31
+	.uleb128 0x17
+	.byte	0x1
+	.uleb128 0xb
+	.uleb128 0xb
+	.uleb128 0x3a
+	.uleb128 0xb
+	.uleb128 0x3b
+	.uleb128 0xb
+	.uleb128 0x39
+	.uleb128 0xb
+	.uleb128 0x1
+	.uleb128 0x13
+	.byte	0
+	.byte	0
+	.uleb128 0x32
+	.uleb128 0x17
+	.byte	0x1
+	.uleb128 0x3
+	.uleb128 0xe
+	.uleb128 0xb
+	.uleb128 0xb
+	.uleb128 0x3a
+	.uleb128 0xb
+	.uleb128 0x3b
+	.uleb128 0xb
+	.uleb128 0x39
+	.uleb128 0xb
+	.uleb128 0x1
+	.uleb128 0x13
+	.byte	0
+	.byte	0
+	.uleb128 0x33
+	.uleb128 0x13
+	.byte	0
+	.uleb128 0x3
+	.uleb128 0x8
+	.uleb128 0x3c
+	.uleb128 0x19
+	.byte	0
+	.byte	0
+	.uleb128 0x34
+	.uleb128 0x13
+	.byte	0x1
+	.uleb128 0x3
+	.uleb128 0x8
+	.uleb128 0xb
+	.uleb128 0x5
+	.uleb128 0x3a
+	.uleb128 0xb
+	.uleb128 0x3b
+	.uleb128 0xb
+	.uleb128 0x39
+	.uleb128 0xb
+	.uleb128 0x1
+	.uleb128 0x13
+	.byte	0
+	.byte	0
+	.uleb128 0x35
+	.uleb128 0x17
+	.byte	0
+	.uleb128 0x3
+	.uleb128 0xe
+	.uleb128 0x3c
+	.uleb128 0x19
+	.byte	0
+	.byte	0
+	.uleb128 0x36
+	.uleb128 0xd
+	.byte	0
+	.uleb128 0x3
+	.uleb128 0xe
+	.uleb128 0x3a
+	.uleb128 0xb
+	.uleb128 0x3b
+	.uleb128 0xb
+	.uleb128 0x39
+	.uleb128 0xb
+	.uleb128 0x49
+	.uleb128 0x13
+	.uleb128 0x38
+	.uleb128 0x5
+	.byte	0
+	.byte	0
+	.uleb128 0x37
+	.uleb128 0x13
+	.byte	0x1
+	.uleb128 0xb
+	.uleb128 0xb
+	.uleb128 0x3a
+	.uleb128 0xb
+	.uleb128 0x3b
+	.uleb128 0xb
+	.uleb128 0x39
+	.uleb128 0xb
+	.uleb128 0x1
+	.uleb128 0x13
+	.byte	0
+	.byte	0
+	.uleb128 0x38
+	.uleb128 0x2e
+	.byte	0x1
+	.uleb128 0x3f
+	.uleb128 0x19
+	.uleb128 0x3
+	.uleb128 0x8
+	.uleb128 0x3a
+	.uleb128 0xb
+	.uleb128 0x3b
+	.uleb128 0xb
+	.uleb128 0x39
+	.uleb128 0xb
+	.uleb128 0x27
+	.uleb128 0x19
+	.uleb128 0x49
+	.uleb128 0x13
+	.uleb128 0x3c
+	.uleb128 0x19
+	.uleb128 0x1
+	.uleb128 0x13
+	.byte	0
+	.byte	0
+	.uleb128 0x39
+	.uleb128 0x2e
+	.byte	0x1
+	.uleb128 0x3f
+	.uleb128 0x19
+	.uleb128 0x3
+	.uleb128 0xe
+	.uleb128 0x3a
+	.uleb128 0xb
+	.uleb128 0x3b
+	.uleb128 0xb
+	.uleb128 0x39
+	.uleb128 0xb
+	.uleb128 0x49
+	.uleb128 0x13
+	.uleb128 0x3c
+	.uleb128 0x19
+	.uleb128 0x1
+	.uleb128 0x13
+	.byte	0
+	.byte	0
+	.uleb128 0x3a
+	.uleb128 0x2e
+	.byte	0x1
+	.uleb128 0x3
+	.uleb128 0xe
+	.uleb128 0x3a
+	.uleb128 0xb
+	.uleb128 0x3b
+	.uleb128 0xb
+	.uleb128 0x39
+	.uleb128 0xb
+	.uleb128 0x27
+	.uleb128 0x19
+	.uleb128 0x11
+	.uleb128 0x1
+	.uleb128 0x12
+	.uleb128 0x7
+	.uleb128 0x40
+	.uleb128 0x18
+	.uleb128 0x7c
+	.uleb128 0x19
+	.uleb128 0x1
+	.uleb128 0x13
+	.byte	0
+	.byte	0
+	.uleb128 0x3b
+	.uleb128 0x2e
+	.byte	0
+	.uleb128 0x3f
+	.uleb128 0x19
+	.uleb128 0x3
+	.uleb128 0xe
+	.uleb128 0x3a
+	.uleb128 0xb
+	.uleb128 0x3b
+	.uleb128 0xb
+	.uleb128 0x39
+	.uleb128 0xb
+	.uleb128 0x11
+	.uleb128 0x1
+	.uleb128 0x12
+	.uleb128 0x7
+	.uleb128 0x40
+	.uleb128 0x18
+	.uleb128 0x7c
+	.uleb128 0x19
+	.byte	0
+	.byte	0
+	.byte	0
+	.section	.debug_aranges,"",@progbits
+	.long	0x2c
+	.value	0x2
+	.long	.Ldebug_info0
+	.byte	0x8
+	.byte	0
+	.value	0
+	.value	0
+	.quad	.Ltext0
+	.quad	.Letext0-.Ltext0
+	.quad	0
+	.quad	0
+	.section	.debug_line,"",@progbits
+.Ldebug_line0:
+	.section	.debug_str,"MS",@progbits,1
+.LASF273:
+	.string	"foamCProg"
+.LASF418:
+	.string	"TFormListCons"
+.LASF512:
+	.string	"AB_Sequence"
+.LASF691:
+	.string	"DNF_Atom"
+.LASF476:
+	.string	"AB_Fix"
+.LASF47:
+	.string	"_unused2"
+.LASF33:
+	.string	"_fileno"
+.LASF368:
+	.string	"ExpInfo"
+.LASF504:
+	.string	"AB_Qualify"
+.LASF626:
+	.string	"field"
+.LASF155:
+	.string	"abLocal"
+.LASF167:
+	.string	"abRaise"
+.LASF450:
+	.string	"AB_LitInteger"
+.LASF293:
+	.string	"foamRRNew"
+.LASF113:
+	.string	"abDocText"
+.LASF410:
+	.string	"ContainsAllq"
+.LASF288:
+	.string	"foamIf"
+.LASF755:
+	.string	"ablogTest"
+.LASF76:
+	.string	"OstWriteStringFn"
+.LASF137:
+	.string	"abFix"
+.LASF170:
+	.string	"abRestrictTo"
+.LASF163:
+	.string	"abParen"
+.LASF639:
+	.string	"dbOut"
+.LASF319:
+	.string	"intLoaded"
+.LASF298:
+	.string	"foamCCall"
+.LASF123:
+	.string	"abBuiltin"
+.LASF38:
+	.string	"_shortbuf"
+.LASF680:
+	.string	"ncafter"
+.LASF589:
+	.string	"fuses"
+.LASF710:
+	.string	"testFalse"
+.LASF509:
+	.string	"AB_RestrictTo"
+.LASF693:
+	.string	"sefoEqualDebug"
+.LASF75:
+	.string	"OstWriteCharFn"
+.LASF635:
+	.string	"StringListCons"
+.LASF80:
+	.string	"writeStringFn"
+.LASF109:
+	.string	"abGen"
+.LASF394:
+	.string	"LastCons"
+.LASF633:
+	.string	"place"
+.LASF166:
+	.string	"abQualify"
+.LASF277:
+	.string	"foamEInfo"
+.LASF671:
+	.string	"extendees"
+.LASF308:
+	.string	"foamKill"
+.LASF104:
+	.string	"symbol"
+.LASF234:
+	.string	"tqual"
+.LASF479:
+	.string	"AB_ForeignImport"
+.LASF585:
+	.string	"defNo"
+.LASF432:
+	.string	"TblKey"
+.LASF16:
+	.string	"overflow_arg_area"
+.LASF484:
+	.string	"AB_Has"
+.LASF19:
+	.string	"_flags"
+.LASF440:
+	.string	"AB_START"
+.LASF437:
+	.string	"next"
+.LASF641:
+	.string	"length"
+.LASF17:
+	.string	"reg_save_area"
+.LASF256:
+	.string	"foamDDecl"
+.LASF136:
+	.string	"abExtend"
+.LASF9:
+	.string	"__off_t"
+.LASF337:
+	.string	"unitb"
+.LASF202:
+	.string	"ownSyntax"
+.LASF694:
+	.string	"dnfAnd"
+.LASF452:
+	.string	"AB_LitString"
+.LASF655:
+	.string	"tfCond"
+.LASF541:
+	.string	"AB_State_HasPoss"
+.LASF344:
+	.string	"StabLevel"
+.LASF623:
+	.string	"usage"
+.LASF645:
+	.string	"verMinor"
+.LASF537:
+	.string	"AB_Use_LIMIT"
+.LASF407:
+	.string	"NConcat"
+.LASF679:
+	.string	"ncbefore"
+.LASF145:
+	.string	"abHas"
+.LASF39:
+	.string	"_lock"
+.LASF187:
+	.string	"FreeVar"
+.LASF208:
+	.string	"intStepNo"
+.LASF251:
+	.string	"foamRRec"
+.LASF264:
+	.string	"foamLex"
+.LASF591:
+	.string	"mark"
+.LASF692:
+	.string	"ablogDebug"
+.LASF478:
+	.string	"AB_For"
+.LASF78:
+	.string	"ostreamOps"
+.LASF481:
+	.string	"AB_Free"
+.LASF754:
+	.string	"testAbLogEqual"
+.LASF701:
+	.string	"dnfAtom"
+.LASF663:
+	.string	"isExplicitImport"
+.LASF296:
+	.string	"foamPCall"
+.LASF391:
+	.string	"FreeDeeplyTo"
+.LASF149:
+	.string	"abImport"
+.LASF654:
+	.string	"TfCondEltList"
+.LASF84:
+	.string	"fileName"
+.LASF653:
+	.string	"TfCondEltListCons"
+.LASF360:
+	.string	"Stab"
+.LASF306:
+	.string	"foamValues"
+.LASF139:
+	.string	"abFor"
+.LASF732:
+	.string	"ablog1"
+.LASF733:
+	.string	"ablog2"
+.LASF700:
+	.string	"dnfTrue"
+.LASF270:
+	.string	"foamPRef"
+.LASF480:
+	.string	"AB_ForeignExport"
+.LASF545:
+	.string	"AbEmbed"
+.LASF222:
+	.string	"queries"
+.LASF648:
+	.string	"Index"
+.LASF380:
+	.string	"Cons"
+.LASF612:
+	.string	"infoBits"
+.LASF228:
+	.string	"libNum"
+.LASF604:
+	.string	"baseType"
+.LASF108:
+	.string	"abHdr"
+.LASF578:
+	.string	"alternatives"
+.LASF531:
+	.string	"AB_Use_RetValue"
+.LASF651:
+	.string	"known"
+.LASF25:
+	.string	"_IO_write_end"
+.LASF620:
+	.string	"prog"
+.LASF317:
+	.string	"rdOnly"
+.LASF146:
+	.string	"abHide"
+.LASF675:
+	.string	"nbefore"
+.LASF751:
+	.string	"__va_list_tag"
+.LASF672:
+	.string	"declarees"
+.LASF254:
+	.string	"foamDecl"
+.LASF453:
+	.string	"AB_STR_LIMIT"
+.LASF683:
+	.string	"inDegree"
+.LASF103:
+	.string	"Symbol"
+.LASF276:
+	.string	"foamEEnsure"
+.LASF527:
+	.string	"AB_Use_Label"
+.LASF624:
+	.string	"index"
+.LASF361:
+	.string	"StabLevelListCons"
+.LASF318:
+	.string	"isOutput"
+.LASF610:
+	.string	"nLabels"
+.LASF60:
+	.string	"Length"
+.LASF717:
+	.string	"typeInfer"
+.LASF570:
+	.string	"dest"
+.LASF345:
+	.string	"stabLevel"
+.LASF118:
+	.string	"abAnd"
+.LASF399:
+	.string	"Copy"
+.LASF233:
+	.string	"TQual"
+.LASF652:
+	.string	"TfCondElt"
+.LASF657:
+	.string	"TfCond"
+.LASF540:
+	.string	"AB_State_AbSyn"
+.LASF536:
+	.string	"AB_Use_Elided"
+.LASF135:
+	.string	"abExport"
+.LASF482:
+	.string	"AB_Generate"
+.LASF529:
+	.string	"AB_Use_Define"
+.LASF523:
+	.string	"abSynTag"
+.LASF712:
+	.string	"abFrSyme"
+.LASF677:
+	.string	"cdependents"
+.LASF336:
+	.string	"constp"
+.LASF221:
+	.string	"consts"
+.LASF335:
+	.string	"constv"
+.LASF300:
+	.string	"foamCFCall"
+.LASF586:
+	.string	"defList"
+.LASF412:
+	.string	"Position"
+.LASF555:
+	.string	"seman"
+.LASF617:
+	.string	"locals"
+.LASF279:
+	.string	"foamRElt"
+.LASF312:
+	.string	"foamCatch"
+.LASF445:
+	.string	"AB_SYM_LIMIT"
+.LASF549:
+	.string	"implicit"
+.LASF423:
+	.string	"TQualList"
+.LASF195:
+	.string	"type"
+.LASF285:
+	.string	"foamUnimp"
+.LASF628:
+	.string	"eltType"
+.LASF707:
+	.string	"afprintf"
+.LASF376:
+	.string	"SymbolList"
+.LASF738:
+	.string	"D0_imp"
+.LASF698:
+	.string	"dnfIsFalse"
+.LASF714:
+	.string	"testIntEqual"
+.LASF375:
+	.string	"SymbolListCons"
+.LASF219:
+	.string	"domImports"
+.LASF143:
+	.string	"abGenerate"
+.LASF550:
+	.string	"embed"
+.LASF93:
+	.string	"Table"
+.LASF152:
+	.string	"abLabel"
+.LASF32:
+	.string	"_chain"
+.LASF323:
+	.string	"topc"
+.LASF97:
+	.string	"info"
+.LASF426:
+	.string	"SymeListCons"
+.LASF320:
+	.string	"idName"
+.LASF134:
+	.string	"abExit"
+.LASF258:
+	.string	"foamDEnv"
+.LASF248:
+	.string	"foamArb"
+.LASF2:
+	.string	"unsigned char"
+.LASF249:
+	.string	"foamArr"
+.LASF548:
+	.string	"defnIdx"
+.LASF704:
+	.string	"pretend"
+.LASF752:
+	.string	"_IO_lock_t"
+.LASF81:
+	.string	"closeFn"
+.LASF12:
+	.string	"float"
+.LASF454:
+	.string	"AB_NODE_START"
+.LASF263:
+	.string	"foamLoc"
+.LASF649:
+	.string	"tfCondElt"
+.LASF196:
+	.string	"locmask"
+.LASF569:
+	.string	"whole"
+.LASF715:
+	.string	"comsgErrorCount"
+.LASF67:
+	.string	"MostAlignedType"
+.LASF280:
+	.string	"foamRRElt"
+.LASF517:
+	.string	"AB_While"
+.LASF588:
+	.string	"invInfo"
+.LASF373:
+	.string	"FoamUses"
+.LASF59:
+	.string	"Hash"
+.LASF473:
+	.string	"AB_Exit"
+.LASF429:
+	.string	"UdInfoList"
+.LASF255:
+	.string	"foamGDecl"
+.LASF642:
+	.string	"libHdr"
+.LASF224:
+	.string	"conditions"
+.LASF91:
+	.string	"SrcPosStack"
+.LASF728:
+	.string	"init"
+.LASF435:
+	.string	"TblEqFun"
+.LASF581:
+	.string	"within"
+.LASF510:
+	.string	"AB_Return"
+.LASF485:
+	.string	"AB_Hide"
+.LASF92:
+	.string	"stack"
+.LASF629:
+	.string	"clos"
+.LASF400:
+	.string	"CopyTo"
+.LASF230:
+	.string	"tposs"
+.LASF371:
+	.string	"_InvInfo"
+.LASF246:
+	.string	"foamDFlo"
+.LASF265:
+	.string	"foamGlo"
+.LASF387:
+	.string	"FreeCons"
+.LASF551:
+	.string	"impl"
+.LASF172:
+	.string	"abReturn"
+.LASF142:
+	.string	"abFree"
+.LASF218:
+	.string	"thdExports"
+.LASF24:
+	.string	"_IO_write_ptr"
+.LASF271:
+	.string	"foamLabel"
+.LASF272:
+	.string	"foamPtr"
+.LASF405:
+	.string	"NReverse"
+.LASF259:
+	.string	"foamDFmt"
+.LASF358:
+	.string	"extendSymes"
+.LASF260:
+	.string	"foamDef"
+.LASF573:
+	.string	"elseAlt"
+.LASF584:
+	.string	"lazy"
+.LASF558:
+	.string	"test"
+.LASF307:
+	.string	"foamUnit"
+.LASF535:
+	.string	"AB_Use_Except"
+.LASF659:
+	.string	"names"
+.LASF301:
+	.string	"foamOFCall"
+.LASF364:
+	.string	"optInfo"
+.LASF220:
+	.string	"domExportNames"
+.LASF622:
+	.string	"symeIndex"
+.LASF528:
+	.string	"AB_Use_Assign"
+.LASF508:
+	.string	"AB_Repeat"
+.LASF205:
+	.string	"hasSelfSelf"
+.LASF217:
+	.string	"catExports"
+.LASF613:
+	.string	"size"
+.LASF129:
+	.string	"abDefine"
+.LASF99:
+	.string	"buckc"
+.LASF48:
+	.string	"FILE"
+.LASF168:
+	.string	"abReference"
+.LASF746:
+	.string	"D1_def"
+.LASF539:
+	.string	"ab_state"
+.LASF605:
+	.string	"eltv"
+.LASF100:
+	.string	"buckv"
+.LASF342:
+	.string	"ArEntry"
+.LASF611:
+	.string	"retType"
+.LASF668:
+	.string	"imports"
+.LASF240:
+	.string	"foamBool"
+.LASF232:
+	.string	"tconst"
+.LASF18:
+	.string	"size_t"
+.LASF546:
+	.string	"abSeman"
+.LASF238:
+	.string	"foamNil"
+.LASF90:
+	.string	"rest"
+.LASF302:
+	.string	"foamPushEnv"
+.LASF127:
+	.string	"abComma"
+.LASF495:
+	.string	"AB_MDefine"
+.LASF383:
+	.string	"Listv"
+.LASF563:
+	.string	"iterv"
+.LASF705:
+	.string	"qualify"
+.LASF367:
+	.string	"_UdInfo"
+.LASF448:
+	.string	"AB_DOC_LIMIT"
+.LASF574:
+	.string	"param"
+.LASF235:
+	.string	"Foam"
+.LASF621:
+	.string	"protocol"
+.LASF171:
+	.string	"abRetractTo"
+.LASF505:
+	.string	"AB_Quote"
+.LASF466:
+	.string	"AB_Default"
+.LASF343:
+	.string	"ar_entry"
+.LASF28:
+	.string	"_IO_save_base"
+.LASF305:
+	.string	"foamRRFmt"
+.LASF451:
+	.string	"AB_LitFloat"
+.LASF532:
+	.string	"AB_Use_NoValue"
+.LASF223:
+	.string	"cascades"
+.LASF470:
+	.string	"AB_Do"
+.LASF678:
+	.string	"cdependees"
+.LASF750:
+	.string	"GNU C99 12.2.0 -mtune=generic -march=x86-64 -g -O0 -std=c99 -fasynchronous-unwind-tables"
+.LASF362:
+	.string	"first"
+.LASF389:
+	.string	"FreeTo"
+.LASF252:
+	.string	"foamProg"
+.LASF398:
+	.string	"IsLonger"
+.LASF665:
+	.string	"isCategoryImport"
+.LASF241:
+	.string	"foamByte"
+.LASF86:
+	.string	"SrcPos"
+.LASF321:
+	.string	"file"
+.LASF599:
+	.string	"HIntData"
+.LASF729:
+	.string	"text"
+.LASF594:
+	.string	"code"
+.LASF42:
+	.string	"_wide_data"
+.LASF229:
+	.string	"TPoss"
+.LASF157:
+	.string	"abMDefine"
+.LASF650:
+	.string	"list"
+.LASF313:
+	.string	"foamProtect"
+.LASF647:
+	.string	"Section"
+.LASF128:
+	.string	"abDefault"
+.LASF262:
+	.string	"foamPar"
+.LASF191:
+	.string	"fieldc"
+.LASF231:
+	.string	"TConst"
+.LASF353:
+	.string	"idsInScope"
+.LASF199:
+	.string	"fieldv"
+.LASF511:
+	.string	"AB_Select"
+.LASF695:
+	.string	"dnfOr"
+.LASF483:
+	.string	"AB_Goto"
+.LASF436:
+	.string	"TblSlot"
+.LASF565:
+	.string	"value"
+.LASF374:
+	.string	"foamuses_struct"
+.LASF727:
+	.string	"fini"
+.LASF70:
+	.string	"OStreamPutFun"
+.LASF616:
+	.string	"params"
+.LASF455:
+	.string	"AB_Add"
+.LASF347:
+	.string	"lambdaLevel"
+.LASF561:
+	.string	"expr"
+.LASF350:
+	.string	"isChecked"
+.LASF397:
+	.string	"IsShorter"
+.LASF506:
+	.string	"AB_Raise"
+.LASF468:
+	.string	"AB_DDefine"
+.LASF207:
+	.string	"__absyn"
+.LASF706:
+	.string	"apply1"
+.LASF281:
+	.string	"foamIRElt"
+.LASF354:
+	.string	"labelsInScope"
+.LASF630:
+	.string	"retFmt"
+.LASF182:
+	.string	"AbSub"
+.LASF110:
+	.string	"abBlank"
+.LASF684:
+	.string	"cmarked"
+.LASF598:
+	.string	"ByteData"
+.LASF201:
+	.string	"tform"
+.LASF117:
+	.string	"abAdd"
+.LASF501:
+	.string	"AB_Paren"
+.LASF688:
+	.string	"dnf_Or"
+.LASF442:
+	.string	"AB_Id"
+.LASF486:
+	.string	"AB_If"
+.LASF542:
+	.string	"AB_State_HasUnique"
+.LASF674:
+	.string	"dependees"
+.LASF372:
+	.string	"SImpl"
+.LASF502:
+	.string	"AB_PLambda"
+.LASF183:
+	.string	"abSub"
+.LASF174:
+	.string	"abSequence"
+.LASF188:
+	.string	"fvar"
+.LASF582:
+	.string	"pure"
+.LASF489:
+	.string	"AB_Iterate"
+.LASF735:
+	.string	"testAblogSefo"
+.LASF341:
+	.string	"macros"
+.LASF180:
+	.string	"abYield"
+.LASF411:
+	.string	"Posq"
+.LASF130:
+	.string	"abDDefine"
+.LASF119:
+	.string	"abApply"
+.LASF637:
+	.string	"String_listOpsStruct"
+.LASF56:
+	.string	"AInt"
+.LASF625:
+	.string	"level"
+.LASF357:
+	.string	"boundSymes"
+.LASF315:
+	.string	"name"
+.LASF115:
+	.string	"abLitString"
+.LASF333:
+	.string	"typeb"
+.LASF329:
+	.string	"typec"
+.LASF658:
+	.string	"SymeSet"
+.LASF458:
+	.string	"AB_Assert"
+.LASF30:
+	.string	"_IO_save_end"
+.LASF396:
+	.string	"IsLength"
+.LASF332:
+	.string	"typep"
+.LASF739:
+	.string	"d0_def"
+.LASF331:
+	.string	"types"
+.LASF330:
+	.string	"typev"
+.LASF102:
+	.string	"bint"
+.LASF520:
+	.string	"AB_NODE_LIMIT"
+.LASF339:
+	.string	"unit"
+.LASF144:
+	.string	"abGoto"
+.LASF291:
+	.string	"foamANew"
+.LASF575:
+	.string	"rtype"
+.LASF15:
+	.string	"fp_offset"
+.LASF686:
+	.string	"TFormUsesListCons"
+.LASF530:
+	.string	"AB_Use_Value"
+.LASF14:
+	.string	"gp_offset"
+.LASF526:
+	.string	"AB_Use_Type"
+.LASF580:
+	.string	"always"
+.LASF164:
+	.string	"abPLambda"
+.LASF600:
+	.string	"SIntData"
+.LASF122:
+	.string	"abBreak"
+.LASF105:
+	.string	"AbSyn"
+.LASF213:
+	.string	"selfself"
+.LASF247:
+	.string	"foamWord"
+.LASF572:
+	.string	"thenAlt"
+.LASF151:
+	.string	"abIterate"
+.LASF185:
+	.string	"abLogic"
+.LASF176:
+	.string	"abTry"
+.LASF245:
+	.string	"foamSFlo"
+.LASF226:
+	.string	"__mark"
+.LASF3:
+	.string	"short unsigned int"
+.LASF359:
+	.string	"exportedTypes"
+.LASF6:
+	.string	"signed char"
+.LASF154:
+	.string	"abLet"
+.LASF73:
+	.string	"ostream"
+.LASF253:
+	.string	"foamClos"
+.LASF753:
+	.string	"_SImpl"
+.LASF107:
+	.string	"abSyn"
+.LASF295:
+	.string	"foamCast"
+.LASF275:
+	.string	"foamLoose"
+.LASF169:
+	.string	"abRepeat"
+.LASF64:
+	.string	"CString"
+.LASF422:
+	.string	"TQualListCons"
+.LASF682:
+	.string	"outEdges"
+.LASF98:
+	.string	"count"
+.LASF242:
+	.string	"foamHInt"
+.LASF177:
+	.string	"abWhere"
+.LASF669:
+	.string	"inlines"
+.LASF420:
+	.string	"TConstListCons"
+.LASF54:
+	.string	"UShort"
+.LASF138:
+	.string	"abFluid"
+.LASF427:
+	.string	"SymeList"
+.LASF467:
+	.string	"AB_Define"
+.LASF10:
+	.string	"__off64_t"
+.LASF198:
+	.string	"full"
+.LASF200:
+	.string	"TForm"
+.LASF392:
+	.string	"FreeIfSat"
+.LASF419:
+	.string	"TFormList"
+.LASF22:
+	.string	"_IO_read_base"
+.LASF268:
+	.string	"foamEnv"
+.LASF40:
+	.string	"_offset"
+.LASF82:
+	.string	"OStreamOps"
+.LASF500:
+	.string	"AB_Or"
+.LASF660:
+	.string	"TFormUses"
+.LASF203:
+	.string	"state"
+.LASF27:
+	.string	"_IO_buf_end"
+.LASF414:
+	.string	"FillVector"
+.LASF640:
+	.string	"libSect"
+.LASF690:
+	.string	"dnf_And"
+.LASF370:
+	.string	"InvInfo"
+.LASF557:
+	.string	"capsule"
+.LASF521:
+	.string	"AB_LIMIT"
+.LASF46:
+	.string	"_mode"
+.LASF23:
+	.string	"_IO_write_base"
+.LASF662:
+	.string	"isImported"
+.LASF568:
+	.string	"function"
+.LASF547:
+	.string	"comment"
+.LASF716:
+	.string	"testTrue"
+.LASF737:
+	.string	"D0_def"
+.LASF433:
+	.string	"TblElt"
+.LASF456:
+	.string	"AB_And"
+.LASF204:
+	.string	"hasSelf"
+.LASF193:
+	.string	"bits"
+.LASF614:
+	.string	"time"
+.LASF703:
+	.string	"restrictTo"
+.LASF214:
+	.string	"parents"
+.LASF87:
+	.string	"SrcPosCell"
+.LASF619:
+	.string	"levels"
+.LASF186:
+	.string	"fake"
+.LASF744:
+	.string	"C0_def"
+.LASF237:
+	.string	"foamGen"
+.LASF8:
+	.string	"long int"
+.LASF722:
+	.string	"abNewOfList"
+.LASF533:
+	.string	"AB_Use_Iterator"
+.LASF384:
+	.string	"ListNull"
+.LASF538:
+	.string	"AbUse"
+.LASF606:
+	.string	"format"
+.LASF49:
+	.string	"_IO_marker"
+.LASF303:
+	.string	"foamPopEnv"
+.LASF88:
+	.string	"sposCell"
+.LASF609:
+	.string	"endOffset"
+.LASF402:
+	.string	"CopyDeeplyTo"
+.LASF206:
+	.string	"hasCascades"
+.LASF579:
+	.string	"cond"
+.LASF378:
+	.string	"AbSynList"
+.LASF723:
+	.string	"stdtypes"
+.LASF646:
+	.string	"numSect"
+.LASF559:
+	.string	"label"
+.LASF576:
+	.string	"context"
+.LASF267:
+	.string	"foamConst"
+.LASF449:
+	.string	"AB_STR_START"
+.LASF173:
+	.string	"abSelect"
+.LASF366:
+	.string	"UdInfo"
+.LASF266:
+	.string	"foamFluid"
+.LASF363:
+	.string	"OptInfo"
+.LASF488:
+	.string	"AB_Inline"
+.LASF711:
+	.string	"tiSefo"
+.LASF50:
+	.string	"_IO_codecvt"
+.LASF179:
+	.string	"abWith"
+.LASF554:
+	.string	"unique"
+.LASF438:
+	.string	"Symbol_TSet"
+.LASF524:
+	.string	"ab_use"
+.LASF294:
+	.string	"foamTRNew"
+.LASF667:
+	.string	"exports"
+.LASF681:
+	.string	"sortMark"
+.LASF83:
+	.string	"FileName"
+.LASF708:
+	.string	"ablogImplies"
+.LASF740:
+	.string	"lines"
+.LASF490:
+	.string	"AB_Label"
+.LASF304:
+	.string	"foamMFmt"
+.LASF63:
+	.string	"String"
+.LASF244:
+	.string	"foamBInt"
+.LASF552:
+	.string	"AbSeman"
+.LASF5:
+	.string	"long unsigned int"
+.LASF379:
+	.string	"AbSyn_listOpsStruct"
+.LASF514:
+	.string	"AB_Try"
+.LASF58:
+	.string	"Bool"
+.LASF190:
+	.string	"syme"
+.LASF250:
+	.string	"foamRec"
+.LASF592:
+	.string	"dvMark"
+.LASF390:
+	.string	"FreeDeeply"
+.LASF11:
+	.string	"char"
+.LASF518:
+	.string	"AB_With"
+.LASF494:
+	.string	"AB_Macro"
+.LASF85:
+	.string	"partv"
+.LASF309:
+	.string	"foamFree"
+.LASF441:
+	.string	"AB_SYM_START"
+.LASF492:
+	.string	"AB_Let"
+.LASF283:
+	.string	"foamEElt"
+.LASF430:
+	.string	"AbSyn_listPointer"
+.LASF661:
+	.string	"tformUses"
+.LASF94:
+	.string	"table"
+.LASF636:
+	.string	"StringList"
+.LASF564:
+	.string	"except"
+.LASF434:
+	.string	"TblHashFun"
+.LASF26:
+	.string	"_IO_buf_base"
+.LASF590:
+	.string	"foamHdr"
+.LASF748:
+	.string	"cond0"
+.LASF749:
+	.string	"cond1"
+.LASF603:
+	.string	"DFloData"
+.LASF340:
+	.string	"formats"
+.LASF472:
+	.string	"AB_Except"
+.LASF21:
+	.string	"_IO_read_end"
+.LASF284:
+	.string	"foamBVal"
+.LASF55:
+	.string	"ULong"
+.LASF587:
+	.string	"expInfo"
+.LASF194:
+	.string	"hash"
+.LASF72:
+	.string	"_IO_FILE"
+.LASF417:
+	.string	"Format"
+.LASF96:
+	.string	"eqFun"
+.LASF51:
+	.string	"_IO_wide_data"
+.LASF685:
+	.string	"crep"
+.LASF696:
+	.string	"dnfNotAtom"
+.LASF356:
+	.string	"tformsUnused"
+.LASF439:
+	.string	"SymbolTSet"
+.LASF292:
+	.string	"foamRNew"
+.LASF638:
+	.string	"String_listPointer"
+.LASF595:
+	.string	"sfloat"
+.LASF597:
+	.string	"BoolData"
+.LASF718:
+	.string	"scopeBind"
+.LASF120:
+	.string	"abAssert"
+.LASF69:
+	.string	"buffer"
+.LASF212:
+	.string	"self"
+.LASF269:
+	.string	"foamEEnv"
+.LASF79:
+	.string	"writeCharFn"
+.LASF388:
+	.string	"Free"
+.LASF159:
+	.string	"abNever"
+.LASF724:
+	.string	"abqParseLines"
+.LASF57:
+	.string	"UAInt"
+.LASF297:
+	.string	"foamBCall"
+.LASF747:
+	.string	"sefo0"
+.LASF730:
+	.string	"sefo1"
+.LASF731:
+	.string	"sefo2"
+.LASF65:
+	.string	"SFloat"
+.LASF225:
+	.string	"sigma"
+.LASF734:
+	.string	"testDnf"
+.LASF369:
+	.string	"_ExpInfo"
+.LASF131:
+	.string	"abDo"
+.LASF499:
+	.string	"AB_Nothing"
+.LASF314:
+	.string	"foamReturn"
+.LASF583:
+	.string	"fixed"
+.LASF111:
+	.string	"abId"
+.LASF148:
+	.string	"abIf"
+.LASF45:
+	.string	"__pad5"
+.LASF462:
+	.string	"AB_CoerceTo"
+.LASF31:
+	.string	"_markers"
+.LASF181:
+	.string	"Sefo"
+.LASF543:
+	.string	"AB_State_Error"
+.LASF725:
+	.string	"finiFile"
+.LASF274:
+	.string	"foamCEnv"
+.LASF687:
+	.string	"TFormUsesList"
+.LASF278:
+	.string	"foamAElt"
+.LASF348:
+	.string	"serialNo"
+.LASF66:
+	.string	"DFloat"
+.LASF713:
+	.string	"uniqueMeaning"
+.LASF327:
+	.string	"codev"
+.LASF352:
+	.string	"children"
+.LASF560:
+	.string	"what"
+.LASF41:
+	.string	"_codecvt"
+.LASF13:
+	.string	"double"
+.LASF289:
+	.string	"foamSeq"
+.LASF287:
+	.string	"foamSet"
+.LASF209:
+	.string	"argc"
+.LASF643:
+	.string	"magic"
+.LASF497:
+	.string	"AB_Never"
+.LASF634:
+	.string	"after"
+.LASF334:
+	.string	"constc"
+.LASF161:
+	.string	"abNothing"
+.LASF210:
+	.string	"argv"
+.LASF464:
+	.string	"AB_Comma"
+.LASF125:
+	.string	"abCoerceTo"
+.LASF726:
+	.string	"initFile"
+.LASF596:
+	.string	"CharData"
+.LASF664:
+	.string	"isParamImport"
+.LASF618:
+	.string	"fluids"
+.LASF459:
+	.string	"AB_Assign"
+.LASF74:
+	.string	"data"
+.LASF736:
+	.string	"Boolean_imp"
+.LASF175:
+	.string	"abTest"
+.LASF299:
+	.string	"foamOCall"
+.LASF106:
+	.string	"sposStack"
+.LASF189:
+	.string	"Syme"
+.LASF236:
+	.string	"foam"
+.LASF656:
+	.string	"containsEmpty"
+.LASF140:
+	.string	"abForeignImport"
+.LASF68:
+	.string	"Buffer"
+.LASF428:
+	.string	"UdInfoListCons"
+.LASF416:
+	.string	"GPrint"
+.LASF556:
+	.string	"base"
+.LASF697:
+	.string	"dnfIsTrue"
+.LASF666:
+	.string	"isCatConditionImport"
+.LASF153:
+	.string	"abLambda"
+.LASF463:
+	.string	"AB_Collect"
+.LASF534:
+	.string	"AB_Use_Default"
+.LASF77:
+	.string	"OstCloseFn"
+.LASF721:
+	.string	"abPutUse"
+.LASF316:
+	.string	"arent"
+.LASF346:
+	.string	"lexicalLevel"
+.LASF601:
+	.string	"BIntData"
+.LASF62:
+	.string	"Pointer"
+.LASF631:
+	.string	"argsPtr"
+.LASF741:
+	.string	"absyn"
+.LASF571:
+	.string	"property"
+.LASF257:
+	.string	"foamDFluid"
+.LASF44:
+	.string	"_freeres_buf"
+.LASF513:
+	.string	"AB_Test"
+.LASF89:
+	.string	"spos"
+.LASF496:
+	.string	"AB_MLambda"
+.LASF525:
+	.string	"AB_Use_Declaration"
+.LASF184:
+	.string	"AbLogic"
+.LASF162:
+	.string	"abOr"
+.LASF322:
+	.string	"offset"
+.LASF644:
+	.string	"verMajor"
+.LASF36:
+	.string	"_cur_column"
+.LASF720:
+	.string	"stabFile"
+.LASF178:
+	.string	"abWhile"
+.LASF192:
+	.string	"kind"
+.LASF670:
+	.string	"extension"
+.LASF310:
+	.string	"foamGoto"
+.LASF446:
+	.string	"AB_DOC_START"
+.LASF150:
+	.string	"abInline"
+.LASF404:
+	.string	"Reverse"
+.LASF116:
+	.string	"abLitFloat"
+.LASF156:
+	.string	"abMacro"
+.LASF491:
+	.string	"AB_Lambda"
+.LASF424:
+	.string	"StabListCons"
+.LASF243:
+	.string	"foamSInt"
+.LASF126:
+	.string	"abCollect"
+.LASF515:
+	.string	"AB_Unit"
+.LASF709:
+	.string	"ablogFrSefo"
+.LASF475:
+	.string	"AB_Extend"
+.LASF29:
+	.string	"_IO_backup_base"
+.LASF406:
+	.string	"Concat"
+.LASF20:
+	.string	"_IO_read_ptr"
+.LASF290:
+	.string	"foamSelect"
+.LASF141:
+	.string	"abForeignExport"
+.LASF197:
+	.string	"hasmask"
+.LASF112:
+	.string	"abIdSy"
+.LASF43:
+	.string	"_freeres_list"
+.LASF498:
+	.string	"AB_Not"
+.LASF165:
+	.string	"abPretendTo"
+.LASF444:
+	.string	"AB_Blank"
+.LASF95:
+	.string	"hashFun"
+.LASF158:
+	.string	"abMLambda"
+.LASF522:
+	.string	"AbSynTag"
+.LASF415:
+	.string	"Print"
+.LASF607:
+	.string	"nargs"
+.LASF608:
+	.string	"values"
+.LASF742:
+	.string	"prime"
+.LASF395:
+	.string	"_Length"
+.LASF35:
+	.string	"_old_offset"
+.LASF282:
+	.string	"foamTRElt"
+.LASF503:
+	.string	"AB_PretendTo"
+.LASF493:
+	.string	"AB_Local"
+.LASF465:
+	.string	"AB_Declare"
+.LASF743:
+	.string	"testAblog"
+.LASF324:
+	.string	"symec"
+.LASF421:
+	.string	"TConstList"
+.LASF160:
+	.string	"abNot"
+.LASF326:
+	.string	"symep"
+.LASF215:
+	.string	"symes"
+.LASF325:
+	.string	"symev"
+.LASF52:
+	.string	"long long int"
+.LASF487:
+	.string	"AB_Import"
+.LASF311:
+	.string	"foamThrow"
+.LASF385:
+	.string	"Equal"
+.LASF34:
+	.string	"_flags2"
+.LASF443:
+	.string	"AB_IdSy"
+.LASF602:
+	.string	"SFloData"
+.LASF147:
+	.string	"abHook"
+.LASF365:
+	.string	"SefoMark"
+.LASF133:
+	.string	"abExcept"
+.LASF132:
+	.string	"abDocumented"
+.LASF457:
+	.string	"AB_Apply"
+.LASF507:
+	.string	"AB_Reference"
+.LASF553:
+	.string	"poss"
+.LASF121:
+	.string	"abAssign"
+.LASF745:
+	.string	"C1_def"
+.LASF393:
+	.string	"Drop"
+.LASF562:
+	.string	"body"
+.LASF431:
+	.string	"sposNone"
+.LASF239:
+	.string	"foamChar"
+.LASF286:
+	.string	"foamNOp"
+.LASF61:
+	.string	"Offset"
+.LASF471:
+	.string	"AB_Documented"
+.LASF227:
+	.string	"parent"
+.LASF403:
+	.string	"NMap"
+.LASF409:
+	.string	"Member"
+.LASF349:
+	.string	"isLocked"
+.LASF124:
+	.string	"abDeclare"
+.LASF71:
+	.string	"OStream"
+.LASF413:
+	.string	"NRemove"
+.LASF53:
+	.string	"UByte"
+.LASF676:
+	.string	"nafter"
+.LASF702:
+	.string	"dnfEqual"
+.LASF566:
+	.string	"origin"
+.LASF460:
+	.string	"AB_Break"
+.LASF401:
+	.string	"CopyDeeply"
+.LASF567:
+	.string	"destination"
+.LASF689:
+	.string	"DNF_And"
+.LASF632:
+	.string	"defs"
+.LASF216:
+	.string	"domExports"
+.LASF338:
+	.string	"postbl"
+.LASF381:
+	.string	"Singleton"
+.LASF544:
+	.string	"AB_State_LIMIT"
+.LASF615:
+	.string	"auxInfo"
+.LASF4:
+	.string	"unsigned int"
+.LASF699:
+	.string	"dnfFalse"
+.LASF474:
+	.string	"AB_Export"
+.LASF408:
+	.string	"Memq"
+.LASF577:
+	.string	"testPart"
+.LASF719:
+	.string	"stabPushLevel"
+.LASF447:
+	.string	"AB_DocText"
+.LASF101:
+	.string	"BInt"
+.LASF7:
+	.string	"short int"
+.LASF382:
+	.string	"List"
+.LASF425:
+	.string	"StabList"
+.LASF355:
+	.string	"tformsUsed"
+.LASF516:
+	.string	"AB_Where"
+.LASF37:
+	.string	"_vtable_offset"
+.LASF477:
+	.string	"AB_Fluid"
+.LASF469:
+	.string	"AB_Delay"
+.LASF328:
+	.string	"triggers"
+.LASF351:
+	.string	"isSubstable"
+.LASF261:
+	.string	"foamDDef"
+.LASF211:
+	.string	"stab"
+.LASF519:
+	.string	"AB_Yield"
+.LASF593:
+	.string	"defnId"
+.LASF673:
+	.string	"dependents"
+.LASF461:
+	.string	"AB_Builtin"
+.LASF114:
+	.string	"abLitInteger"
+.LASF386:
+	.string	"Find"
+.LASF627:
+	.string	"builtinTag"
+.LASF377:
+	.string	"AbSynListCons"
+	.section	.debug_line_str,"MS",@progbits,1
+.LASF0:
+	.string	"test/test_ablogic.c"
+.LASF1:
+	.string	"/repo/aldor/aldor/src"
+	.ident	"GCC: (Debian 12.2.0-14+deb12u1) 12.2.0"
+	.section	.note.GNU-stack,"",@progbits
